@@ -304,11 +304,13 @@ Proof.
   lia.
 Qed.
 
-Lemma send_Inv s tr p dial len tag ok dok sid :
-  Inv s tr -> Inv (fst (h_send s p dial len tag ok dok sid)) (tr ++ snd (h_send s p dial len tag ok dok sid)).
+Lemma send_Inv s tr p dial len tag fb ok dok sid :
+  Inv s tr -> Inv (fst (h_send s p dial len tag fb ok dok sid)) (tr ++ snd (h_send s p dial len tag fb ok dok sid)).
 Proof.
   intros I. unfold h_send. simp_sets.
   assert (T1 : forall r, terms r [OSent (next_rid s)] = 0%nat) by reflexivity.
+  assert (T1o : forall r, terms r [OSent (next_rid s); OOpen sid p] = 0%nat) by reflexivity.
+  assert (T1d : forall r, terms r [OSent (next_rid s); ODial p] = 0%nat) by reflexivity.
   assert (T2 : forall r c, terms r [OSent (next_rid s); OFail (next_rid s) c]
                            = if N.eqb r (next_rid s) then 1%nat else 0%nat).
   { intros r c. rewrite terms_cons_nonterm by reflexivity. apply terms_one_fail. }
@@ -317,15 +319,18 @@ Proof.
     constructor; [intros r|intros r| ]; unf; simp_sets; cbn [andb]; rewrite ?T2; try lia; try (split; [lia|intros _; lia]). }
   destruct (memN p (peers s)); [destruct ok|destruct dial; cbn [negb]; [destruct dok|]]; cbn [fst snd]; auto.
   - eapply (Inv_step true); [exact I| |].
-    + constructor; [intros r|intros r| ]; unf; simp_sets; cbn [andb]; rewrite ?T1, ?map_app, ?cnt_app; cbn [map snd rid_po po_req q_rid];
+    + constructor; [intros r|intros r| ]; unf; simp_sets; cbn [andb]; rewrite ?T1, ?T1o, ?T1d, ?map_app, ?cnt_app; cbn [map snd rid_po po_req q_rid];
         rewrite ?cnt_cons, ?cnt_nil; try lia; try (split; [lia|intros _; lia]).
     + simp_sets. intros po H. apply in_app_or in H. apply in_or_app. destruct H as [H|[<-|[]]].
       * left. exact (inv_po _ _ I po H).
       * right. left. reflexivity.
   - eapply (Inv_step true); [exact I| |intros po H; exact (inv_po _ _ I po H)].
-    constructor; [intros r|intros r| ]; unf; simp_sets; cbn [andb]; rewrite ?T1, ?map_app, ?cnt_app; cbn [map snd rid_d q_rid];
+    constructor; [intros r|intros r| ]; unf; simp_sets; cbn [andb]; rewrite ?T1, ?T1o, ?T1d, ?map_app, ?cnt_app; cbn [map snd rid_d q_rid];
       rewrite ?cnt_cons, ?cnt_nil; try lia; try (split; [lia|intros _; lia]).
 Qed.
+
+Lemma terms_map_open r p l : terms r (map (fun po => OOpen (po_sid po) p) l) = 0%nat.
+Proof. induction l; [reflexivity|]. cbn [map]. rewrite terms_cons_nonterm by reflexivity. exact IHl. Qed.
 
 Lemma split_cnt {A} (f : A -> N) n l r :
   (cnt r (map f (firstn n l)) + cnt r (map f (skipn n l)) = cnt r (map f l))%nat.
@@ -352,7 +357,7 @@ Proof.
         try lia; try (split; [lia|discriminate]).
     + eapply (Inv_step false); [exact I| |].
       * constructor; [intros r|intros r| ]; unf; simp_sets; cbn [andb];
-          rewrite ?(terms_map_fail rid_d), ?map_app, ?cnt_app, ?number_pouts_rids, ?map_map; cbn [snd];
+          rewrite ?terms_app, ?terms_map_open, ?(terms_map_fail rid_d), ?map_app, ?cnt_app, ?number_pouts_rids, ?map_map; cbn [snd];
           try specialize (P r); try specialize (Sp r);
           change (map (fun x0 : N * req => q_rid (snd x0)) (x :: okl)) with (map rid_d (x :: okl));
           try lia; try (split; [lia|discriminate]).
@@ -478,11 +483,11 @@ Proof.
   - intros r Hr. specialize (C r Hr). rewrite terms_app in *. rewrite terms_cons_nonterm by apply Hx. exact C.
 Qed.
 
-Lemma opened_body_Inv cf0 s tr po c gate now :
+Lemma opened_body_Inv cf0 s tr po c gate now neg :
   Inv s tr -> In po (pouts s) ->
-  Inv (fst (opened_body cf0 s po c gate now)) (tr ++ snd (opened_body cf0 s po c gate now)).
+  Inv (fst (opened_body cf0 s po c gate now neg)) (tr ++ snd (opened_body cf0 s po c gate now neg)).
 Proof.
-  intros I Hin. unfold opened_body.
+  intros I Hin. unfold opened_body. cbn [q_rid q_len q_tag q_fb].
   pose proof (fun r => cnt_drop_in rid_po r po (pouts s) Hin) as D.
   (* dropping the entry alone *)
   assert (M0 : Moves false s (set_pouts s (drop_po po (pouts s))) []).
@@ -502,17 +507,17 @@ Proof.
     - constructor; [intros r|intros r|]; unf; simp_sets; cbn [andb]; rewrite ?T, ?map_app, ?cnt_app; cbn [map];
         rewrite ?E, ?cnt_cons, ?cnt_nil; try specialize (D r); unfold rid_po, drop_po in *; try lia; try (split; [lia|discriminate]).
     - simp_sets. intros po' H. exact (proj1 (drop_po_other _ _ _ _ I H)). }
-  destruct (max_size cf0 <? q_len (po_req po)); [apply Hsettle|].
+  destruct (max_size cf0 <? _); [apply Hsettle|].
   destruct gate as [|[g|g|]]; try apply Hsettle; apply Hpush; try reflexivity.
 Qed.
 
-Lemma opened_Inv cf0 s tr sid c gate now :
-  Inv s tr -> Inv (fst (h_opened cf0 s sid c gate now)) (tr ++ snd (h_opened cf0 s sid c gate now)).
+Lemma opened_Inv cf0 s tr sid c gate now neg :
+  Inv s tr -> Inv (fst (h_opened cf0 s sid c gate now neg)) (tr ++ snd (h_opened cf0 s sid c gate now neg)).
 Proof.
   intros I. unfold h_opened. destruct (find_po sid (pouts s)) as [po|] eqn:F; cbn [fst snd];
     [|rewrite app_nil_r; exact I].
-  pose proof (opened_body_Inv cf0 s tr po c gate now I (proj1 (find_in _ _ _ F))) as H.
-  destruct (opened_body _ _ _ _ _ _) as [s1 o]. cbn [fst snd] in *.
+  pose proof (opened_body_Inv cf0 s tr po c gate now neg I (proj1 (find_in _ _ _ F))) as H.
+  destruct (opened_body _ _ _ _ _ _ _) as [s1 o]. cbn [fst snd] in *.
   apply Inv_cons_quiet; [reflexivity|exact H].
 Qed.
 
@@ -550,13 +555,28 @@ Proof.
   exact (proj1 (complete_Inv s tr f _ I (fut_in_not_po _ _ _ I (find_fut_in _ _ _ F)))).
 Qed.
 
+Lemma fb_resp_terms r f o : terms r (fb_resp f o) = 0%nat.
+Proof.
+  unfold fb_resp. destruct (f_neg f =? 0); [reflexivity|].
+  induction o as [|x o IH]; [reflexivity|]. cbn [flat_map]. rewrite terms_app, IH. destruct x; reflexivity.
+Qed.
+
+Lemma Inv_app_quiet s tr o x : (forall r, terms r x = 0%nat) -> Inv s (tr ++ o) -> Inv s (tr ++ o ++ x).
+Proof.
+  intros Hx [A B C D]. constructor; auto.
+  - intros r. specialize (A r). rewrite !terms_app in *. rewrite Hx. lia.
+  - intros r Hr. specialize (C r Hr). rewrite !terms_app in *. rewrite Hx. lia.
+Qed.
+
 Lemma read_Inv s tr c res :
   Inv s tr -> Inv (fst (fut_read s c res)) (tr ++ snd (fut_read s c res)).
 Proof.
   intros I. unfold fut_read. destruct (find_fut c (futs s)) as [f|] eqn:F; cbn [fst snd];
     [|rewrite app_nil_r; exact I].
   destruct (f_wait f); cbn [fst snd]; [|rewrite app_nil_r; exact I].
-  exact (proj1 (complete_Inv s tr f _ I (fut_in_not_po _ _ _ I (find_fut_in _ _ _ F)))).
+  pose proof (proj1 (complete_Inv s tr f res I (fut_in_not_po _ _ _ I (find_fut_in _ _ _ F)))) as H.
+  destruct (complete s f res) as [s1 o]. cbn [fst snd] in *.
+  apply Inv_app_quiet; [intros r; apply fb_resp_terms|exact H].
 Qed.
 
 Lemma advance_Inv s tr now :
@@ -594,7 +614,7 @@ Proof.
 Qed.
 
 (* ---- inbound side: never touches the ledger ---- *)
-Lemma inopen_same cf0 s p c : same_ledger s (fst (h_inopen cf0 s p c)) /\ snd (h_inopen cf0 s p c) = [].
+Lemma inopen_same cf0 s p c neg : same_ledger s (fst (h_inopen cf0 s p c neg)) /\ snd (h_inopen cf0 s p c neg) = [].
 Proof.
   unfold h_inopen. destruct (match max_inb cf0 with Some m => m <=? inbound_load s | None => false end);
     cbn [fst snd]; [split; [apply same_ledger_refl|reflexivity]|].
@@ -607,7 +627,7 @@ Proof.
   unfold h_inread. destruct (find_rd c (rdrs s)) as [rd|]; cbn [fst snd];
     [|split; [apply same_ledger_refl|reflexivity]].
   simp_sets. destruct (memN (r_peer rd) (peers s) && memP (r_peer rd, r_irid rd) (inb s));
-    [destruct good|]; cbn [fst snd]; unfold same_ledger; simp_sets; repeat split; try lia; try reflexivity.
+    [destruct good; [destruct (r_neg rd =? 0)|]|]; cbn [fst snd]; unfold same_ledger; simp_sets; repeat split; try lia; try reflexivity.
 Qed.
 
 Lemma uresp_same cf0 s irid len tag fb gate now :
@@ -654,8 +674,8 @@ Lemma step_Inv cf0 s en e tr :
 Proof.
   intros I. destruct e; cbn [step].
   - (* send *)
-    pose proof (send_Inv s tr p dial len tag (open_ok p en) (p <? ndial cf0) (next_sid en) I) as H.
-    destruct (h_send _ _ _ _ _ _ _ _) as [s1 o]. exact H.
+    match goal with |- context [h_send s p dial len tag ?fb0 ?a0 ?b0 ?c0] => pose proof (send_Inv s tr p dial len tag fb0 a0 b0 c0 I) as H end.
+    destruct (h_send _ _ _ _ _ _ _ _ _) as [s1 o]. exact H.
   - pose proof (cancel_Inv s tr rid I) as H. destruct (h_cancel s rid) as [s1 o]. exact H.
   - destruct (conn_of p en); cbn [fst snd]; [rewrite app_nil_r; exact I|].
     match goal with |- context [h_established s p ?n ?sd] => pose proof (established_Inv s tr p n sd I) as H end.
@@ -664,8 +684,8 @@ Proof.
     pose proof (closed_Inv s tr p I) as H. destruct (h_closed s p) as [s1 o]. exact H.
   - pose proof (dialfail_Inv s tr p I) as H. destruct (h_dialfail s p) as [s1 o]. exact H.
   - destruct (nth_mod k (opens en)) as [[sid q]|]; cbn [fst snd]; [|rewrite app_nil_r; exact I].
-    pose proof (opened_Inv cf0 s tr sid (N.of_nat (length (chans en))) (N.min gate 2) (now en) I) as H.
-    destruct (h_opened _ _ _ _ _ _) as [s1 o]. exact H.
+    pose proof (opened_Inv cf0 s tr sid (N.of_nat (length (chans en))) (N.min gate 2) (now en) neg I) as H.
+    destruct (h_opened _ _ _ _ _ _ _) as [s1 o]. exact H.
   - destruct (nth_mod k (opens en)) as [[sid q]|]; cbn [fst snd]; [|rewrite app_nil_r; exact I].
     pose proof (openfail_Inv s tr sid unsupported I) as H. destruct (h_openfail _ _ _) as [s1 o]. exact H.
   - (* unblock *)
@@ -712,8 +732,8 @@ Proof.
     rewrite app_assoc. eapply Inv_same_ledger; [exact H| |intros r; apply adv_out_terms].
     unfold rsp_advance, same_ledger. simp_sets. repeat split; try lia; try reflexivity.
   - destruct (conn_of p en); cbn [fst snd]; [|rewrite app_nil_r; exact I].
-    pose proof (inopen_same cf0 s p (N.of_nat (length (chans en)))) as [H T].
-    destruct (h_inopen _ _ _ _) as [s1 o]. cbn [fst snd] in *. subst o.
+    pose proof (inopen_same cf0 s p (N.of_nat (length (chans en))) neg) as [H T].
+    destruct (h_inopen _ _ _ _ _) as [s1 o]. cbn [fst snd] in *. subst o.
     eapply Inv_same_ledger; [exact I|exact H|reflexivity].
   - destruct (chans en) as [|ch0 chs] eqn:CH; cbn [fst snd]; [rewrite app_nil_r; exact I|].
     destruct (nth_error _ _) as [ch|]; cbn [fst snd]; [|rewrite app_nil_r; exact I].
@@ -728,6 +748,9 @@ Proof.
   - destruct (nth_mod k (hpend en)) as [irid|]; cbn [fst snd]; [|rewrite app_nil_r; exact I].
     unfold h_urej. cbn [fst snd]. eapply Inv_same_ledger; [exact I| |reflexivity].
     unfold same_ledger. simp_sets. repeat split; try lia; try reflexivity.
+  - cbn [fst snd]. rewrite app_nil_r. exact I.
+  - unfold h_burn. cbn [fst snd]. eapply Inv_same_ledger; [exact I| |reflexivity]. unfold same_ledger; simp_sets; repeat split; try lia; try reflexivity.
+  - cbn [fst snd]. rewrite app_nil_r. exact I.
   - cbn [fst snd]. rewrite app_nil_r. exact I.
 Qed.
 
@@ -872,8 +895,8 @@ Proof.
   exact (Keeps_trans _ _ _ _ _ _ K IH).
 Qed.
 
-Lemma send_Keeps cs s p dial len tag ok dok sid :
-  Keeps cs s (fst (h_send s p dial len tag ok dok sid)) (snd (h_send s p dial len tag ok dok sid)).
+Lemma send_Keeps cs s p dial len tag fb ok dok sid :
+  Keeps cs s (fst (h_send s p dial len tag fb ok dok sid)) (snd (h_send s p dial len tag fb ok dok sid)).
 Proof.
   unfold h_send. simp_sets.
   assert (T2 : forall c, answered (next_rid s) [OSent (next_rid s); OFail (next_rid s) c]).
@@ -881,14 +904,15 @@ Proof.
   assert (Hs : forall o r, In (OSent r) (OSent (next_rid s) :: o) -> nosent o -> r = next_rid s).
   { intros o r [E|H] Hn; [congruence|destruct (Hn r H)]. }
   assert (N1 : forall c, nosent [OFail (next_rid s) c]) by (intros c r [H|[]]; discriminate).
-  assert (N0 : nosent []) by (intros r []).
+  assert (N0 : nosent [OOpen sid p]) by (intros r [H|[]]; discriminate).
+  assert (N0d : nosent [ODial p]) by (intros r [H|[]]; discriminate).
   destruct (memN p (peers s)); [destruct ok|destruct dial; cbn [negb]; [destruct dok|]]; cbn [fst snd];
     constructor; unfold owed in *; unf; simp_sets;
     try (intros g H; left; exact H);
     try (intros r H; left; rewrite ?map_app, ?cnt_app; lia).
-  - intros r H. apply (Hs [] r H) in N0. subst. left. rewrite map_app, cnt_app. cbn [map snd]. rewrite cnt_cons, N.eqb_refl. lia.
+  - intros r H. apply (Hs _ r H) in N0. subst. left. rewrite map_app, cnt_app. cbn [map snd]. rewrite cnt_cons, N.eqb_refl. lia.
   - intros r H. apply (Hs _ r H) in N1. subst. right. left. apply T2.
-  - intros r H. apply (Hs [] r H) in N0. subst. left. rewrite map_app, cnt_app. cbn [map rid_d snd q_rid]. rewrite cnt_cons, N.eqb_refl. lia.
+  - intros r H. apply (Hs _ r H) in N0d. subst. left. rewrite map_app, cnt_app. cbn [map rid_d snd q_rid]. rewrite cnt_cons, N.eqb_refl. lia.
   - intros r H. apply (Hs _ r H) in N1. subst. right. left. apply T2.
   - intros r H. apply (Hs _ r H) in N1. subst. right. left. apply T2.
 Qed.
@@ -912,11 +936,12 @@ Proof.
       rewrite (terms_map_fail rid_d).
       destruct (Nat.eq_dec (cnt r (map rid_d (skipn ok (d0 :: mine)))) 0); [left; lia|right; left; lia].
     + intros r H. exfalso. exact (nosent_map_fail rid_d _ _ r H).
-    + intros r H. specialize (P r). specialize (Sp r). rewrite (terms_map_fail rid_d).
+    + intros r H. specialize (P r). specialize (Sp r). rewrite terms_app, terms_map_open, (terms_map_fail rid_d).
       rewrite map_app, cnt_app, map_map. cbn [snd].
       change (map (fun x0 : N * req => q_rid (snd x0)) (x :: okl)) with (map rid_d (x :: okl)).
       destruct (Nat.eq_dec (cnt r (map rid_d (skipn ok (d0 :: mine)))) 0); [left; lia|right; left; lia].
-    + intros r H. exfalso. exact (nosent_map_fail rid_d _ _ r H).
+    + intros r H. exfalso. apply in_app_or in H. destruct H as [H|H]; [exact (nosent_map_fail rid_d _ _ r H)|].
+      apply in_map_iff in H. destruct H as [po [E _]]. discriminate.
 Qed.
 
 Lemma closed_Keeps cs s p : Keeps cs s (fst (h_closed s p)) (snd (h_closed s p)).
@@ -962,10 +987,10 @@ Qed.
 Lemma Keeps_set_pouts cs s l : Keeps cs s (set_pouts s l) [].
 Proof. constructor; unfold owed; unf; simp_sets; [intros r H; left; exact H|intros r []|intros g H; left; exact H]. Qed.
 
-Lemma opened_body_Keeps cs cf0 s po c gate now :
-  Keeps cs s (fst (opened_body cf0 s po c gate now)) (snd (opened_body cf0 s po c gate now)).
+Lemma opened_body_Keeps cs cf0 s po c gate now neg :
+  Keeps cs s (fst (opened_body cf0 s po c gate now neg)) (snd (opened_body cf0 s po c gate now neg)).
 Proof.
-  unfold opened_body.
+  unfold opened_body. cbn [q_rid q_len q_tag q_fb].
   assert (Hsettle : forall res, res <> RErr E_CANCELED ->
      Keeps cs s (fst (settle (set_pouts s (drop_po po (pouts s))) (po_peer po) (q_rid (po_req po)) res))
                 (snd (settle (set_pouts s (drop_po po (pouts s))) (po_peer po) (q_rid (po_req po)) res))).
@@ -978,7 +1003,7 @@ Proof.
     - intros r H. left. exact H.
     - intros r H. destruct (Hn r H).
     - intros g' H. apply in_app_or in H. destruct H as [H|[<-|[]]]; [left; exact H|right; left; exact Hg]. }
-  destruct (max_size cf0 <? q_len (po_req po)); [apply Hsettle; discriminate|].
+  destruct (max_size cf0 <? _); [apply Hsettle; discriminate|].
   destruct gate as [|[g|g|]]; try (apply Hsettle; discriminate); apply Hpush; try reflexivity.
   - intros r [].
   - intros r [H|[]]. discriminate.
@@ -993,12 +1018,12 @@ Proof.
   - exact K3.
 Qed.
 
-Lemma opened_Keeps cs cf0 s sid c gate now :
-  Keeps cs s (fst (h_opened cf0 s sid c gate now)) (snd (h_opened cf0 s sid c gate now)).
+Lemma opened_Keeps cs cf0 s sid c gate now neg :
+  Keeps cs s (fst (h_opened cf0 s sid c gate now neg)) (snd (h_opened cf0 s sid c gate now neg)).
 Proof.
   unfold h_opened. destruct (find_po sid (pouts s)) as [po|]; cbn [fst snd]; [|apply Keeps_refl].
-  pose proof (opened_body_Keeps cs cf0 s po c gate now) as H.
-  destruct (opened_body _ _ _ _ _ _) as [s1 o]. cbn [fst snd] in *.
+  pose proof (opened_body_Keeps cs cf0 s po c gate now neg) as H.
+  destruct (opened_body _ _ _ _ _ _ _) as [s1 o]. cbn [fst snd] in *.
   apply Keeps_cons_quiet; [reflexivity|discriminate|exact H].
 Qed.
 
@@ -1032,11 +1057,31 @@ Proof.
   destruct (f_wait f); cbn [fst snd]; [apply Keeps_refl|]. apply complete_Keeps. discriminate.
 Qed.
 
+Lemma fb_resp_nosent f o : nosent (fb_resp f o).
+Proof.
+  unfold fb_resp. destruct (f_neg f =? 0); [intros r []|].
+  intros r H. apply in_flat_map in H. destruct H as [x [_ H]]. destruct x; cbn in H; try tauto.
+  destruct H as [H|[]]. discriminate.
+Qed.
+
+Lemma Keeps_app_quiet cs s s' o x :
+  nosent x -> (forall r, terms r x = 0%nat) -> Keeps cs s s' o -> Keeps cs s s' (o ++ x).
+Proof.
+  intros Hn Ht [K1 K2 K3]. constructor; unfold answered in *.
+  - intros r H. rewrite terms_app, Ht. destruct (K1 r H) as [A|[A|A]]; [left; exact A|right; left; lia|right; right; exact A].
+  - intros r H. apply in_app_or in H. destruct H as [H|H]; [|destruct (Hn r H)].
+    rewrite terms_app, Ht. destruct (K2 r H) as [A|[A|A]]; [left; exact A|right; left; lia|right; right; exact A].
+  - exact K3.
+Qed.
+
 Lemma read_Keeps cs s c res :
   res <> RErr E_CANCELED -> Keeps cs s (fst (fut_read s c res)) (snd (fut_read s c res)).
 Proof.
   intros Hne. unfold fut_read. destruct (find_fut c (futs s)) as [f|]; cbn [fst snd]; [|apply Keeps_refl].
-  destruct (f_wait f); cbn [fst snd]; [|apply Keeps_refl]. apply complete_Keeps. intros E. congruence.
+  destruct (f_wait f); cbn [fst snd]; [|apply Keeps_refl].
+  pose proof (complete_Keeps cs s f res (fun E => False_ind _ (Hne E))) as K.
+  destruct (complete s f res) as [s1 o]. cbn [fst snd] in *.
+  apply Keeps_app_quiet; [apply fb_resp_nosent|intros r; apply fb_resp_terms|exact K].
 Qed.
 
 Lemma cancel_Keeps cs s rid : Keeps (rid :: cs) s (fst (h_cancel s rid)) (snd (h_cancel s rid)).
@@ -1056,7 +1101,7 @@ Qed.
 Lemma inread_nosent s c good len tag : nosent (snd (h_inread s c good len tag)).
 Proof.
   unfold h_inread. destruct (find_rd c (rdrs s)) as [rd|]; cbn [fst snd]; [|intros r []].
-  destruct (memN (r_peer rd) (peers _) && memP _ _); [destruct good|]; cbn [fst snd];
+  destruct (memN (r_peer rd) (peers _) && memP _ _); [destruct good; [destruct (r_neg rd =? 0)|]|]; cbn [fst snd];
     intros r H; cbn in H; repeat destruct H as [H|H]; try discriminate; auto.
 Qed.
 
@@ -1093,8 +1138,8 @@ Lemma step_Keeps cf0 s en e cs :
   Keeps (cs_step cs e) s (fst (fst (fst (step cf0 (s, en) e)))) (snd (fst (step cf0 (s, en) e))).
 Proof.
   intros G. destruct e; cbn [step cs_step].
-  - pose proof (send_Keeps cs s p dial len tag (open_ok p en) (p <? ndial cf0) (next_sid en)) as H.
-    destruct (h_send _ _ _ _ _ _ _ _) as [s1 o]. exact H.
+  - match goal with |- context [h_send s p dial len tag ?fb0 ?a0 ?b0 ?c0] => pose proof (send_Keeps cs s p dial len tag fb0 a0 b0 c0) as H end.
+    destruct (h_send _ _ _ _ _ _ _ _ _) as [s1 o]. exact H.
   - pose proof (cancel_Keeps cs s rid) as H. destruct (h_cancel s rid) as [s1 o]. exact H.
   - destruct (conn_of p en); cbn [fst snd]; [apply Keeps_refl|].
     match goal with |- context [h_established s p ?n ?sd] => pose proof (established_Keeps cs s p n sd) as H end.
@@ -1103,8 +1148,8 @@ Proof.
     pose proof (closed_Keeps cs s p) as H. destruct (h_closed s p) as [s1 o]. exact H.
   - pose proof (dialfail_Keeps cs s p) as H. destruct (h_dialfail s p) as [s1 o]. exact H.
   - destruct (nth_mod k (opens en)) as [[sid q]|]; cbn [fst snd]; [|apply Keeps_refl].
-    pose proof (opened_Keeps cs cf0 s sid (N.of_nat (length (chans en))) (N.min gate 2) (now en)) as H.
-    destruct (h_opened _ _ _ _ _ _) as [s1 o]. exact H.
+    pose proof (opened_Keeps cs cf0 s sid (N.of_nat (length (chans en))) (N.min gate 2) (now en) neg) as H.
+    destruct (h_opened _ _ _ _ _ _ _) as [s1 o]. exact H.
   - destruct (nth_mod k (opens en)) as [[sid q]|]; cbn [fst snd]; [|apply Keeps_refl].
     pose proof (openfail_Keeps cs s sid unsupported) as H. destruct (h_openfail _ _ _) as [s1 o]. exact H.
   - destruct (chans en) as [|ch0 chs] eqn:CH; cbn [fst snd]; [apply Keeps_refl|].
@@ -1157,8 +1202,8 @@ Proof.
     eapply Keeps_trans; [exact H|]. apply Keeps_same; [|apply adv_out_nosent].
     unfold rsp_advance, same_ledger. simp_sets. repeat split; try lia; try reflexivity.
   - destruct (conn_of p en); cbn [fst snd]; [|apply Keeps_refl].
-    pose proof (inopen_same cf0 s p (N.of_nat (length (chans en)))) as [H T].
-    destruct (h_inopen _ _ _ _) as [s1 o]. cbn [fst snd] in *. subst o.
+    pose proof (inopen_same cf0 s p (N.of_nat (length (chans en))) neg) as [H T].
+    destruct (h_inopen _ _ _ _ _) as [s1 o]. cbn [fst snd] in *. subst o.
     apply Keeps_same; [exact H|intros r []].
   - destruct (chans en) as [|ch0 chs] eqn:CH; cbn [fst snd]; [apply Keeps_refl|].
     destruct (nth_error _ _) as [ch|]; cbn [fst snd]; [|apply Keeps_refl].
@@ -1175,6 +1220,9 @@ Proof.
   - destruct (nth_mod k (hpend en)) as [irid|]; cbn [fst snd]; [|apply Keeps_refl].
     unfold h_urej. cbn [fst snd]. apply Keeps_same; [|intros r []].
     unfold same_ledger. simp_sets. repeat split; try lia; try reflexivity.
+  - cbn [fst snd]. apply Keeps_refl.
+  - unfold h_burn. cbn [fst snd]. apply Keeps_same; [|intros r []]. unfold same_ledger; simp_sets; repeat split; try lia; try reflexivity.
+  - cbn [fst snd]. apply Keeps_refl.
   - cbn [fst snd]. apply Keeps_refl.
 Qed.
 
@@ -1244,7 +1292,7 @@ Proof.
   pose proof (IH s1 res) as [C D]. destruct (complete_all s1 l res) as [s2 o2]. cbn [fst] in *.
   split; congruence.
 Qed.
-Lemma send_io s p dial len tag ok dok sid : same_io s (fst (h_send s p dial len tag ok dok sid)).
+Lemma send_io s p dial len tag fb ok dok sid : same_io s (fst (h_send s p dial len tag fb ok dok sid)).
 Proof. unfold h_send, same_io. io_crush. Qed.
 Lemma established_io s p ok sid : same_io s (fst (h_established s p ok sid)).
 Proof. unfold h_established, same_io. io_crush. Qed.
@@ -1254,17 +1302,17 @@ Lemma dialfail_io s p : same_io s (fst (h_dialfail s p)).
 Proof. unfold h_dialfail, same_io. cbn. split; reflexivity. Qed.
 Lemma openfail_io s sid u : same_io s (fst (h_openfail s sid u)).
 Proof. unfold h_openfail, same_io. io_crush. Qed.
-Lemma opened_io cf0 s sid c gate now : same_io s (fst (h_opened cf0 s sid c gate now)).
+Lemma opened_io cf0 s sid c gate now neg : same_io s (fst (h_opened cf0 s sid c gate now neg)).
 Proof.
   unfold h_opened. destruct (find_po sid (pouts s)) as [po|]; [|split; reflexivity].
-  assert (B : same_io s (fst (opened_body cf0 s po c gate now))).
-  { unfold opened_body.
+  assert (B : same_io s (fst (opened_body cf0 s po c gate now neg))).
+  { unfold opened_body. cbn [q_rid q_len q_tag q_fb].
     assert (H : forall res, same_io s (fst (settle (set_pouts s (drop_po po (pouts s))) (po_peer po) (q_rid (po_req po)) res))).
     { intros res. destruct (settle_io (set_pouts s (drop_po po (pouts s))) (po_peer po) (q_rid (po_req po)) res) as [A B].
       split; [rewrite A|rewrite B]; reflexivity. }
-    destruct (max_size cf0 <? q_len (po_req po)); [apply H|].
+    destruct (max_size cf0 <? _); [apply H|].
     destruct gate as [|[g|g|]]; try apply H; split; reflexivity. }
-  destruct (opened_body _ _ _ _ _ _) as [s1 o]. exact B.
+  destruct (opened_body _ _ _ _ _ _ _) as [s1 o]. exact B.
 Qed.
 Lemma unblock_io cf0 s c now : same_io s (fst (fut_unblock cf0 s c now)).
 Proof.
@@ -1280,7 +1328,8 @@ Qed.
 Lemma read_io s c res : same_io s (fst (fut_read s c res)).
 Proof.
   unfold fut_read. destruct (find_fut c (futs s)) as [f|]; [|split; reflexivity].
-  destruct (f_wait f); [apply complete_io|split; reflexivity].
+  destruct (f_wait f); [|split; reflexivity].
+  pose proof (complete_io s f res) as H. destruct (complete s f res) as [s1 o]. exact H.
 Qed.
 Lemma cancel_io s rid : same_io s (fst (h_cancel s rid)).
 Proof.
@@ -1300,7 +1349,7 @@ Proof. unfold load_ok. destruct (max_inb cf0); [lia|auto]. Qed.
 Lemma filter_len {A} (g : A -> bool) l : (length (filter g l) <= length l)%nat.
 Proof. induction l as [|a l IH]; cbn; [lia|destruct (g a); cbn; lia]. Qed.
 
-Lemma inopen_load cf0 s p c : load_ok cf0 s -> load_ok cf0 (fst (h_inopen cf0 s p c)).
+Lemma inopen_load cf0 s p c neg : load_ok cf0 s -> load_ok cf0 (fst (h_inopen cf0 s p c neg)).
 Proof.
   unfold h_inopen, load_ok. destruct (max_inb cf0) as [m|] eqn:M; [|auto].
   destruct (m <=? inbound_load s) eqn:E; cbn [fst]; [auto|]. apply N.leb_gt in E.
@@ -1345,8 +1394,8 @@ Lemma step_load cf0 s en e :
   load_ok cf0 s -> load_ok cf0 (fst (fst (fst (step cf0 (s, en) e)))).
 Proof.
   intros L. destruct e; cbn [step].
-  - pose proof (send_io s p dial len tag (open_ok p en) (p <? ndial cf0) (next_sid en)) as H.
-    destruct (h_send _ _ _ _ _ _ _ _) as [s1 o]. exact (load_same_io _ _ _ H L).
+  - match goal with |- context [h_send s p dial len tag ?fb0 ?a0 ?b0 ?c0] => pose proof (send_io s p dial len tag fb0 a0 b0 c0) as H end.
+    destruct (h_send _ _ _ _ _ _ _ _ _) as [s1 o]. exact (load_same_io _ _ _ H L).
   - pose proof (cancel_io s rid) as H. destruct (h_cancel s rid) as [s1 o]. exact (load_same_io _ _ _ H L).
   - destruct (conn_of p en); cbn [fst]; [exact L|].
     match goal with |- context [h_established s p ?n ?sd] => pose proof (established_io s p n sd) as H end.
@@ -1355,8 +1404,8 @@ Proof.
     pose proof (closed_io s p) as H. destruct (h_closed s p) as [s1 o]. exact (load_same_io _ _ _ H L).
   - pose proof (dialfail_io s p) as H. destruct (h_dialfail s p) as [s1 o]. exact (load_same_io _ _ _ H L).
   - destruct (nth_mod k (opens en)) as [[sid q]|]; cbn [fst]; [|exact L].
-    pose proof (opened_io cf0 s sid (N.of_nat (length (chans en))) (N.min gate 2) (now en)) as H.
-    destruct (h_opened _ _ _ _ _ _) as [s1 o]. exact (load_same_io _ _ _ H L).
+    pose proof (opened_io cf0 s sid (N.of_nat (length (chans en))) (N.min gate 2) (now en) neg) as H.
+    destruct (h_opened _ _ _ _ _ _ _) as [s1 o]. exact (load_same_io _ _ _ H L).
   - destruct (nth_mod k (opens en)) as [[sid q]|]; cbn [fst]; [|exact L].
     pose proof (openfail_io s sid unsupported) as H. destruct (h_openfail _ _ _) as [s1 o]. exact (load_same_io _ _ _ H L).
   - destruct (chans en) as [|ch0 chs] eqn:CH; cbn [fst]; [exact L|].
@@ -1399,8 +1448,8 @@ Proof.
     pose proof (filter_len (fun r => match s_w r with Some (_, _, dl) => negb (dl <=? now en + dt) | None => true end) (rsps s1)).
     lia.
   - destruct (conn_of p en); cbn [fst]; [|exact L].
-    pose proof (inopen_load cf0 s p (N.of_nat (length (chans en))) L) as H.
-    destruct (h_inopen _ _ _ _) as [s1 o]. exact H.
+    pose proof (inopen_load cf0 s p (N.of_nat (length (chans en))) neg L) as H.
+    destruct (h_inopen _ _ _ _ _) as [s1 o]. exact H.
   - destruct (chans en) as [|ch0 chs] eqn:CH; cbn [fst]; [exact L|].
     destruct (nth_error _ _) as [ch|]; cbn [fst]; [|exact L].
     destruct (negb (c_out ch)); cbn [fst]; [|exact L].
@@ -1412,6 +1461,9 @@ Proof.
   - destruct (nth_mod k (hpend en)) as [irid|]; cbn [fst]; [|exact L].
     unfold h_urej. cbn [fst]. apply (load_le cf0 s); [|exact L].
     unfold inbound_load, drop_rs. simp_sets. pose proof (filter_len (fun r => negb (s_irid r =? irid)) (rsps s)). lia.
+  - cbn [fst]. exact L.
+  - unfold h_burn. cbn [fst]. exact L.
+  - cbn [fst]. exact L.
   - cbn [fst]. exact L.
 Qed.
 
@@ -1538,8 +1590,8 @@ Proof.
 Qed.
 
 (* ---- the handlers ---- *)
-Lemma send_Inv3 s p dial len tag ok dok sid :
-  Inv3 s -> Inv3 (fst (h_send s p dial len tag ok dok sid)).
+Lemma send_Inv3 s p dial len tag fb ok dok sid :
+  Inv3 s -> Inv3 (fst (h_send s p dial len tag fb ok dok sid)).
 Proof.
   intros [C P]. unfold h_send. simp_sets.
   destruct (memN p (peers s)) eqn:Mp; [destruct ok|destruct dial; cbn [negb]; [destruct dok|]]; cbn [fst];
@@ -1635,10 +1687,10 @@ Proof.
   - intros x H. apply in_removeP in H. exact (P x (proj1 H)).
 Qed.
 
-Lemma opened_body_Inv3 cf0 s tr po c gate now :
-  Inv s tr -> Inv3 s -> In po (pouts s) -> Inv3 (fst (opened_body cf0 s po c gate now)).
+Lemma opened_body_Inv3 cf0 s tr po c gate now neg :
+  Inv s tr -> Inv3 s -> In po (pouts s) -> Inv3 (fst (opened_body cf0 s po c gate now neg)).
 Proof.
-  intros I [C P] Hin. unfold opened_body.
+  intros I [C P] Hin. unfold opened_body. cbn [q_rid q_len q_tag q_fb].
   pose proof (inv_po _ _ I po Hin) as Hact.
   assert (Hsettle : forall res,
      Inv3 (fst (settle (set_pouts s (drop_po po (pouts s))) (po_peer po) (q_rid (po_req po)) res))).
@@ -1658,16 +1710,16 @@ Proof.
     - destruct (cover_drop_po s tr po x I Hin (C x H) Hne) as [[po' [A B]]|[g' [A B]]];
         [left; exists po'|right; exists g']; simp_sets; auto.
       split; [apply in_or_app; left; exact A|exact B]. }
-  destruct (max_size cf0 <? q_len (po_req po)); [apply Hsettle|].
+  destruct (max_size cf0 <? _); [apply Hsettle|].
   destruct gate as [|[g|g|]]; try apply Hsettle; apply Hpush; reflexivity.
 Qed.
 
-Lemma opened_Inv3 cf0 s tr sid c gate now :
-  Inv s tr -> Inv3 s -> Inv3 (fst (h_opened cf0 s sid c gate now)).
+Lemma opened_Inv3 cf0 s tr sid c gate now neg :
+  Inv s tr -> Inv3 s -> Inv3 (fst (h_opened cf0 s sid c gate now neg)).
 Proof.
   intros I I3. unfold h_opened. destruct (find_po sid (pouts s)) as [po|] eqn:F; cbn [fst]; [|exact I3].
-  pose proof (opened_body_Inv3 cf0 s tr po c gate now I I3 (proj1 (find_in _ _ _ F))) as H.
-  destruct (opened_body _ _ _ _ _ _) as [s1 o]. exact H.
+  pose proof (opened_body_Inv3 cf0 s tr po c gate now neg I I3 (proj1 (find_in _ _ _ F))) as H.
+  destruct (opened_body _ _ _ _ _ _ _) as [s1 o]. exact H.
 Qed.
 
 Lemma Inv3_futs_map s (h : fut -> fut) :
@@ -1700,7 +1752,8 @@ Lemma read_Inv3 s tr c res : Inv s tr -> Inv3 s -> Inv3 (fst (fut_read s c res))
 Proof.
   intros I I3. unfold fut_read. destruct (find_fut c (futs s)) as [f|] eqn:F; cbn [fst]; [|exact I3].
   destruct (f_wait f); cbn [fst]; [|exact I3].
-  exact (complete_Inv3 s tr f _ I I3 (fun g Hg E => eq_sym (fut_unique _ _ _ _ I (find_fut_in _ _ _ F) Hg E))).
+  pose proof (complete_Inv3 s tr f res I I3 (fun g Hg E => eq_sym (fut_unique _ _ _ _ I (find_fut_in _ _ _ F) Hg E))) as H.
+  destruct (complete s f res) as [s1 o]. exact H.
 Qed.
 
 Lemma advance_Inv3 s tr now : Inv s tr -> Inv3 s -> Inv3 (fst (fut_advance s now)).
@@ -1731,8 +1784,8 @@ Lemma step_Inv3 cf0 s en e tr :
   Inv s tr -> Inv3 s -> Inv3 (fst (fst (fst (step cf0 (s, en) e)))).
 Proof.
   intros I I3. destruct e; cbn [step].
-  - pose proof (send_Inv3 s p dial len tag (open_ok p en) (p <? ndial cf0) (next_sid en) I3) as H.
-    destruct (h_send _ _ _ _ _ _ _ _) as [s1 o]. exact H.
+  - match goal with |- context [h_send s p dial len tag ?fb0 ?a0 ?b0 ?c0] => pose proof (send_Inv3 s p dial len tag fb0 a0 b0 c0 I3) as H end.
+    destruct (h_send _ _ _ _ _ _ _ _ _) as [s1 o]. exact H.
   - pose proof (cancel_Inv3 s tr rid I I3) as H. destruct (h_cancel s rid) as [s1 o]. exact H.
   - destruct (conn_of p en); cbn [fst]; [exact I3|].
     match goal with |- context [h_established s p ?n ?sd] => pose proof (established_Inv3 s p n sd I3) as H end.
@@ -1741,8 +1794,8 @@ Proof.
     pose proof (closed_Inv3 s p I3) as H. destruct (h_closed s p) as [s1 o]. exact H.
   - pose proof (dialfail_Inv3 s p I3) as H. destruct (h_dialfail s p) as [s1 o]. exact H.
   - destruct (nth_mod k (opens en)) as [[sid q]|]; cbn [fst]; [|exact I3].
-    pose proof (opened_Inv3 cf0 s tr sid (N.of_nat (length (chans en))) (N.min gate 2) (now en) I I3) as H.
-    destruct (h_opened _ _ _ _ _ _) as [s1 o]. exact H.
+    pose proof (opened_Inv3 cf0 s tr sid (N.of_nat (length (chans en))) (N.min gate 2) (now en) neg I I3) as H.
+    destruct (h_opened _ _ _ _ _ _ _) as [s1 o]. exact H.
   - destruct (nth_mod k (opens en)) as [[sid q]|]; cbn [fst]; [|exact I3].
     pose proof (openfail_Inv3 s tr sid unsupported I I3) as H. destruct (h_openfail _ _ _) as [s1 o]. exact H.
   - destruct (chans en) as [|ch0 chs] eqn:CH; cbn [fst]; [exact I3|].
@@ -1785,8 +1838,8 @@ Proof.
     apply (Inv3_same_ledger s1); [exact H|].
     unfold rsp_advance, same_ledger. simp_sets. repeat split; try lia; try reflexivity.
   - destruct (conn_of p en); cbn [fst]; [|exact I3].
-    pose proof (inopen_same cf0 s p (N.of_nat (length (chans en)))) as [H _].
-    destruct (h_inopen _ _ _ _) as [s1 o]. exact (Inv3_same_ledger _ _ I3 H).
+    pose proof (inopen_same cf0 s p (N.of_nat (length (chans en))) neg) as [H _].
+    destruct (h_inopen _ _ _ _ _) as [s1 o]. exact (Inv3_same_ledger _ _ I3 H).
   - destruct (chans en) as [|ch0 chs] eqn:CH; cbn [fst]; [exact I3|].
     destruct (nth_error _ _) as [ch|]; cbn [fst]; [|exact I3].
     destruct (negb (c_out ch)); cbn [fst]; [|exact I3].
@@ -1800,6 +1853,9 @@ Proof.
   - destruct (nth_mod k (hpend en)) as [irid|]; cbn [fst]; [|exact I3].
     unfold h_urej. cbn [fst]. apply (Inv3_same_ledger s); [exact I3|].
     unfold same_ledger. simp_sets. repeat split; try lia; try reflexivity.
+  - cbn [fst]. exact I3.
+  - unfold h_burn. cbn [fst]. apply (Inv3_same_ledger s); [exact I3|]. unfold same_ledger; simp_sets; repeat split; try lia; try reflexivity.
+  - cbn [fst]. exact I3.
   - cbn [fst]. exact I3.
 Qed.
 
@@ -1835,7 +1891,7 @@ Qed.
 
 (* plain = neither ResponseReceived, RequestReceived nor the binding ghost *)
 Definition plain (x : out) : bool :=
-  match x with OSent _ | OFail _ _ | OWire _ _ _ | OFeed _ _ => true | _ => false end.
+  match x with OSent _ | OFail _ _ | OWire _ _ _ | OWireR _ _ _ | OFeed _ _ | ODial _ | OOpen _ _ | OFbResp _ _ | OFbReq _ _ => true | _ => false end.
 Definition plainl (o : list out) : Prop := forallb plain o = true.
 
 Lemma plainl_nil : plainl [].
@@ -1866,14 +1922,16 @@ Proof.
   apply plainl_app; assumption.
 Qed.
 
-Lemma send_plain s p dial len tag ok dok sid : plainl (snd (h_send s p dial len tag ok dok sid)).
+Lemma send_plain s p dial len tag fb ok dok sid : plainl (snd (h_send s p dial len tag fb ok dok sid)).
 Proof. unfold h_send. repeat match goal with |- context [if ?x then _ else _] => destruct x end; reflexivity. Qed.
 
 Lemma established_plain s p ok sid : plainl (snd (h_established s p ok sid)).
 Proof.
   unfold h_established. destruct (memN p (peers s)); [reflexivity|].
   destruct (filter _ (dials s)) as [|d0 mine]; [reflexivity|].
-  destruct (firstn ok (d0 :: mine)); cbn [snd]; apply (plainl_map_fail (fun d : N * req => q_rid (snd d))).
+  destruct (firstn ok (d0 :: mine)); cbn [snd]; [apply (plainl_map_fail (fun d : N * req => q_rid (snd d)))|].
+  apply plainl_app; [apply (plainl_map_fail (fun d : N * req => q_rid (snd d)))|].
+  unfold plainl. induction (number_pouts p sid (p0 :: l)); cbn; auto.
 Qed.
 
 Lemma closed_plain s p : plainl (snd (h_closed s p)).
@@ -1885,9 +1943,9 @@ Proof. unfold h_dialfail. cbn [snd]. apply (plainl_map_fail (fun d : N * req => 
 Lemma openfail_plain s sid u : plainl (snd (h_openfail s sid u)).
 Proof. unfold h_openfail. destruct (find_po sid (pouts s)); reflexivity. Qed.
 
-Lemma opened_body_plain cf0 s po c gate now : plainl (snd (opened_body cf0 s po c gate now)).
+Lemma opened_body_plain cf0 s po c gate now neg : plainl (snd (opened_body cf0 s po c gate now neg)).
 Proof.
-  unfold opened_body. destruct (max_size cf0 <? _); [apply settle_err_plain|].
+  unfold opened_body. cbn [q_rid q_len q_tag q_fb]. destruct (max_size cf0 <? _); [apply settle_err_plain|].
   destruct gate as [|[g|g|]]; try apply settle_err_plain; reflexivity.
 Qed.
 
@@ -1908,7 +1966,12 @@ Qed.
 Lemma read_err_plain s c e : plainl (snd (fut_read s c (RErr e))).
 Proof.
   unfold fut_read. destruct (find_fut c (futs s)) as [f|]; [|reflexivity].
-  destruct (f_wait f); [apply complete_err_plain|reflexivity].
+  destruct (f_wait f); [|reflexivity].
+  pose proof (complete_err_plain s f e) as H. destruct (complete s f (RErr e)) as [s1 o]. cbn [snd] in *.
+  apply plainl_app; [exact H|]. unfold fb_resp. destruct (f_neg f =? 0); [reflexivity|].
+  unfold plainl in *. induction o as [|x o IH]; [reflexivity|]. cbn [forallb flat_map] in *.
+  apply andb_prop in H. destruct H as [Hx Ho]. rewrite forallb_app, (IH Ho), andb_true_r.
+  destruct x; try discriminate; reflexivity.
 Qed.
 
 Lemma advance_plain s now : plainl (snd (fut_advance s now)).
@@ -1946,21 +2009,31 @@ Proof.
   destruct (d <=? now); [|reflexivity]. unfold feed. destruct (s_fb a); reflexivity.
 Qed.
 
+(* the fallback annotation that accompanies a ResponseReceived / RequestReceived *)
+Definition fbl_resp (f : fut) : list out := if f_neg f =? 0 then [] else [OFbResp (rid_f f) (f_neg f)].
+Definition fbl_req (rd : rdr) : list out := if r_neg rd =? 0 then [] else [OFbReq (r_irid rd) (r_neg rd)].
+Lemma fbl_resp_plain f : plainl (fbl_resp f).
+Proof. unfold fbl_resp. destruct (f_neg f =? 0); reflexivity. Qed.
+Lemma fbl_req_plain rd : plainl (fbl_req rd).
+Proof. unfold fbl_req. destruct (r_neg rd =? 0); reflexivity. Qed.
+
 (* a delivered response: exactly the verdict of the future that holds the carrier *)
 Lemma read_ok_shape s c len tag :
   plainl (snd (fut_read s c (ROk len tag))) \/
-  exists f, find_fut c (futs s) = Some f /\ snd (fut_read s c (ROk len tag)) = [OResp (rid_f f) len tag].
+  exists f, find_fut c (futs s) = Some f /\
+            snd (fut_read s c (ROk len tag)) = OResp (rid_f f) len tag :: fbl_resp f.
 Proof.
   unfold fut_read. destruct (find_fut c (futs s)) as [f|]; [|left; reflexivity].
   destruct (f_wait f); [|left; reflexivity]. unfold complete, settle.
-  destruct (_ && _); cbn [snd]; [right; exists f; split; reflexivity|left; reflexivity].
+  destruct (_ && _); cbn [snd]; [right; exists f; split; [reflexivity|]|left; unfold fb_resp; destruct (f_neg f =? 0); reflexivity].
+  unfold verdict, fb_resp, fbl_resp, rid_f. destruct (f_neg f =? 0); reflexivity.
 Qed.
 
 (* a request handed to the user: read from the reader of that carrier, which is gone afterwards *)
 Lemma inread_good_shape s c len tag :
   (snd (h_inread s c true len tag) = [] \/
    exists rd, find_rd c (rdrs s) = Some rd /\
-              snd (h_inread s c true len tag) = [OReq (r_irid rd) (r_peer rd) len tag]) /\
+              snd (h_inread s c true len tag) = OReq (r_irid rd) (r_peer rd) len tag :: fbl_req rd) /\
   rdrs (fst (h_inread s c true len tag)) = drop_rd c (rdrs s).
 Proof.
   unfold h_inread. destruct (find_rd c (rdrs s)) as [rd|] eqn:F.
@@ -2021,7 +2094,7 @@ Ltac futs_crush :=
          | |- context [match ?x with _ => _ end] => destruct x
          end; cbn; reflexivity.
 
-Lemma send_futs s p dial len tag ok dok sid : futs (fst (h_send s p dial len tag ok dok sid)) = futs s.
+Lemma send_futs s p dial len tag fb ok dok sid : futs (fst (h_send s p dial len tag fb ok dok sid)) = futs s.
 Proof. unfold h_send. futs_crush. Qed.
 Lemma established_futs s p ok sid : futs (fst (h_established s p ok sid)) = futs s.
 Proof. unfold h_established. futs_crush. Qed.
@@ -2032,7 +2105,7 @@ Proof. reflexivity. Qed.
 Lemma openfail_futs s sid u : futs (fst (h_openfail s sid u)) = futs s.
 Proof. unfold h_openfail. futs_crush. Qed.
 
-Lemma send_Q s p dial len tag ok dok sid : Q s (fst (h_send s p dial len tag ok dok sid)) (snd (h_send s p dial len tag ok dok sid)).
+Lemma send_Q s p dial len tag fb ok dok sid : Q s (fst (h_send s p dial len tag fb ok dok sid)) (snd (h_send s p dial len tag fb ok dok sid)).
 Proof. split; [|split]; [apply plain_calm, send_plain|apply FutsPrev_same, send_futs|apply send_io]. Qed.
 Lemma established_Q s p ok sid : Q s (fst (h_established s p ok sid)) (snd (h_established s p ok sid)).
 Proof. split; [|split]; [apply plain_calm, established_plain|apply FutsPrev_same, established_futs|apply established_io]. Qed.
@@ -2079,14 +2152,16 @@ Qed.
 Lemma read_calm s c res : calml (snd (fut_read s c res)).
 Proof.
   destruct res as [l t|e]; [|apply plain_calm, read_err_plain].
-  destruct (read_ok_shape s c l t) as [H|[f [_ H]]]; [apply plain_calm; exact H|]. rewrite H. reflexivity.
+  destruct (read_ok_shape s c l t) as [H|[f [_ H]]]; [apply plain_calm; exact H|]. rewrite H.
+  unfold calml. cbn [forallb calm]. apply (plain_calm _ (fbl_resp_plain f)).
 Qed.
 
 Lemma read_Q s c res : Q s (fst (fut_read s c res)) (snd (fut_read s c res)).
 Proof.
   split; [|split]; [apply read_calm| |apply read_io].
   unfold fut_read. destruct (find_fut c (futs s)) as [f|]; [|apply FutsPrev_same; reflexivity].
-  destruct (f_wait f); [apply complete_FutsPrev|apply FutsPrev_same; reflexivity].
+  destruct (f_wait f); [|apply FutsPrev_same; reflexivity].
+  pose proof (complete_FutsPrev s f res) as H. destruct (complete s f res) as [s1 o]. exact H.
 Qed.
 
 Lemma advance_Q s now : Q s (fst (fut_advance s now)) (snd (fut_advance s now)).
@@ -2118,11 +2193,11 @@ Lemma rsp_gate_Q s c ok : Q s (fst (rsp_gate s c ok)) (snd (rsp_gate s c ok)).
 Proof. apply same_ledger_Q; [apply rsp_gate_same|apply plain_calm, rsp_gate_plain|apply rsp_gate_rdrs]. Qed.
 
 (* the three handlers that are not quiet *)
-Lemma opened_body_futs cf0 s po c gate now g :
-  In g (futs (fst (opened_body cf0 s po c gate now))) ->
+Lemma opened_body_futs cf0 s po c gate now neg g :
+  In g (futs (fst (opened_body cf0 s po c gate now neg))) ->
   In g (futs s) \/ (f_chan g = c /\ rid_f g = rid_po po).
 Proof.
-  unfold opened_body.
+  unfold opened_body. cbn [q_rid q_len q_tag q_fb].
   assert (Hs : forall res, In g (futs (fst (settle (set_pouts s (drop_po po (pouts s))) (po_peer po) (q_rid (po_req po)) res))) -> In g (futs s)).
   { intros res. unfold settle. destruct (_ && _); cbn [fst]; simp_sets; auto. }
   destruct (max_size cf0 <? _); [intros H0; left; exact (Hs _ H0)|].
@@ -2130,18 +2205,18 @@ Proof.
     apply in_app_or in H0; destruct H0 as [H0|[<-|[]]]; auto.
 Qed.
 
-Lemma opened_body_rdrs cf0 s po c gate now : rdrs (fst (opened_body cf0 s po c gate now)) = rdrs s.
+Lemma opened_body_rdrs cf0 s po c gate now neg : rdrs (fst (opened_body cf0 s po c gate now neg)) = rdrs s.
 Proof.
-  unfold opened_body.
+  unfold opened_body. cbn [q_rid q_len q_tag q_fb].
   assert (Hs : forall res, rdrs (fst (settle (set_pouts s (drop_po po (pouts s))) (po_peer po) (q_rid (po_req po)) res)) = rdrs s).
   { intros res. apply (settle_io (set_pouts s (drop_po po (pouts s)))). }
   destruct (max_size cf0 <? _); [apply Hs|]. destruct gate as [|[x|x|]]; try apply Hs; reflexivity.
 Qed.
 
-Lemma inopen_shape cf0 s p c :
-  snd (h_inopen cf0 s p c) = [] /\ futs (fst (h_inopen cf0 s p c)) = futs s /\
-  (rdrs (fst (h_inopen cf0 s p c)) = rdrs s \/
-   exists irid, rdrs (fst (h_inopen cf0 s p c)) = rdrs s ++ [mkRd p irid c]).
+Lemma inopen_shape cf0 s p c neg :
+  snd (h_inopen cf0 s p c neg) = [] /\ futs (fst (h_inopen cf0 s p c neg)) = futs s /\
+  (rdrs (fst (h_inopen cf0 s p c neg)) = rdrs s \/
+   exists irid, rdrs (fst (h_inopen cf0 s p c neg)) = rdrs s ++ [mkRd p irid c neg]).
 Proof.
   unfold h_inopen. destruct (match max_inb cf0 with Some m => _ | None => _ end); cbn [fst snd]; [auto|].
   simp_sets. destruct (memN p (peers s)); cbn [fst snd]; simp_sets; repeat split; auto.
@@ -2205,9 +2280,9 @@ Lemma step_facts cf0 s en e :
   StepFacts s en (fst (fst (fst r))) (snd (fst (fst r))) (snd (fst r)) (snd r).
 Proof.
   destruct e; cbn [step].
-  - pose proof (send_Q s p dial len tag (open_ok p en) (p <? ndial cf0) (next_sid en)) as H.
-    destruct (h_send _ _ _ _ _ _ _ _) as [s1 o]. cbn [fst snd] in *. apply Q_facts; [exact H|].
-    destruct (memN p (peers s)); [destruct (conn_of p en) as [[|]|]|]; cbn [chans nch]; unfold nch; cbn [chans]; lia.
+  - match goal with |- context [h_send s p dial len tag ?fb0 ?a0 ?b0 ?c0] => pose proof (send_Q s p dial len tag fb0 a0 b0 c0) as H end.
+    destruct (h_send _ _ _ _ _ _ _ _ _) as [s1 o]. cbn [fst snd] in *. apply Q_facts; [exact H|].
+    destruct (memN p (peers s)); [destruct (conn_of p en); [destruct (open_ok p en)|]|]; unfold nch; cbn [chans]; lia.
   - pose proof (cancel_Q s rid) as H. destruct (h_cancel s rid) as [s1 o]. cbn [fst snd] in *.
     apply Q_facts; [exact H|lia].
   - destruct (conn_of p en); cbn [fst snd]; [apply Q_facts; [apply Q_refl|lia]|].
@@ -2221,11 +2296,11 @@ Proof.
   - (* opened *)
     destruct (nth_mod k (opens en)) as [[sid q]|]; cbn [fst snd]; [|apply Q_facts; [apply Q_refl|lia]].
     unfold h_opened. destruct (find_po sid (pouts s)) as [po|].
-    + pose proof (opened_body_futs cf0 s po (N.of_nat (length (chans en))) (N.min gate 2) (now en)) as F.
-      pose proof (opened_body_rdrs cf0 s po (N.of_nat (length (chans en))) (N.min gate 2) (now en)) as R.
-      pose proof (opened_body_plain cf0 s po (N.of_nat (length (chans en))) (N.min gate 2) (now en)) as P.
-      destruct (opened_body _ _ _ _ _ _) as [s1 o]. cbn [fst snd] in *.
-      assert (L : nch en < nch (mkE (next_sid en) (conns en) (filter (fun x => negb (fst x =? sid)) (opens en))
+    + pose proof (opened_body_futs cf0 s po (N.of_nat (length (chans en))) (N.min gate 2) (now en) neg) as F.
+      pose proof (opened_body_rdrs cf0 s po (N.of_nat (length (chans en))) (N.min gate 2) (now en) neg) as R.
+      pose proof (opened_body_plain cf0 s po (N.of_nat (length (chans en))) (N.min gate 2) (now en) neg) as P.
+      destruct (opened_body _ _ _ _ _ _ _) as [s1 o]. cbn [fst snd] in *.
+      assert (L : nch en < nch (mkE (aux_of en) (next_sid en) (conns en) (filter (fun x => negb (fst x =? sid)) (opens en))
                                   (chans en ++ [mkCh (N.min gate 2)
                                      (existsb (fun x => match x with OWire _ _ _ => true | _ => false end)
                                               (OBind (N.of_nat (length (chans en))) (q_rid (po_req po)) :: o)) true])
@@ -2305,9 +2380,9 @@ Proof.
     destruct H as (A & B & C). split; [apply calml_app; [exact A|apply plain_calm, adv_out_plain]|split; [exact B|exact C]].
   - (* inbound substream *)
     destruct (conn_of p en); cbn [fst snd]; [|apply Q_facts; [apply Q_refl|lia]].
-    pose proof (inopen_shape cf0 s p (N.of_nat (length (chans en)))) as (O & F & R).
-    destruct (h_inopen _ _ _ _) as [s1 o]. cbn [fst snd] in *. subst o.
-    assert (L : nch en < nch (mkE (next_sid en) (conns en) (opens en) (chans en ++ [mkCh (N.min gate 2) false false])
+    pose proof (inopen_shape cf0 s p (N.of_nat (length (chans en))) neg) as (O & F & R).
+    destruct (h_inopen _ _ _ _ _) as [s1 o]. cbn [fst snd] in *. subst o.
+    assert (L : nch en < nch (mkE (aux_of en) (next_sid en) (conns en) (opens en) (chans en ++ [mkCh (N.min gate 2) false false])
                                 (now en) (hpend en))).
     { unfold nch. cbn [chans]. rewrite app_length. cbn [length]. lia. }
     constructor; [lia| | | |].
@@ -2325,18 +2400,19 @@ Proof.
     pose proof (inread_futs s c (len <=? max_size cf0) len tag) as F.
     assert (O : plainl (snd (h_inread s c (len <=? max_size cf0) len tag)) \/
                 exists rd, find_rd c (rdrs s) = Some rd /\
-                           snd (h_inread s c (len <=? max_size cf0) len tag) = [OReq (r_irid rd) (r_peer rd) len tag]).
+                           snd (h_inread s c (len <=? max_size cf0) len tag) = OReq (r_irid rd) (r_peer rd) len tag :: fbl_req rd).
     { destruct (len <=? max_size cf0); [|left; apply inread_bad_plain].
       destruct (inread_good_shape s c len tag) as [[E|E] _]; [left; rewrite E; reflexivity|right; exact E]. }
     destruct (h_inread s c _ len tag) as [s1 o]. cbn [fst snd] in *.
-    assert (L : nch en <= nch (mkE (next_sid en) (conns en) (opens en)
+    assert (L : nch en <= nch (mkE (aux_of en) (next_sid en) (conns en) (opens en)
                                  (set_chan c (mkCh (c_gate ch) true false) (ch0 :: chs)) (now en) (hpend en ++ sent_of o))).
     { unfold nch. cbn [chans]. rewrite CH, set_chan_len by apply mod_lt_len. lia. }
     constructor; [exact L| | | |].
     + intros g Hg. left. rewrite F in Hg. exists g. auto.
     + intros c' rid H. exfalso. destruct O as [P|[rd [_ E]]].
       * exact (calml_nobind _ _ _ (plain_calm _ P) H).
-      * rewrite E in H. destruct H as [H|[]]. discriminate.
+      * rewrite E in H. destruct H as [H|H]; [discriminate|].
+        exact (calml_nobind _ _ _ (plain_calm _ (fbl_req_plain rd)) H).
     + intros rd H. left. rewrite R in H. unfold drop_rd in H. apply filter_In in H. tauto.
     + intros H. destruct O as [P|[rd [Fd E]]]; [rewrite (calml_noreq _ (plain_calm _ P)) in H; discriminate|].
       exists c. split; [reflexivity|]. split; [exact (mod_lt_nch k en ch0 chs CH)|]. split.
@@ -2351,6 +2427,10 @@ Proof.
     unfold h_urej. cbn [fst snd]. apply Q_facts; [|unfold nch; cbn [chans]; lia].
     split; [reflexivity|split; [apply FutsPrev_same; reflexivity|reflexivity]].
   - cbn [fst snd]. apply Q_facts; [apply Q_refl|unfold nch; cbn [chans]; lia].
+  - unfold h_burn. cbn [fst snd]. apply Q_facts; [|lia].
+    split; [reflexivity|split; [apply FutsPrev_same; reflexivity|reflexivity]].
+  - cbn [fst snd]. apply Q_facts; [apply Q_refl|unfold nch, with_aux; cbn [chans]; lia].
+  - cbn [fst snd]. apply Q_facts; [apply Q_refl|unfold nch, with_aux; cbn [chans]; lia].
 Qed.
 
 (* what one step can emit *)
@@ -2358,16 +2438,16 @@ Lemma step_shape cf0 s en e :
   let r := step cf0 (s, en) e in
   let o := snd (fst r) in
   plainl o \/
-  (exists k g c po o', e = EOpened k g /\ o = OBind c (rid_po po) :: o' /\ plainl o' /\ In po (pouts s) /\
-                       fst (fst (fst r)) = fst (opened_body cf0 s po c (N.min g 2) (now en))) \/
+  (exists k g ng c po o', e = EOpened k g ng /\ o = OBind c (rid_po po) :: o' /\ plainl o' /\ In po (pouts s) /\
+                       fst (fst (fst r)) = fst (opened_body cf0 s po c (N.min g 2) (now en) ng)) \/
   (exists k len tag c f, e = ERespond k len tag /\ snd r = Some c /\ find_fut c (futs s) = Some f /\
-                         o = [OResp (rid_f f) len tag]) \/
+                         o = OResp (rid_f f) len tag :: fbl_resp f) \/
   (exists k len tag c rd, e = EInReq k len tag /\ snd r = Some c /\ find_rd c (rdrs s) = Some rd /\
-                          o = [OReq (r_irid rd) (r_peer rd) len tag]).
+                          o = OReq (r_irid rd) (r_peer rd) len tag :: fbl_req rd).
 Proof.
   destruct e; cbn [step].
-  - left. pose proof (send_plain s p dial len tag (open_ok p en) (p <? ndial cf0) (next_sid en)) as H.
-    destruct (h_send _ _ _ _ _ _ _ _) as [s1 o]. exact H.
+  - left. match goal with |- context [h_send s p dial len tag ?fb0 ?a0 ?b0 ?c0] => pose proof (send_plain s p dial len tag fb0 a0 b0 c0) as H end.
+    destruct (h_send _ _ _ _ _ _ _ _ _) as [s1 o]. exact H.
   - left. pose proof (cancel_plain s rid) as H. destruct (h_cancel s rid) as [s1 o]. exact H.
   - left. destruct (conn_of p en); cbn [fst snd]; [reflexivity|].
     match goal with |- context [h_established s p ?n ?sd] => pose proof (established_plain s p n sd) as H end.
@@ -2377,10 +2457,10 @@ Proof.
   - left. pose proof (dialfail_plain s p) as H. destruct (h_dialfail s p) as [s1 o]. exact H.
   - destruct (nth_mod k (opens en)) as [[sid q]|]; cbn [fst snd]; [|left; reflexivity].
     unfold h_opened. destruct (find_po sid (pouts s)) as [po|] eqn:F; [|left; reflexivity].
-    pose proof (opened_body_plain cf0 s po (N.of_nat (length (chans en))) (N.min gate 2) (now en)) as P.
-    destruct (opened_body cf0 s po (N.of_nat (length (chans en))) (N.min gate 2) (now en)) as [s1 o] eqn:OB.
+    pose proof (opened_body_plain cf0 s po (N.of_nat (length (chans en))) (N.min gate 2) (now en) neg) as P.
+    destruct (opened_body cf0 s po (N.of_nat (length (chans en))) (N.min gate 2) (now en) neg) as [s1 o] eqn:OB.
     cbn [fst snd] in *.
-    right. left. exists k, gate, (N.of_nat (length (chans en))), po, o.
+    right. left. exists k, gate, neg, (N.of_nat (length (chans en))), po, o.
     split; [reflexivity|]. split; [reflexivity|]. split; [exact P|]. split; [exact (proj1 (find_in _ _ _ F))|rewrite OB; reflexivity].
   - left. destruct (nth_mod k (opens en)) as [[sid q]|]; cbn [fst snd]; [|reflexivity].
     pose proof (openfail_plain s sid unsupported) as H. destruct (h_openfail _ _ _) as [s1 o]. exact H.
@@ -2426,8 +2506,8 @@ Proof.
     destruct (fut_advance s (now en + dt)) as [s1 o]. cbn [fst snd] in *.
     apply plainl_app; [exact H|apply adv_out_plain].
   - left. destruct (conn_of p en); cbn [fst snd]; [|reflexivity].
-    pose proof (inopen_shape cf0 s p (N.of_nat (length (chans en)))) as (O & _).
-    destruct (h_inopen _ _ _ _) as [s1 o]. cbn [fst snd] in *. subst o. reflexivity.
+    pose proof (inopen_shape cf0 s p (N.of_nat (length (chans en))) neg) as (O & _).
+    destruct (h_inopen _ _ _ _ _) as [s1 o]. cbn [fst snd] in *. subst o. reflexivity.
   - (* inbound request *)
     destruct (chans en) as [|ch0 chs] eqn:CH; cbn [fst snd]; [left; reflexivity|].
     destruct (nth_error _ _) as [ch|]; cbn [fst snd]; [|left; reflexivity].
@@ -2442,6 +2522,9 @@ Proof.
     match goal with |- context [h_uresp cf0 s ?a ?b ?c ?f ?d ?e] =>
       pose proof (uresp_plain cf0 s a b c f d e) as H; destruct (h_uresp cf0 s a b c f d e) as [s1 o] end. exact H.
   - left. destruct (nth_mod k (hpend en)) as [irid|]; cbn [fst snd]; reflexivity.
+  - left. reflexivity.
+  - left. reflexivity.
+  - left. reflexivity.
   - left. reflexivity.
 Qed.
 
@@ -2564,13 +2647,14 @@ Proof.
     destruct (step cf0 (s, en) e0) as [[[s1 en1] o0] tg0]. cbn [fst snd] in *.
     destruct pre as [|x pre]; cbn [app] in E.
     + injection E as -> -> -> _. rewrite app_nil_r.
-      destruct Sh as [P|[[k0 [g0 [c [po [o' [_ [-> [P _]]]]]]]]|[[k [l [t [c [f [-> [-> [F ->]]]]]]]]|[k [l [t [c [rd [_ [_ [_ ->]]]]]]]]]]].
+      destruct Sh as [P|[[k0 [g0 [n0 [c [po [o' [_ [Eo [P _]]]]]]]]]|[[k [l [t [c [f [-> [-> [F Eo]]]]]]]]|[k [l [t [c [rd [_ [_ [_ Eo]]]]]]]]]]]; try subst o.
       * destruct (plain_not_resp _ _ _ _ P Hin).
       * destruct Hin as [Hin|Hin]; [discriminate|destruct (plain_not_resp _ _ _ _ P Hin)].
-      * destruct Hin as [Hin|[]]. injection Hin as <- <- <-.
+      * destruct Hin as [Hin|Hin]; [|destruct (plain_not_resp _ _ _ _ (fbl_resp_plain f) Hin)].
+        injection Hin as <- <- <-.
         apply find_some in F. destruct F as [Hf Hc]. apply N.eqb_eq in Hc.
         exists k, c. split; [reflexivity|]. split; [reflexivity|]. rewrite <- Hc. exact (b_fut _ _ _ _ I f Hf).
-      * destruct Hin as [Hin|[]]. discriminate.
+      * destruct Hin as [Hin|Hin]; [discriminate|destruct (plain_not_resp _ _ _ _ (fbl_req_plain rd) Hin)].
     + injection E as <- E2. destruct (IH s1 en1 _ _ I1 pre e o tg post rid len tag E2 Hin) as [k [c [A [B C]]]].
       exists k, c. split; [exact A|]. split; [exact B|]. rewrite outs_of_cons. cbn [fst snd].
       rewrite app_assoc. exact C.
@@ -2597,18 +2681,20 @@ Theorem responder_once cf0 evs :
   NoDup (req_chans steps) /\
   forall e o tg irid p len tag,
     In (e, o, tg) steps -> In (OReq irid p len tag) o ->
-    exists k c, e = EInReq k len tag /\ tg = Some c /\ o = [OReq irid p len tag].
+    exists k c rest, e = EInReq k len tag /\ tg = Some c /\ o = OReq irid p len tag :: rest /\ has_req rest = false.
 Proof.
   intros steps. split.
   - destruct (steps_Inv4 cf0 evs _ _ _ _ Inv4_init) as [s' [en' J]]. exact (u_nd _ _ _ _ J).
   - intros e o tg irid p len tag Hin Hreq.
     destruct (steps_are_steps cf0 evs _ _ Hin) as [s [en [Eo Et]]]. cbn [fst snd] in *.
     pose proof (step_shape cf0 s en e) as Sh. cbn zeta in Sh. rewrite <- Eo, <- Et in Sh.
-    destruct Sh as [P|[[k0 [g0 [c [po [o' [_ [-> [P _]]]]]]]]|[[k [l [t [c [f [_ [_ [_ ->]]]]]]]]|[k [l [t [c [rd [-> [-> [_ ->]]]]]]]]]]].
+    destruct Sh as [P|[[k0 [g0 [n0 [c [po [o' [_ [E1 [P _]]]]]]]]]|[[k [l [t [c [f [_ [_ [_ E1]]]]]]]]|[k [l [t [c [rd [-> [-> [_ E1]]]]]]]]]]].
     + destruct (plain_not_req _ _ _ _ _ P Hreq).
-    + destruct Hreq as [H|H]; [discriminate|destruct (plain_not_req _ _ _ _ _ P H)].
-    + destruct Hreq as [H|[]]. discriminate.
-    + destruct Hreq as [H|[]]. injection H as <- <- <- <-. exists k, c. auto.
+    + rewrite E1 in Hreq. destruct Hreq as [H|H]; [discriminate|destruct (plain_not_req _ _ _ _ _ P H)].
+    + rewrite E1 in Hreq. destruct Hreq as [H|H]; [discriminate|destruct (plain_not_req _ _ _ _ _ (fbl_resp_plain f) H)].
+    + rewrite E1 in Hreq. destruct Hreq as [H|H]; [|destruct (plain_not_req _ _ _ _ _ (fbl_req_plain rd) H)].
+      injection H as <- <- <- <-. exists k, c, (fbl_req rd). repeat split; [exact E1|].
+      exact (calml_noreq _ (plain_calm _ (fbl_req_plain rd))).
 Qed.
 
 (* ------------------------------------------------------------------ a request is handed to one carrier only *)
@@ -2663,7 +2749,8 @@ Qed.
 Lemma read_Keep3 s c res : Keep3 s (fst (fut_read s c res)).
 Proof.
   unfold fut_read. destruct (find_fut c (futs s)) as [f|]; [|apply Keep3_refl].
-  destruct (f_wait f); [apply complete_Keep3|apply Keep3_refl].
+  destruct (f_wait f); [|apply Keep3_refl].
+  pose proof (complete_Keep3 s f res) as H. destruct (complete s f res) as [s1 o]. exact H.
 Qed.
 Lemma cancel_Keep3 s rid : Keep3 s (fst (h_cancel s rid)).
 Proof.
@@ -2673,7 +2760,7 @@ Qed.
 Lemma same_ledger_Keep3 s s' : same_ledger s s' -> Keep3 s s'.
 Proof. intros (D & _ & P & _ & N & _). repeat split; auto. Qed.
 
-Lemma send_DP s p dial len tag ok dok sid : DP s (fst (h_send s p dial len tag ok dok sid)).
+Lemma send_DP s p dial len tag fb ok dok sid : DP s (fst (h_send s p dial len tag fb ok dok sid)).
 Proof.
   unfold h_send. simp_sets.
   destruct (memN p (peers s)); [destruct ok|destruct dial; cbn [negb]; [destruct dok|]]; cbn [fst];
@@ -2715,23 +2802,23 @@ Proof.
   pose proof (cnt_filter_le rid_po (fun x => negb (q_rid (po_req x) =? q_rid (po_req po))) r (pouts s)). lia.
 Qed.
 
-Lemma opened_body_dp cf0 s po c gate now :
-  dials (fst (opened_body cf0 s po c gate now)) = dials s /\
-  pouts (fst (opened_body cf0 s po c gate now)) = drop_po po (pouts s) /\
-  next_rid (fst (opened_body cf0 s po c gate now)) = next_rid s.
+Lemma opened_body_dp cf0 s po c gate now neg :
+  dials (fst (opened_body cf0 s po c gate now neg)) = dials s /\
+  pouts (fst (opened_body cf0 s po c gate now neg)) = drop_po po (pouts s) /\
+  next_rid (fst (opened_body cf0 s po c gate now neg)) = next_rid s.
 Proof.
-  unfold opened_body.
+  unfold opened_body. cbn [q_rid q_len q_tag q_fb].
   assert (H : forall res, let s1 := fst (settle (set_pouts s (drop_po po (pouts s))) (po_peer po) (q_rid (po_req po)) res) in
                           dials s1 = dials s /\ pouts s1 = drop_po po (pouts s) /\ next_rid s1 = next_rid s).
   { intros res. unfold settle. destruct (_ && _); cbn; auto. }
   destruct (max_size cf0 <? _); [apply H|]. destruct gate as [|[x|x|]]; try apply H; cbn; auto.
 Qed.
 
-Lemma opened_DP cf0 s sid c gate now : DP s (fst (h_opened cf0 s sid c gate now)).
+Lemma opened_DP cf0 s sid c gate now neg : DP s (fst (h_opened cf0 s sid c gate now neg)).
 Proof.
   unfold h_opened. destruct (find_po sid (pouts s)) as [po|]; [|apply Keep3_DP, Keep3_refl].
-  pose proof (opened_body_dp cf0 s po c gate now) as (D & P & N).
-  destruct (opened_body _ _ _ _ _ _) as [s1 o]. cbn [fst] in *.
+  pose proof (opened_body_dp cf0 s po c gate now neg) as (D & P & N).
+  destruct (opened_body _ _ _ _ _ _ _) as [s1 o]. cbn [fst] in *.
   split; [lia|]. intros r _. unf. rewrite D, P. unfold drop_po.
   pose proof (cnt_filter_le rid_po (fun x => negb (q_rid (po_req x) =? q_rid (po_req po))) r (pouts s)). lia.
 Qed.
@@ -2739,8 +2826,8 @@ Qed.
 Lemma step_DP cf0 s en e : DP s (fst (fst (fst (step cf0 (s, en) e)))).
 Proof.
   destruct e; cbn [step].
-  - pose proof (send_DP s p dial len tag (open_ok p en) (p <? ndial cf0) (next_sid en)) as H.
-    destruct (h_send _ _ _ _ _ _ _ _) as [s1 o]. exact H.
+  - match goal with |- context [h_send s p dial len tag ?fb0 ?a0 ?b0 ?c0] => pose proof (send_DP s p dial len tag fb0 a0 b0 c0) as H end.
+    destruct (h_send _ _ _ _ _ _ _ _ _) as [s1 o]. exact H.
   - pose proof (cancel_Keep3 s rid) as H. destruct (h_cancel s rid) as [s1 o]. exact (Keep3_DP _ _ H).
   - destruct (conn_of p en); cbn [fst]; [apply Keep3_DP, Keep3_refl|].
     match goal with |- context [h_established s p ?n ?sd] => pose proof (established_DP s p n sd) as H end. destruct (h_established _ _ _ _) as [s1 o]. exact H.
@@ -2748,8 +2835,8 @@ Proof.
     pose proof (closed_DP s p) as H. destruct (h_closed s p) as [s1 o]. exact H.
   - pose proof (dialfail_DP s p) as H. destruct (h_dialfail s p) as [s1 o]. exact H.
   - destruct (nth_mod k (opens en)) as [[sid q]|]; cbn [fst]; [|apply Keep3_DP, Keep3_refl].
-    pose proof (opened_DP cf0 s sid (N.of_nat (length (chans en))) (N.min gate 2) (now en)) as H.
-    destruct (h_opened _ _ _ _ _ _) as [s1 o]. exact H.
+    pose proof (opened_DP cf0 s sid (N.of_nat (length (chans en))) (N.min gate 2) (now en) neg) as H.
+    destruct (h_opened _ _ _ _ _ _ _) as [s1 o]. exact H.
   - destruct (nth_mod k (opens en)) as [[sid q]|]; cbn [fst]; [|apply Keep3_DP, Keep3_refl].
     pose proof (openfail_DP s sid unsupported) as H. destruct (h_openfail _ _ _) as [s1 o]. exact H.
   - destruct (chans en) as [|ch0 chs]; cbn [fst]; [apply Keep3_DP, Keep3_refl|].
@@ -2793,8 +2880,8 @@ Proof.
     unfold fut_advance. destruct (complete_all _ _ _) as [s1 o]. cbn [fst] in *.
     apply Keep3_DP. destruct H as (A & B & C). repeat split; assumption.
   - destruct (conn_of p en); cbn [fst]; [|apply Keep3_DP, Keep3_refl].
-    pose proof (inopen_same cf0 s p (N.of_nat (length (chans en)))) as [H _].
-    destruct (h_inopen _ _ _ _) as [s1 o]. exact (Keep3_DP _ _ (same_ledger_Keep3 _ _ H)).
+    pose proof (inopen_same cf0 s p (N.of_nat (length (chans en))) neg) as [H _].
+    destruct (h_inopen _ _ _ _ _) as [s1 o]. exact (Keep3_DP _ _ (same_ledger_Keep3 _ _ H)).
   - destruct (chans en) as [|ch0 chs]; cbn [fst]; [apply Keep3_DP, Keep3_refl|].
     destruct (nth_error _ _) as [ch|]; cbn [fst]; [|apply Keep3_DP, Keep3_refl].
     destruct (negb (c_out ch)); cbn [fst]; [|apply Keep3_DP, Keep3_refl].
@@ -2807,6 +2894,9 @@ Proof.
     exact (Keep3_DP _ _ (same_ledger_Keep3 _ _ H)).
   - destruct (nth_mod k (hpend en)) as [irid|]; cbn [fst]; [|apply Keep3_DP, Keep3_refl].
     unfold h_urej. cbn [fst]. apply Keep3_DP. repeat split; cbn; lia.
+  - cbn [fst]. apply Keep3_DP, Keep3_refl.
+  - unfold h_burn. cbn [fst]. apply Keep3_DP. repeat split; cbn; lia.
+  - cbn [fst]. apply Keep3_DP, Keep3_refl.
   - cbn [fst]. apply Keep3_DP, Keep3_refl.
 Qed.
 
@@ -2825,7 +2915,7 @@ Proof.
   assert (Hold : forall c rid, In (OBind c rid) tr ->
             rid < next_rid (fst (fst (fst r))) /\ (cd rid (fst (fst (fst r))) + cp rid (fst (fst (fst r))) = 0)%nat).
   { intros c rid H. destruct (I5 c rid H) as [A B]. split; [lia|]. specialize (D rid A). lia. }
-  destruct Sh as [P|[[k [g [c [po [o' [_ [Eo [P [Hpo Es]]]]]]]]]|[[k [l [t [c [f [_ [_ [_ Eo]]]]]]]]|[k [l [t [c [rd [_ [_ [_ Eo]]]]]]]]]]].
+  destruct Sh as [P|[[k [g [ng [c [po [o' [_ [Eo [P [Hpo Es]]]]]]]]]]|[[k [l [t [c [f [_ [_ [_ Eo]]]]]]]]|[k [l [t [c [rd [_ [_ [_ Eo]]]]]]]]]]].
   - split; [|intros c rid H; destruct (calml_nobind _ _ _ (plain_calm _ P) H)].
     intros c rid H. apply in_app_or in H. destruct H as [H|H]; [exact (Hold c rid H)|].
     destruct (calml_nobind _ _ _ (plain_calm _ P) H).
@@ -2834,7 +2924,7 @@ Proof.
     + intros c' rid H. apply in_app_or in H. destruct H as [H|H]; [exact (Hold c' rid H)|].
       rewrite Eo in H. destruct H as [H|H]; [|destruct (calml_nobind _ _ _ (plain_calm _ P) H)].
       injection H as <- <-. rewrite Es.
-      pose proof (opened_body_dp cf0 s po c (N.min g 2) (now en)) as (Dd & Dp & Dn).
+      pose proof (opened_body_dp cf0 s po c (N.min g 2) (now en) ng) as (Dd & Dp & Dn).
       split.
       * rewrite Dn. destruct (N.lt_ge_cases (rid_po po) (next_rid s)) as [L|L]; [exact L|].
         pose proof (inv_fresh _ _ I (rid_po po) L). lia.
@@ -2842,12 +2932,16 @@ Proof.
         pose proof (inv_ctx _ _ I (rid_po po)). unf. lia.
     + intros c' rid H. rewrite Eo in H. destruct H as [H|H]; [|destruct (calml_nobind _ _ _ (plain_calm _ P) H)].
       injection H as <- <-. exact Hcp.
-  - split; [|intros c' rid H; rewrite Eo in H; destruct H as [H|[]]; discriminate].
-    intros c' rid H. apply in_app_or in H. destruct H as [H|H]; [exact (Hold c' rid H)|].
-    rewrite Eo in H. destruct H as [H|[]]. discriminate.
-  - split; [|intros c' rid H; rewrite Eo in H; destruct H as [H|[]]; discriminate].
-    intros c' rid H. apply in_app_or in H. destruct H as [H|H]; [exact (Hold c' rid H)|].
-    rewrite Eo in H. destruct H as [H|[]]. discriminate.
+  - assert (Nb : forall c' rid, ~ In (OBind c' rid) (snd (fst r))).
+    { intros c' rid H. rewrite Eo in H. destruct H as [H|H]; [discriminate|].
+      exact (calml_nobind _ _ _ (plain_calm _ (fbl_resp_plain f)) H). }
+    split; [|intros c' rid H; destruct (Nb c' rid H)].
+    intros c' rid H. apply in_app_or in H. destruct H as [H|H]; [exact (Hold c' rid H)|destruct (Nb c' rid H)].
+  - assert (Nb : forall c' rid, ~ In (OBind c' rid) (snd (fst r))).
+    { intros c' rid H. rewrite Eo in H. destruct H as [H|H]; [discriminate|].
+      exact (calml_nobind _ _ _ (plain_calm _ (fbl_req_plain rd)) H). }
+    split; [|intros c' rid H; destruct (Nb c' rid H)].
+    intros c' rid H. apply in_app_or in H. destruct H as [H|H]; [exact (Hold c' rid H)|destruct (Nb c' rid H)].
 Qed.
 
 (* a request id is bound to at most one carrier *)
@@ -2880,3 +2974,2047 @@ Proof.
   - intros x y [].
   - intros x y z [].
 Qed.
+
+(* ------------------------------------------------------------------ the transport contract:
+   how the protocol's waiting sets follow the calls it makes *)
+
+Ltac same_crush :=
+  repeat match goal with
+         | |- context [match ?x with _ => _ end] => destruct x
+         end; cbn; reflexivity.
+
+(* peers change only when a connection is reported / closed *)
+Lemma send_peers s p dial len tag fb ok dok sid : peers (fst (h_send s p dial len tag fb ok dok sid)) = peers s.
+Proof. unfold h_send. same_crush. Qed.
+Lemma settle_peers s p rid res : peers (fst (settle s p rid res)) = peers s.
+Proof. unfold settle. same_crush. Qed.
+Lemma complete_peers s f res : peers (fst (complete s f res)) = peers s.
+Proof. unfold complete. apply (settle_peers (set_futs s (drop_fut f (futs s)))). Qed.
+Lemma complete_all_peers l : forall s res, peers (fst (complete_all s l res)) = peers s.
+Proof.
+  induction l as [|f l IH]; intros s res; cbn [complete_all fst]; [reflexivity|].
+  pose proof (complete_peers s f res) as A. destruct (complete s f res) as [s1 o1]. cbn [fst] in A.
+  pose proof (IH s1 res) as B. destruct (complete_all s1 l res) as [s2 o2]. cbn [fst] in *. congruence.
+Qed.
+Lemma dialfail_peers s p : peers (fst (h_dialfail s p)) = peers s.
+Proof. reflexivity. Qed.
+Lemma openfail_peers s sid u : peers (fst (h_openfail s sid u)) = peers s.
+Proof. unfold h_openfail. same_crush. Qed.
+Lemma opened_body_peers cf0 s po c gate now neg : peers (fst (opened_body cf0 s po c gate now neg)) = peers s.
+Proof.
+  unfold opened_body. cbn [q_rid q_len q_tag q_fb].
+  assert (H : forall res, peers (fst (settle (set_pouts s (drop_po po (pouts s))) (po_peer po) (q_rid (po_req po)) res)) = peers s)
+    by (intros res; apply (settle_peers (set_pouts s (drop_po po (pouts s))))).
+  destruct (max_size cf0 <? _); [apply H|]. destruct gate as [|[x|x|]]; try apply H; reflexivity.
+Qed.
+Lemma opened_peers cf0 s sid c gate now neg : peers (fst (h_opened cf0 s sid c gate now neg)) = peers s.
+Proof.
+  unfold h_opened. destruct (find_po sid (pouts s)) as [po|]; [|reflexivity].
+  pose proof (opened_body_peers cf0 s po c gate now neg) as H. destruct (opened_body _ _ _ _ _ _ _) as [s1 o]. exact H.
+Qed.
+Lemma unblock_peers cf0 s c now : peers (fst (fut_unblock cf0 s c now)) = peers s.
+Proof.
+  unfold fut_unblock. destruct (find_fut c (futs s)) as [f|]; [|reflexivity].
+  destruct (f_wait f); [reflexivity|]. destruct (f_cancel f); [|reflexivity].
+  pose proof (complete_peers s f (RErr E_CANCELED)) as H. destruct (complete s f _) as [s1 o]. exact H.
+Qed.
+Lemma breakw_peers s c : peers (fst (fut_breakw s c)) = peers s.
+Proof.
+  unfold fut_breakw. destruct (find_fut c (futs s)) as [f|]; [|reflexivity].
+  destruct (f_wait f); [reflexivity|apply complete_peers].
+Qed.
+Lemma read_peers s c res : peers (fst (fut_read s c res)) = peers s.
+Proof.
+  unfold fut_read. destruct (find_fut c (futs s)) as [f|]; [|reflexivity].
+  destruct (f_wait f); [|reflexivity].
+  pose proof (complete_peers s f res) as H. destruct (complete s f res) as [s1 o]. exact H.
+Qed.
+Lemma cancel_peers s rid : peers (fst (h_cancel s rid)) = peers s.
+Proof.
+  unfold h_cancel. destruct (find _ (futs s)) as [f|]; [|reflexivity].
+  destruct (f_wait f); [apply complete_peers|reflexivity].
+Qed.
+Lemma advance_peers s now : peers (fst (fut_advance s now)) = peers s.
+Proof. apply complete_all_peers. Qed.
+
+(* active: what can enter *)
+Lemma settle_active s p rid res x : In x (active (fst (settle s p rid res))) -> In x (active s).
+Proof. unfold settle. destruct (_ && _); cbn [fst]; simp_sets; [intros H; apply in_removeP in H; tauto|auto]. Qed.
+Lemma complete_active s f res x : In x (active (fst (complete s f res))) -> In x (active s).
+Proof. unfold complete. apply (settle_active (set_futs s (drop_fut f (futs s)))). Qed.
+Lemma complete_all_active l : forall s res x, In x (active (fst (complete_all s l res))) -> In x (active s).
+Proof.
+  induction l as [|f l IH]; intros s res x; cbn [complete_all fst]; [auto|].
+  pose proof (complete_active s f res x) as A. destruct (complete s f res) as [s1 o1]. cbn [fst] in A.
+  pose proof (IH s1 res x) as B. destruct (complete_all s1 l res) as [s2 o2]. cbn [fst] in *. auto.
+Qed.
+
+(* every future of s' continues a future of s unchanged in carrier, request, peer and deadline *)
+Definition FutsKeep (s s' : pst) : Prop :=
+  forall g, In g (futs s') ->
+    exists f, In f (futs s) /\ f_chan f = f_chan g /\ rid_f f = rid_f g /\ f_peer f = f_peer g /\ f_dl f = f_dl g.
+
+Lemma FutsKeep_same s s' : futs s' = futs s -> FutsKeep s s'.
+Proof. intros E g Hg. rewrite E in Hg. exists g. auto. Qed.
+Lemma FutsKeep_sub s s' : (forall g, In g (futs s') -> In g (futs s)) -> FutsKeep s s'.
+Proof. intros H g Hg. exists g. auto. Qed.
+Lemma FutsKeep_trans s s1 s2 : FutsKeep s s1 -> FutsKeep s1 s2 -> FutsKeep s s2.
+Proof.
+  intros A B g Hg. destruct (B g Hg) as [f1 [H1 [E1 [E2 [E3 E4]]]]]. destruct (A f1 H1) as [f [H [F1 [F2 [F3 F4]]]]].
+  exists f. repeat split; congruence.
+Qed.
+
+Lemma cancel_FutsKeep s rid : FutsKeep s (fst (h_cancel s rid)).
+Proof.
+  unfold h_cancel. destruct (find _ (futs s)) as [f|]; [|apply FutsKeep_same; reflexivity].
+  destruct (f_wait f); [apply FutsKeep_sub, complete_futs_sub|].
+  cbn [fst]. intros g Hg. simp_sets. unfold mark_cancel in Hg. apply in_map_iff in Hg. destruct Hg as [f0 [<- H0]].
+  exists f0. destruct (q_rid (f_req f0) =? rid); auto.
+Qed.
+Lemma breakw_FutsKeep s c : FutsKeep s (fst (fut_breakw s c)).
+Proof.
+  unfold fut_breakw. destruct (find_fut c (futs s)) as [f|]; [|apply FutsKeep_same; reflexivity].
+  destruct (f_wait f); [apply FutsKeep_same; reflexivity|apply FutsKeep_sub, complete_futs_sub].
+Qed.
+Lemma read_FutsKeep s c res : FutsKeep s (fst (fut_read s c res)).
+Proof.
+  unfold fut_read. destruct (find_fut c (futs s)) as [f|]; [|apply FutsKeep_same; reflexivity].
+  destruct (f_wait f); [|apply FutsKeep_same; reflexivity].
+  pose proof (complete_futs_sub s f res) as H. destruct (complete s f res) as [s1 o]. apply FutsKeep_sub. exact H.
+Qed.
+Lemma same_ledger_FutsKeep s s' : same_ledger s s' -> FutsKeep s s'.
+Proof. intros (_ & _ & _ & F & _). apply FutsKeep_same. exact F. Qed.
+
+(* what a step leaves alone: the waiting sets, the peers, the futures; active only shrinks *)
+Definition Inert (s s' : pst) : Prop :=
+  dials s' = dials s /\ pouts s' = pouts s /\ peers s' = peers s /\ FutsKeep s s' /\
+  (forall x, In x (active s') -> In x (active s)).
+
+Lemma Inert_refl s : Inert s s.
+Proof. repeat split; auto. apply FutsKeep_same. reflexivity. Qed.
+Lemma Inert_trans s s1 s2 : Inert s s1 -> Inert s1 s2 -> Inert s s2.
+Proof.
+  intros (A1 & A2 & A3 & A4 & A5) (B1 & B2 & B3 & B4 & B5).
+  repeat split; try congruence; [eapply FutsKeep_trans; eauto|auto].
+Qed.
+Lemma same_ledger_Inert s s' : same_ledger s s' -> Inert s s'.
+Proof.
+  intros H. pose proof (same_ledger_FutsKeep _ _ H) as K. destruct H as (D & A & P & F & N & Pe).
+  repeat split; auto. intros x Hx. rewrite A in Hx. exact Hx.
+Qed.
+
+Lemma cancel_Inert s rid : Inert s (fst (h_cancel s rid)).
+Proof.
+  pose proof (cancel_Keep3 s rid) as (D & P & _). repeat split; auto; [apply cancel_peers|apply cancel_FutsKeep|].
+  unfold h_cancel. destruct (find _ (futs s)) as [f|]; [|auto].
+  destruct (f_wait f); [apply complete_active|auto].
+Qed.
+Lemma breakw_Inert s c : Inert s (fst (fut_breakw s c)).
+Proof.
+  pose proof (breakw_Keep3 s c) as (D & P & _). repeat split; auto; [apply breakw_peers|apply breakw_FutsKeep|].
+  unfold fut_breakw. destruct (find_fut c (futs s)) as [f|]; [|auto].
+  destruct (f_wait f); [auto|apply complete_active].
+Qed.
+Lemma read_Inert s c res : Inert s (fst (fut_read s c res)).
+Proof.
+  pose proof (read_Keep3 s c res) as (D & P & _). repeat split; auto; [apply read_peers|apply read_FutsKeep|].
+  unfold fut_read. destruct (find_fut c (futs s)) as [f|]; [|auto].
+  destruct (f_wait f); [|auto].
+  pose proof (complete_active s f res) as H. destruct (complete s f res) as [s1 o]. exact H.
+Qed.
+
+(* outputs that make no call *)
+Definition nocall (o : list out) : Prop := o_dials o = [] /\ o_opens o = [] /\ o_binds o = [].
+Lemma nocall_nil : nocall [].
+Proof. repeat split. Qed.
+Lemma nocall_app a b : nocall a -> nocall b -> nocall (a ++ b).
+Proof.
+  unfold nocall, o_dials, o_opens, o_binds. rewrite !flat_map_app.
+  intros (A & B & C) (D & E & F). rewrite A, B, C, D, E, F. repeat split.
+Qed.
+Lemma nocall_of_nobind_noopen o :
+  (forall x, In x o -> match x with ODial _ | OOpen _ _ | OBind _ _ => False | _ => True end) -> nocall o.
+Proof.
+  intros H. unfold nocall, o_dials, o_opens, o_binds.
+  induction o as [|x o IH]; [repeat split|].
+  assert (Hx := H x (or_introl eq_refl)). destruct IH as (A & B & C); [intros y Hy; apply H; right; exact Hy|].
+  cbn [flat_map]. rewrite A, B, C. destruct x; try contradiction; repeat split.
+Qed.
+
+(* handlers other than send / established / opened make no call *)
+Definition nc (x : out) : bool := match x with ODial _ | OOpen _ _ | OBind _ _ => false | _ => true end.
+Definition ncl (o : list out) : Prop := forallb nc o = true.
+Lemma ncl_app a b : ncl a -> ncl b -> ncl (a ++ b).
+Proof. unfold ncl. rewrite forallb_app. intros -> ->. reflexivity. Qed.
+Lemma ncl_nocall o : ncl o -> nocall o.
+Proof.
+  intros H. apply nocall_of_nobind_noopen. unfold ncl in H. rewrite forallb_forall in H.
+  intros x Hx. specialize (H x Hx). destruct x; try discriminate; exact I.
+Qed.
+Lemma ncl_map_fail {A} (g : A -> N) code l : ncl (map (fun a => OFail (g a) code) l).
+Proof. unfold ncl. induction l; cbn; auto. Qed.
+
+Lemma verdict_ncl rid res : ncl (verdict rid res).
+Proof. unfold verdict. destruct res as [l t|c]; [reflexivity|]. destruct (c =? E_CANCELED); reflexivity. Qed.
+Lemma settle_ncl s p rid res : ncl (snd (settle s p rid res)).
+Proof. unfold settle. destruct (_ && _); cbn [snd]; [apply verdict_ncl|reflexivity]. Qed.
+Lemma complete_ncl s f res : ncl (snd (complete s f res)).
+Proof. unfold complete. apply settle_ncl. Qed.
+Lemma complete_all_ncl l : forall s res, ncl (snd (complete_all s l res)).
+Proof.
+  induction l as [|f l IH]; intros s res; cbn [complete_all snd]; [reflexivity|].
+  pose proof (complete_ncl s f res) as H. destruct (complete s f res) as [s1 o1].
+  pose proof (IH s1 res) as H2. destruct (complete_all s1 l res) as [s2 o2]. cbn [snd] in *.
+  apply ncl_app; assumption.
+Qed.
+Lemma closed_ncl s p : ncl (snd (h_closed s p)).
+Proof. unfold h_closed. destruct (memN p _); cbn [snd]; [apply (ncl_map_fail snd)|reflexivity]. Qed.
+Lemma dialfail_ncl s p : ncl (snd (h_dialfail s p)).
+Proof. unfold h_dialfail. cbn [snd]. apply (ncl_map_fail (fun d : N * req => q_rid (snd d))). Qed.
+Lemma openfail_ncl s sid u : ncl (snd (h_openfail s sid u)).
+Proof. unfold h_openfail. destruct (find_po sid (pouts s)); reflexivity. Qed.
+Lemma opened_body_ncl cf0 s po c gate now neg : ncl (snd (opened_body cf0 s po c gate now neg)).
+Proof.
+  unfold opened_body. cbn [q_rid q_len q_tag q_fb]. destruct (max_size cf0 <? _); [apply settle_ncl|].
+  destruct gate as [|[g|g|]]; try apply settle_ncl; reflexivity.
+Qed.
+Lemma unblock_ncl cf0 s c now : ncl (snd (fut_unblock cf0 s c now)).
+Proof.
+  unfold fut_unblock. destruct (find_fut c (futs s)) as [f|]; [|reflexivity].
+  destruct (f_wait f); [reflexivity|]. destruct (f_cancel f); [|reflexivity].
+  pose proof (complete_ncl s f (RErr E_CANCELED)) as H. destruct (complete s f _) as [s1 o]. cbn [snd] in *.
+  unfold ncl in *. cbn [forallb nc]. exact H.
+Qed.
+Lemma breakw_ncl s c : ncl (snd (fut_breakw s c)).
+Proof.
+  unfold fut_breakw. destruct (find_fut c (futs s)) as [f|]; [|reflexivity].
+  destruct (f_wait f); [reflexivity|apply complete_ncl].
+Qed.
+Lemma fb_resp_ncl f o : ncl (fb_resp f o).
+Proof.
+  unfold fb_resp, ncl. destruct (f_neg f =? 0); [reflexivity|].
+  induction o as [|x o IH]; [reflexivity|]. cbn [flat_map]. rewrite forallb_app, IH, andb_true_r. destruct x; reflexivity.
+Qed.
+Lemma read_ncl s c res : ncl (snd (fut_read s c res)).
+Proof.
+  unfold fut_read. destruct (find_fut c (futs s)) as [f|]; [|reflexivity].
+  destruct (f_wait f); [|reflexivity].
+  pose proof (complete_ncl s f res) as H. destruct (complete s f res) as [s1 o]. cbn [snd] in *.
+  apply ncl_app; [exact H|apply fb_resp_ncl].
+Qed.
+Lemma advance_ncl s now : ncl (snd (fut_advance s now)).
+Proof. unfold fut_advance. apply complete_all_ncl. Qed.
+Lemma cancel_ncl s rid : ncl (snd (h_cancel s rid)).
+Proof.
+  unfold h_cancel. destruct (find _ (futs s)) as [f|]; [|reflexivity].
+  destruct (f_wait f); [apply complete_ncl|reflexivity].
+Qed.
+Lemma uresp_ncl cf0 s irid len tag fb gate now : ncl (snd (h_uresp cf0 s irid len tag fb gate now)).
+Proof.
+  unfold h_uresp, feed. destruct (find_rs irid (rsps s)) as [rs|]; [|reflexivity].
+  destruct (s_w rs); [reflexivity|]. destruct fb; (destruct (max_size cf0 <? len); [reflexivity|]);
+  destruct gate as [|[g|g|]]; reflexivity.
+Qed.
+Lemma rsp_gate_ncl s c ok : ncl (snd (rsp_gate s c ok)).
+Proof.
+  unfold rsp_gate. destruct (find _ (rsps s)) as [rs|]; [|reflexivity].
+  destruct (s_w rs) as [[[l t] d]|]; [|reflexivity]. unfold feed. destruct ok; destruct (s_fb rs); reflexivity.
+Qed.
+Lemma adv_out_ncl s now : ncl (rsp_advance_out s now).
+Proof.
+  unfold rsp_advance_out, ncl. induction (rsps s) as [|a l IH]; [reflexivity|].
+  cbn [flat_map]. rewrite forallb_app, IH, andb_true_r. destruct (s_w a) as [[[x y] d]|]; [|reflexivity].
+  destruct (d <=? now); [|reflexivity]. unfold feed. destruct (s_fb a); reflexivity.
+Qed.
+Lemma inread_ncl s c good len tag : ncl (snd (h_inread s c good len tag)).
+Proof.
+  unfold h_inread. destruct (find_rd c (rdrs s)) as [rd|]; [|reflexivity].
+  destruct (_ && _); [destruct good; [destruct (r_neg rd =? 0)|]|]; reflexivity.
+Qed.
+
+(* ------------------------------------------------------------------ the ghost ledger covers the waiting sets *)
+
+Record GI (cf : cfg) (s : pst) (en : env) (g : ghost) : Prop := mkGI {
+  gi_now : g_now g = now en;
+  gi_conn : forall p, In p (g_conn g) <-> conn_of p en <> None;
+  gi_pc : forall p, In p (peers s) -> conn_of p en <> None;
+  gi_dial : forall d, In d (dials s) -> In (fst d) (g_dials g);
+  gi_po : forall po, In po (pouts s) -> In (po_sid po, po_peer po) (g_opens g);
+  gi_sid_lt : forall po, In po (pouts s) -> po_sid po < next_sid en;
+  gi_sid_nd : NoDup (map po_sid (pouts s));
+  gi_fut : forall f, In f (futs s) -> In (f_peer f, rid_f f) (active s) ->
+           exists dl, In (f_chan f, rid_f f, dl) (g_live g) /\ f_dl f <= dl;
+  gi_dl : forall f, In f (futs s) -> now en < f_dl f;
+  gi_live_le : forall x, In x (g_live g) -> snd x <= g_now g + tmo cf
+}.
+
+Lemma GI_init cf : GI cf init_pst init_env g0.
+Proof.
+  constructor; cbn; try (intros; contradiction); try constructor.
+  - intros []. - intros H. exfalso. apply H. reflexivity.
+Qed.
+
+Lemma filter_all {A} (f : A -> bool) l : (forall x, In x l -> f x = true) -> filter f l = l.
+Proof.
+  induction l as [|a l IH]; intros H; [reflexivity|]. cbn [filter].
+  rewrite (H a (or_introl eq_refl)), IH; [reflexivity|]. intros x Hx. apply H. right. exact Hx.
+Qed.
+
+Lemma o_terms_terms r o : In r (o_terms o) -> (1 <= terms r o)%nat.
+Proof.
+  unfold o_terms, terms. induction o as [|x o IH]; [intros []|]. cbn [flat_map filter]. intros H.
+  apply in_app_or in H. destruct H as [H|H].
+  - destruct x; cbn in H; try tauto; destruct H as [<-|[]]; cbn [is_term]; rewrite N.eqb_refl; cbn [length]; lia.
+  - specialize (IH H). destruct (is_term r x); cbn [length]; lia.
+Qed.
+
+(* an id that is active at a peer has not been answered in this step *)
+Lemma active_not_term s tr o p r :
+  Inv s (tr ++ o) -> In (p, r) (active s) -> ~ In r (o_terms o).
+Proof.
+  intros I Ha Ht. apply o_terms_terms in Ht. pose proof (inv_once _ _ I r) as H. rewrite terms_app in H.
+  assert (1 <= ca r s)%nat. { apply cnt_pos_in. change r with (snd (p, r)). apply in_map. exact Ha. }
+  lia.
+Qed.
+
+(* which stimuli the ghost treats specially *)
+Definition plain_ev (e : ev) (tg : option N) : bool :=
+  match e, tg with
+  | EAdvance _, _ | EEstablished _ _ _, _ | EClosed _, _ | EDialFail _, _ => false
+  | EOpened _ _ _, Some _ | EOpenFail _ _, Some _ | EUnblock _, Some _ => false
+  | _, _ => true
+  end.
+
+Lemma gstep_plain cf e o tg g :
+  plain_ev e tg = true ->
+  gstep cf e o tg g =
+  mkG (g_now g) (g_conn g) (g_dials g ++ o_dials o) (g_opens g ++ o_opens o)
+      (filter (fun x => negb (memN (snd (fst x)) (o_terms o)))
+              (g_live g ++ map (fun b => (fst b, snd b, g_now g + tmo cf)) (o_binds o))).
+Proof.
+  intros H. unfold gstep.
+  destruct e; try discriminate H; try (destruct tg; try discriminate H);
+    cbn [memN existsb negb]; rewrite ?(filter_all (fun _ => true)) by reflexivity; reflexivity.
+Qed.
+
+Lemma live_keep cf g o (x : N * N * N) :
+  In x (g_live g) -> ~ In (snd (fst x)) (o_terms o) ->
+  In x (filter (fun y => negb (memN (snd (fst y)) (o_terms o)))
+               (g_live g ++ map (fun b => (fst b, snd b, g_now g + tmo cf)) (o_binds o))).
+Proof.
+  intros H Hn. apply filter_In. split; [apply in_or_app; left; exact H|].
+  destruct (memN (snd (fst x)) (o_terms o)) eqn:E; [|reflexivity]. apply memN_in in E. contradiction.
+Qed.
+
+Lemma GI_inert cf s en g s' en' e o tg tr :
+  GI cf s en g -> Inv s' (tr ++ o) -> Inert s s' -> nocall o -> plain_ev e tg = true ->
+  now en' = now en -> (forall p, conn_of p en' = None <-> conn_of p en = None) -> next_sid en <= next_sid en' ->
+  GI cf s' en' (gstep cf e o tg g).
+Proof.
+  intros [G1 G2 G3 G4 G5 G6 G7 G8 G9 G10] I (D & P & Pe & FK & A) (N1 & N2 & N3) PE Hnow Hconn Hsid.
+  rewrite (gstep_plain _ _ _ _ _ PE). rewrite N1, N2, N3. cbn [map]. rewrite !app_nil_r.
+  constructor; cbn [g_now g_conn g_dials g_opens g_live].
+  - congruence.
+  - intros p. rewrite G2. rewrite (Hconn p). tauto.
+  - intros p Hp. rewrite Pe in Hp. intros E. apply (G3 p Hp). apply Hconn. exact E.
+  - rewrite D. exact G4.
+  - rewrite P. exact G5.
+  - rewrite P. intros po H. specialize (G6 po H). lia.
+  - rewrite P. exact G7.
+  - intros f' Hf Ha. destruct (FK f' Hf) as [f [Hf0 [E1 [E2 [E3 E4]]]]].
+    assert (Ha0 : In (f_peer f, rid_f f) (active s)) by (rewrite E2, E3; apply A; exact Ha).
+    destruct (G8 f Hf0 Ha0) as [dl [Hl Hd]]. exists dl. rewrite <- E1, <- E2, <- E4. split; [|exact Hd].
+    apply filter_In. split; [exact Hl|]. cbn [fst snd].
+    destruct (memN (rid_f f) (o_terms o)) eqn:M; [|reflexivity]. apply memN_in in M.
+    exfalso. rewrite E2 in M. exact (active_not_term _ _ _ _ _ I Ha M).
+  - intros f' Hf. destruct (FK f' Hf) as [f [Hf0 [_ [_ [_ E4]]]]]. rewrite Hnow, <- E4. exact (G9 f Hf0).
+  - intros x Hx. apply filter_In in Hx. exact (G10 x (proj1 Hx)).
+Qed.
+
+Lemma live_in_filter g o (x : N * N * N) extra :
+  In x (g_live g) -> ~ In (snd (fst x)) (o_terms o) ->
+  In x (filter (fun y => negb (memN (snd (fst y)) (o_terms o))) (g_live g ++ extra)).
+Proof.
+  intros H Hn. apply filter_In. split; [apply in_or_app; left; exact H|].
+  destruct (memN (snd (fst x)) (o_terms o)) eqn:E; [|reflexivity]. apply memN_in in E. contradiction.
+Qed.
+
+Lemma fut_rid_known s tr f : Inv s tr -> In f (futs s) -> rid_f f < next_rid s /\ cd (rid_f f) s = 0%nat.
+Proof.
+  intros I Hf. assert (1 <= cf (rid_f f) s)%nat by (apply cnt_pos_in; apply in_map; exact Hf). split.
+  - destruct (N.lt_ge_cases (rid_f f) (next_rid s)) as [L|L]; [exact L|].
+    pose proof (inv_fresh _ _ I (rid_f f) L). lia.
+  - pose proof (inv_ctx _ _ I (rid_f f)). lia.
+Qed.
+
+Lemma keep_live (x : N * N * N) L T E :
+  In x L -> negb (memN (snd (fst x)) T) = true ->
+  In x (filter (fun y => negb (memN (snd (fst y)) T)) (L ++ E)).
+Proof. intros H Hn. apply filter_In. split; [apply in_or_app; left; exact H|exact Hn]. Qed.
+
+(* send_request *)
+Lemma GI_send cf s en g tr p dial len tag fb :
+  GI cf s en g -> Inv s tr ->
+  let r := step cf (s, en) (ESend p dial len tag fb) in
+  GI cf (fst (fst (fst r))) (snd (fst (fst r))) (gstep cf (ESend p dial len tag fb) (snd (fst r)) (snd r) g).
+Proof.
+  intros [G1 G2 G3 G4 G5 G6 G7 G8 G9 G10] I r. subst r. cbn [step] in *.
+  rewrite gstep_plain by reflexivity.
+  unfold h_send in *. simp_sets.
+  assert (Hfut : forall f' act', In f' (futs s) -> In (f_peer f', rid_f f') act' ->
+            (forall x, In x act' -> In x (active s) \/ snd x = next_rid s) ->
+            rid_f f' <> next_rid s /\ exists dl, In (f_chan f', rid_f f', dl) (g_live g) /\ f_dl f' <= dl).
+  { intros f' act' Hf Ha Hact. destruct (fut_rid_known _ _ _ I Hf) as [L _]. split; [lia|].
+    destruct (Hact _ Ha) as [Ha0|E]; [exact (G8 f' Hf Ha0)|]. exfalso. cbn [snd] in E. lia. }
+  assert (Hlive : forall o0 x, In x (filter (fun y => negb (memN (snd (fst y)) (o_terms o0))) (g_live g ++ [])) ->
+                               snd x <= g_now g + tmo cf).
+  { intros o0 x Hx. apply filter_In in Hx. destruct Hx as [Hx _]. rewrite app_nil_r in Hx. exact (G10 x Hx). }
+  destruct (memN p (peers s)) eqn:Mp.
+  - destruct (conn_of p en) as [okc|] eqn:Cp; [|exfalso; apply memN_in in Mp; exact (G3 p Mp Cp)].
+    destruct (open_ok p en) eqn:Ok; cbn [fst snd andb] in *.
+    + (* a substream is being opened *)
+      constructor; cbn [g_now g_conn g_dials g_opens g_live now next_sid conns]; simp_sets; cbn [o_dials o_opens o_binds flat_map app map].
+      * exact G1.
+      * intros q. rewrite G2. unfold conn_of. cbn [conns]. tauto.
+      * intros q Hq. specialize (G3 q Hq). unfold conn_of in *. cbn [conns]. exact G3.
+      * rewrite app_nil_r. exact G4.
+      * intros po H. apply in_app_or in H. apply in_or_app. destruct H as [H|[<-|[]]]; [left; exact (G5 po H)|right; left; reflexivity].
+      * intros po H. apply in_app_or in H. destruct H as [H|[<-|[]]]; [specialize (G6 po H); lia|cbn [po_sid]; lia].
+      * rewrite map_app. cbn [map po_sid]. apply NoDup_snoc; [exact G7|].
+        intros H. apply in_map_iff in H. destruct H as [po [E Hpo]]. specialize (G6 po Hpo). lia.
+      * intros f' Hf Ha. destruct (Hfut f' _ Hf Ha) as [_ [dl [Hl Hd]]].
+        { intros x Hx. apply in_app_or in Hx. destruct Hx as [Hx|[<-|[]]]; [left; exact Hx|right; reflexivity]. }
+        exists dl. split; [apply keep_live; [exact Hl|reflexivity]|exact Hd].
+      * exact G9.
+      * apply Hlive.
+    + (* open_substream failed: RequestFailed at once *)
+      constructor; cbn [g_now g_conn g_dials g_opens g_live now next_sid conns]; simp_sets; cbn [o_dials o_opens o_binds flat_map app map]; rewrite ?app_nil_r.
+      * exact G1.
+      * intros q. rewrite G2. unfold conn_of. cbn [conns]. tauto.
+      * intros q Hq. specialize (G3 q Hq). unfold conn_of in *. cbn [conns]. exact G3.
+      * exact G4. * exact G5.
+      * intros po H. specialize (G6 po H). lia.
+      * exact G7.
+      * intros f' Hf Ha. destruct (Hfut f' _ Hf Ha) as [Hne [dl [Hl Hd]]]; [intros x Hx; left; exact Hx|].
+        exists dl. split; [|exact Hd]. rewrite <- (app_nil_r (g_live g)). apply keep_live; [exact Hl|].
+        cbn. rewrite (proj2 (N.eqb_neq _ _) Hne). reflexivity.
+      * exact G9.
+      * intros x Hx. apply filter_In in Hx. destruct Hx as [Hx _]. exact (G10 x Hx).
+  - destruct dial; cbn [negb]; [destruct (_ && _ && _)|]; cbn [fst snd] in *;
+      (constructor; cbn [g_now g_conn g_dials g_opens g_live]; simp_sets; cbn [o_dials o_opens o_binds flat_map app map]; rewrite ?app_nil_r;
+       [exact G1|exact G2|exact G3| |exact G5|exact G6|exact G7| |exact G9|
+        intros x Hx; apply filter_In in Hx; destruct Hx as [Hx _]; exact (G10 x Hx)]).
+    + intros d H. apply in_app_or in H. apply in_or_app. destruct H as [H|[<-|[]]]; [left; exact (G4 d H)|right; left; reflexivity].
+    + intros f' Hf Ha. destruct (Hfut f' _ Hf Ha) as [_ [dl [Hl Hd]]]; [intros x Hx; left; exact Hx|].
+      exists dl. split; [|exact Hd]. rewrite <- (app_nil_r (g_live g)). apply keep_live; [exact Hl|reflexivity].
+    + exact G4.
+    + intros f' Hf Ha. destruct (Hfut f' _ Hf Ha) as [Hne [dl [Hl Hd]]]; [intros x Hx; left; exact Hx|].
+      exists dl. split; [|exact Hd]. rewrite <- (app_nil_r (g_live g)). apply keep_live; [exact Hl|].
+      cbn. rewrite (proj2 (N.eqb_neq _ _) Hne). reflexivity.
+    + exact G4.
+    + intros f' Hf Ha. destruct (Hfut f' _ Hf Ha) as [Hne [dl [Hl Hd]]]; [intros x Hx; left; exact Hx|].
+      exists dl. split; [|exact Hd]. rewrite <- (app_nil_r (g_live g)). apply keep_live; [exact Hl|].
+      cbn. rewrite (proj2 (N.eqb_neq _ _) Hne). reflexivity.
+Qed.
+
+(* futures that continue keep their ledger entry as long as their request is still active *)
+Lemma fut_clause_keep s s' g o tr E :
+  Inv s' (tr ++ o) -> FutsKeep s s' ->
+  (forall x, In x (active s') -> In x (active s) \/ forall f, In f (futs s) -> rid_f f <> snd x) ->
+  (forall f, In f (futs s) -> In (f_peer f, rid_f f) (active s) ->
+             exists dl, In (f_chan f, rid_f f, dl) (g_live g) /\ f_dl f <= dl) ->
+  forall f', In f' (futs s') -> In (f_peer f', rid_f f') (active s') ->
+             exists dl, In (f_chan f', rid_f f', dl)
+                           (filter (fun y => negb (memN (snd (fst y)) (o_terms o))) (g_live g ++ E)) /\ f_dl f' <= dl.
+Proof.
+  intros I FK A G8 f' Hf Ha. destruct (FK f' Hf) as [f [Hf0 [E1 [E2 [E3 E4]]]]].
+  destruct (A _ Ha) as [Ha0|Hn]; [|exfalso; exact (Hn f Hf0 E2)].
+  rewrite <- E2, <- E3 in Ha0. destruct (G8 f Hf0 Ha0) as [dl [Hl Hd]].
+  exists dl. rewrite <- E1, <- E2, <- E4. split; [|exact Hd]. apply keep_live; [exact Hl|]. cbn [fst snd].
+  destruct (memN (rid_f f) (o_terms o)) eqn:M; [|reflexivity]. apply memN_in in M.
+  exfalso. rewrite E2 in M. exact (active_not_term _ _ _ _ _ I Ha M).
+Qed.
+
+Lemma conn_of_none p en : conn_of p en = None <-> forall x, In x (conns en) -> fst x <> p.
+Proof.
+  unfold conn_of. destruct (find (fun x => fst x =? p) (conns en)) as [x|] eqn:F.
+  - split; [discriminate|]. intros H. apply find_some in F. destruct F as [Hx E]. apply N.eqb_eq in E.
+    destruct (H x Hx E).
+  - split; [|reflexivity]. intros _ x Hx E. pose proof (find_none _ _ F x Hx) as H. cbn in H.
+    rewrite E, N.eqb_refl in H. discriminate.
+Qed.
+
+Lemma NoDup_map_inj {A} (f : A -> N) l a b :
+  NoDup (map f l) -> In a l -> In b l -> f a = f b -> a = b.
+Proof.
+  induction l as [|x l IH]; [intros _ []|]. cbn [map]. intros N Ha Hb E. inversion N as [|? ? Hn N']; subst.
+  destruct Ha as [<-|Ha], Hb as [<-|Hb]; [reflexivity| | |auto].
+  - exfalso. apply Hn. rewrite E. apply in_map. exact Hb.
+  - exfalso. apply Hn. rewrite <- E. apply in_map. exact Ha.
+Qed.
+
+Lemma number_pouts_sids p sid l po :
+  In po (number_pouts p sid l) -> sid <= po_sid po < sid + N.of_nat (length l).
+Proof.
+  revert sid. induction l as [|[a q] l IH]; intros sid; [intros []|].
+  cbn [number_pouts In length]. intros [<-|H]; [cbn [po_sid]; lia|]. specialize (IH _ H). lia.
+Qed.
+Lemma number_pouts_nodup p sid l : NoDup (map po_sid (number_pouts p sid l)).
+Proof.
+  revert sid. induction l as [|[a q] l IH]; intros sid; [constructor|].
+  cbn [number_pouts map po_sid]. constructor; [|apply IH].
+  intros H. apply in_map_iff in H. destruct H as [po [E Hpo]]. apply number_pouts_sids in Hpo. lia.
+Qed.
+Lemma o_opens_map_open p l : o_opens (map (fun po => OOpen (po_sid po) p) l) = map (fun po => (po_sid po, p)) l.
+Proof. unfold o_opens. induction l as [|a l IH]; [reflexivity|]. cbn. rewrite <- IH. reflexivity. Qed.
+Lemma o_quiet_map_fail {A} (g : A -> N) code l :
+  o_dials (map (fun a => OFail (g a) code) l) = [] /\ o_opens (map (fun a => OFail (g a) code) l) = [] /\
+  o_binds (map (fun a => OFail (g a) code) l) = [].
+Proof. apply (ncl_nocall _ (ncl_map_fail g code l)). Qed.
+
+(* DialFailure *)
+Lemma GI_dialfail cf s en g tr p :
+  GI cf s en g ->
+  let r := step cf (s, en) (EDialFail p) in
+  Inv (fst (fst (fst r))) (tr ++ snd (fst r)) ->
+  GI cf (fst (fst (fst r))) (snd (fst (fst r))) (gstep cf (EDialFail p) (snd (fst r)) (snd r) g).
+Proof.
+  intros [G1 G2 G3 G4 G5 G6 G7 G8 G9 G10] r I'. subst r. cbn [step] in *. unfold h_dialfail in *. cbn [fst snd] in *.
+  destruct (o_quiet_map_fail (fun d : N * req => q_rid (snd d)) E_DIAL_FAILED
+              (filter (fun d : N * req => fst d =? p) (dials s))) as (N1 & N2 & N3).
+  unfold gstep. rewrite N1, N2, N3. cbn [map]. rewrite !app_nil_r.
+  constructor; cbn [g_now g_conn g_dials g_opens g_live]; simp_sets;
+    [exact G1|exact G2|exact G3| |exact G5|exact G6|exact G7| |exact G9|].
+  - intros d H. apply filter_In in H. destruct H as [H Hp]. apply filter_In. split; [exact (G4 d H)|].
+    cbn [memN existsb]. rewrite orb_false_r. exact Hp.
+  - rewrite <- (app_nil_r (g_live g)).
+    match type of I' with Inv ?s1 _ => apply (fut_clause_keep s s1 g _ tr []) end;
+      [exact I'|apply FutsKeep_same; reflexivity|intros x Hx; left; exact Hx|exact G8].
+  - intros x Hx. apply filter_In in Hx. exact (G10 x (proj1 Hx)).
+Qed.
+
+Lemma conn_of_filter p q en en' :
+  conns en' = filter (fun x => negb (fst x =? p)) (conns en) ->
+  (conn_of q en' = None <-> conn_of q en = None \/ q = p).
+Proof.
+  intros E. rewrite !conn_of_none. rewrite E. split.
+  - intros H. destruct (N.eq_dec q p) as [->|Hne]; [right; reflexivity|left].
+    intros x Hx Ex. apply (H x); [|exact Ex]. apply filter_In. split; [exact Hx|].
+    rewrite Ex. apply negb_true_iff. apply N.eqb_neq. exact Hne.
+  - intros [H| ->] x Hx Ex; apply filter_In in Hx; destruct Hx as [Hx Hf].
+    + exact (H x Hx Ex).
+    + rewrite Ex, N.eqb_refl in Hf. discriminate.
+Qed.
+
+Lemma NoDup_map_filter {A} (f : A -> N) (g : A -> bool) l : NoDup (map f l) -> NoDup (map f (filter g l)).
+Proof.
+  induction l as [|a l IH]; [auto|]. cbn [map filter]. intros N. inversion N as [|? ? Hn N']; subst.
+  destruct (g a); [|auto]. cbn [map]. constructor; [|auto].
+  intros H. apply Hn. apply in_map_iff in H. destruct H as [x [E Hx]]. apply filter_In in Hx.
+  apply in_map_iff. exists x. tauto.
+Qed.
+
+(* ConnectionClosed of a connected peer *)
+Lemma GI_closed cf s en g tr p b :
+  GI cf s en g -> conn_of p en = Some b ->
+  let r := step cf (s, en) (EClosed p) in
+  Inv (fst (fst (fst r))) (tr ++ snd (fst r)) ->
+  GI cf (fst (fst (fst r))) (snd (fst (fst r))) (gstep cf (EClosed p) (snd (fst r)) (snd r) g).
+Proof.
+  intros [G1 G2 G3 G4 G5 G6 G7 G8 G9 G10] Cp r I'. subst r. cbn [step] in *. rewrite Cp in *.
+  pose proof (closed_ncl s p) as NC. apply ncl_nocall in NC. destruct NC as (N1 & N2 & N3).
+  pose proof (closed_futs s p) as F.
+  assert (Hg : memN p (g_conn g) = true) by (apply memN_in; apply G2; rewrite Cp; discriminate).
+  assert (Sh : fst (h_closed s p) =
+               if memN p (peers s)
+               then set_inb (set_active (set_peers (set_pouts s (filter (fun po => negb (po_peer po =? p)) (pouts s)))
+                                                   (filter (fun x => negb (x =? p)) (peers s)))
+                                        (filter (fun a => negb (fst a =? p)) (active s)))
+                            (filter (fun a => negb (fst a =? p)) (inb s))
+               else set_pouts s (filter (fun po => negb (po_peer po =? p)) (pouts s))).
+  { unfold h_closed. simp_sets. destruct (memN p (peers s)); reflexivity. }
+  assert (A : forall x, In x (active (fst (h_closed s p))) -> In x (active s)).
+  { rewrite Sh. destruct (memN p (peers s)); simp_sets; [intros x H; apply filter_In in H; tauto|auto]. }
+  assert (PF : pouts (fst (h_closed s p)) = filter (fun po => negb (po_peer po =? p)) (pouts s)).
+  { rewrite Sh. destruct (memN p (peers s)); reflexivity. }
+  assert (Po : forall po, In po (pouts (fst (h_closed s p))) -> In po (pouts s) /\ po_peer po <> p).
+  { rewrite PF. intros po H. apply filter_In in H. destruct H as [H Hp]. split; [exact H|].
+    apply negb_true_iff in Hp. apply N.eqb_neq in Hp. exact Hp. }
+  assert (Pe : forall q, In q (peers (fst (h_closed s p))) -> In q (peers s) /\ q <> p).
+  { rewrite Sh. intros q. destruct (memN p (peers s)) eqn:M; simp_sets; intros H.
+    - apply filter_In in H. destruct H as [H Hp]. split; [exact H|]. apply negb_true_iff in Hp. apply N.eqb_neq in Hp. exact Hp.
+    - split; [exact H|]. intros ->. apply memN_in in H. congruence. }
+  assert (D : dials (fst (h_closed s p)) = dials s) by (rewrite Sh; destruct (memN p (peers s)); reflexivity).
+  destruct (h_closed s p) as [s1 o]. cbn [fst snd] in *.
+  unfold gstep. rewrite Hg, N1, N2, N3. cbn [map memN existsb negb]. rewrite !app_nil_r.
+  rewrite (filter_all (fun _ => true)) by reflexivity.
+  assert (HC : forall q, conn_of q (mkE (aux_of en) (next_sid en) (filter (fun x => negb (fst x =? p)) (conns en))
+                            (filter (fun x => negb (snd x =? p)) (opens en)) (chans en) (now en) (hpend en)) = None
+                         <-> conn_of q en = None \/ q = p) by (intros q; apply (conn_of_filter p q); reflexivity).
+  constructor; cbn [g_now g_conn g_dials g_opens g_live now next_sid].
+  - exact G1.
+  - intros q. rewrite filter_In, G2, (HC q). rewrite negb_true_iff, N.eqb_neq.
+    destruct (conn_of q en); split; try tauto; intros H; try (split; [discriminate|]); intuition congruence.
+  - intros q Hq. destruct (Pe q Hq) as [Hq0 Hne]. rewrite (HC q). intros [H|H]; [exact (G3 q Hq0 H)|exact (Hne H)].
+  - rewrite D. exact G4.
+  - intros po H. destruct (Po po H) as [H0 Hne]. apply filter_In. split; [exact (G5 po H0)|].
+    cbn [snd]. apply negb_true_iff. apply N.eqb_neq. exact Hne.
+  - intros po H. exact (G6 po (proj1 (Po po H))).
+  - rewrite PF. apply NoDup_map_filter. exact G7.
+  - rewrite <- (app_nil_r (g_live g)).
+    apply (fut_clause_keep s s1 g o tr []); [exact I'|apply FutsKeep_same; exact F|intros x Hx; left; exact (A x Hx)|exact G8].
+  - intros f Hf. rewrite F in Hf. exact (G9 f Hf).
+  - intros x Hx. apply filter_In in Hx. exact (G10 x (proj1 Hx)).
+Qed.
+
+(* after the entry found under a substream id was dropped, no entry with that id is left *)
+Lemma drop_po_no_sid s sid po po' :
+  NoDup (map po_sid (pouts s)) -> find_po sid (pouts s) = Some po ->
+  In po' (drop_po po (pouts s)) -> In po' (pouts s) /\ po_sid po' <> sid.
+Proof.
+  intros N F H. apply find_some in F. destruct F as [Hin E]. apply N.eqb_eq in E.
+  unfold drop_po in H. apply filter_In in H. destruct H as [H Hr]. split; [exact H|].
+  intros E'. assert (po' = po) by (apply (NoDup_map_inj po_sid (pouts s)); auto; congruence).
+  subst po'. rewrite N.eqb_refl in Hr. discriminate.
+Qed.
+Lemma find_po_none sid l po : find_po sid l = None -> In po l -> po_sid po <> sid.
+Proof. intros F H E. pose proof (find_none _ _ F po H) as X. cbn in X. rewrite E, N.eqb_refl in X. discriminate. Qed.
+
+Lemma gstep_answer_open cf e o sid g :
+  (exists k u, e = EOpenFail k u) \/ (exists k a b, e = EOpened k a b) ->
+  gstep cf e o (Some sid) g =
+  mkG (g_now g) (g_conn g) (g_dials g ++ o_dials o)
+      (filter (fun x => negb (fst x =? sid)) (g_opens g) ++ o_opens o)
+      (filter (fun x => negb (memN (snd (fst x)) (o_terms o)))
+              (g_live g ++ map (fun b => (fst b, snd b, g_now g + tmo cf)) (o_binds o))).
+Proof.
+  intros [[k [u ->]]|[k [a [b ->]]]]; unfold gstep; cbn [memN existsb negb];
+    rewrite (filter_all (fun _ => true)) by reflexivity; reflexivity.
+Qed.
+
+(* SubstreamOpenFailure *)
+Lemma GI_openfail cf s en g tr k u sid q :
+  GI cf s en g -> nth_mod k (opens en) = Some (sid, q) ->
+  let r := step cf (s, en) (EOpenFail k u) in
+  Inv (fst (fst (fst r))) (tr ++ snd (fst r)) ->
+  GI cf (fst (fst (fst r))) (snd (fst (fst r))) (gstep cf (EOpenFail k u) (snd (fst r)) (snd r) g).
+Proof.
+  intros [G1 G2 G3 G4 G5 G6 G7 G8 G9 G10] Nm r I'. subst r. cbn [step] in *. rewrite Nm in *.
+  pose proof (openfail_ncl s sid u) as NC. apply ncl_nocall in NC. destruct NC as (N1 & N2 & N3).
+  pose proof (openfail_futs s sid u) as F. pose proof (openfail_peers s sid u) as Pe.
+  assert (D : dials (fst (h_openfail s sid u)) = dials s) by (unfold h_openfail; destruct (find_po sid (pouts s)); reflexivity).
+  assert (A : forall x, In x (active (fst (h_openfail s sid u))) -> In x (active s)).
+  { unfold h_openfail. destruct (find_po sid (pouts s)); cbn [fst]; simp_sets; [intros x H; apply in_removeP in H; tauto|auto]. }
+  assert (Po : forall po, In po (pouts (fst (h_openfail s sid u))) -> In po (pouts s) /\ po_sid po <> sid).
+  { unfold h_openfail. destruct (find_po sid (pouts s)) as [po0|] eqn:Fp; cbn [fst]; simp_sets; intros po H.
+    - exact (drop_po_no_sid s sid po0 po G7 Fp H).
+    - split; [exact H|exact (find_po_none _ _ _ Fp H)]. }
+  assert (PS : exists l, pouts (fst (h_openfail s sid u)) = filter l (pouts s)).
+  { unfold h_openfail. destruct (find_po sid (pouts s)); cbn [fst]; simp_sets;
+      [eexists; reflexivity|exists (fun _ => true); symmetry; apply filter_all; reflexivity]. }
+  destruct (h_openfail s sid u) as [s1 o]. cbn [fst snd] in *.
+  rewrite gstep_answer_open by (left; eauto). rewrite N1, N2, N3. cbn [map]. rewrite !app_nil_r.
+  constructor; cbn [g_now g_conn g_dials g_opens g_live now next_sid conns].
+  - exact G1.
+  - intros p. rewrite G2. unfold conn_of. cbn [conns]. tauto.
+  - intros p Hp. rewrite Pe in Hp. specialize (G3 p Hp). unfold conn_of in *. cbn [conns]. exact G3.
+  - rewrite D. exact G4.
+  - intros po H. destruct (Po po H) as [H0 Hne]. apply filter_In. split; [exact (G5 po H0)|].
+    cbn [fst]. apply negb_true_iff. apply N.eqb_neq. exact Hne.
+  - intros po H. exact (G6 po (proj1 (Po po H))).
+  - destruct PS as [l ->]. apply NoDup_map_filter. exact G7.
+  - rewrite <- (app_nil_r (g_live g)).
+    apply (fut_clause_keep s s1 g o tr []); [exact I'|apply FutsKeep_same; exact F|intros x Hx; left; exact (A x Hx)|exact G8].
+  - intros f Hf. rewrite F in Hf. exact (G9 f Hf).
+  - intros x Hx. apply filter_In in Hx. exact (G10 x (proj1 Hx)).
+Qed.
+
+Lemma opened_body_futs_dl cf0 s po c gate now neg g :
+  In g (futs (fst (opened_body cf0 s po c gate now neg))) ->
+  In g (futs s) \/ (f_chan g = c /\ rid_f g = rid_po po /\ f_peer g = po_peer po /\ f_dl g = now + tmo cf0).
+Proof.
+  unfold opened_body. cbn [q_rid q_len q_tag q_fb].
+  assert (Hs : forall res, In g (futs (fst (settle (set_pouts s (drop_po po (pouts s))) (po_peer po) (q_rid (po_req po)) res))) -> In g (futs s)).
+  { intros res. unfold settle. destruct (_ && _); cbn [fst]; simp_sets; auto. }
+  destruct (max_size cf0 <? _); [intros H0; left; exact (Hs _ H0)|].
+  destruct gate as [|[x|x|]]; try (intros H0; left; exact (Hs _ H0)); cbn [fst]; simp_sets; intros H0;
+    apply in_app_or in H0; destruct H0 as [H0|[<-|[]]]; auto; right; repeat split.
+Qed.
+Lemma opened_body_active cf0 s po c gate now neg x :
+  In x (active (fst (opened_body cf0 s po c gate now neg))) -> In x (active s).
+Proof.
+  unfold opened_body. cbn [q_rid q_len q_tag q_fb].
+  assert (Hs : forall res, In x (active (fst (settle (set_pouts s (drop_po po (pouts s))) (po_peer po) (q_rid (po_req po)) res))) -> In x (active s))
+    by (intros res; apply (settle_active (set_pouts s (drop_po po (pouts s))))).
+  destruct (max_size cf0 <? _); [apply Hs|]. destruct gate as [|[y|y|]]; try apply Hs; auto.
+Qed.
+
+(* SubstreamOpened (outbound) *)
+Lemma GI_opened cf s en g tr k gate neg sid q :
+  0 < tmo cf -> GI cf s en g -> nth_mod k (opens en) = Some (sid, q) ->
+  let r := step cf (s, en) (EOpened k gate neg) in
+  Inv (fst (fst (fst r))) (tr ++ snd (fst r)) ->
+  GI cf (fst (fst (fst r))) (snd (fst (fst r))) (gstep cf (EOpened k gate neg) (snd (fst r)) (snd r) g).
+Proof.
+  intros T [G1 G2 G3 G4 G5 G6 G7 G8 G9 G10] Nm r I'. subst r. cbn [step] in *. rewrite Nm in *.
+  unfold h_opened in *. destruct (find_po sid (pouts s)) as [po0|] eqn:Fp.
+  - set (c := N.of_nat (length (chans en))) in *.
+    pose proof (opened_body_ncl cf s po0 c (N.min gate 2) (now en) neg) as NC. apply ncl_nocall in NC. destruct NC as (N1 & N2 & N3).
+    pose proof (opened_body_dp cf s po0 c (N.min gate 2) (now en) neg) as (D & P & _).
+    pose proof (opened_body_peers cf s po0 c (N.min gate 2) (now en) neg) as Pe.
+    pose proof (opened_body_futs_dl cf s po0 c (N.min gate 2) (now en) neg) as F.
+    pose proof (opened_body_active cf s po0 c (N.min gate 2) (now en) neg) as A.
+    destruct (opened_body cf s po0 c (N.min gate 2) (now en) neg) as [s1 o]. cbn [fst snd] in *.
+    rewrite gstep_answer_open by (right; eauto).
+    change (o_dials (OBind c (q_rid (po_req po0)) :: o)) with (o_dials o).
+    change (o_opens (OBind c (q_rid (po_req po0)) :: o)) with (o_opens o).
+    change (o_binds (OBind c (q_rid (po_req po0)) :: o)) with ((c, q_rid (po_req po0)) :: o_binds o).
+    change (o_terms (OBind c (q_rid (po_req po0)) :: o)) with (o_terms o).
+    rewrite N1, N2, N3. cbn [map fst snd]. rewrite !app_nil_r.
+    constructor; cbn [g_now g_conn g_dials g_opens g_live now next_sid conns].
+    + exact G1.
+    + intros p. rewrite G2. unfold conn_of. cbn [conns]. tauto.
+    + intros p Hp. rewrite Pe in Hp. specialize (G3 p Hp). unfold conn_of in *. cbn [conns]. exact G3.
+    + rewrite D. exact G4.
+    + rewrite P. intros po H. destruct (drop_po_no_sid s sid po0 po G7 Fp H) as [H0 Hne].
+      apply filter_In. split; [exact (G5 po H0)|]. cbn [fst]. apply negb_true_iff. apply N.eqb_neq. exact Hne.
+    + rewrite P. intros po H. exact (G6 po (proj1 (drop_po_no_sid s sid po0 po G7 Fp H))).
+    + rewrite P. apply NoDup_map_filter. exact G7.
+    + intros f' Hf Ha. destruct (F f' Hf) as [Hold|(E1 & E2 & E3 & E4)].
+      * (* a future that was there before *)
+        destruct (G8 f' Hold (A _ Ha)) as [dl [Hl Hd]]. exists dl. split; [|exact Hd].
+        apply keep_live; [exact Hl|]. cbn [fst snd].
+        destruct (memN (rid_f f') (o_terms o)) eqn:M; [|reflexivity]. apply memN_in in M.
+        exfalso. apply (active_not_term _ _ (OBind c (q_rid (po_req po0)) :: o) _ _ I' Ha). exact M.
+      * (* the new one: its ledger entry is the binding made in this step *)
+        exists (g_now g + tmo cf). split; [|rewrite E4, G1; lia].
+        apply filter_In. split.
+        -- apply in_or_app. right. left. rewrite E1, E2. reflexivity.
+        -- cbn [fst snd]. destruct (memN (rid_f f') (o_terms o)) eqn:M; [|reflexivity]. apply memN_in in M.
+           exfalso. apply (active_not_term _ _ (OBind c (q_rid (po_req po0)) :: o) _ _ I' Ha). exact M.
+    + intros f' Hf. destruct (F f' Hf) as [Hold|(_ & _ & _ & E4)]; [exact (G9 f' Hold)|rewrite E4; lia].
+    + intros x Hx. apply filter_In in Hx. destruct Hx as [Hx _]. apply in_app_or in Hx.
+      destruct Hx as [Hx|[<-|[]]]; [exact (G10 x Hx)|cbn [snd]; lia].
+  - (* no pending_outbound entry under that id: nothing happens *)
+    cbn [fst snd] in *. rewrite gstep_answer_open by (right; eauto). cbn [o_dials o_opens o_binds o_terms flat_map map memN existsb negb].
+    rewrite !app_nil_r. rewrite (filter_all (fun _ => true)) by reflexivity.
+    constructor; cbn [g_now g_conn g_dials g_opens g_live now next_sid conns];
+      [exact G1| | |exact G4| |exact G6|exact G7|exact G8|exact G9|exact G10].
+    + intros p. rewrite G2. unfold conn_of. cbn [conns]. tauto.
+    + intros p Hp. specialize (G3 p Hp). unfold conn_of in *. cbn [conns]. exact G3.
+    + intros po H. apply filter_In. split; [exact (G5 po H)|]. cbn [fst]. apply negb_true_iff. apply N.eqb_neq.
+      exact (find_po_none _ _ _ Fp H).
+Qed.
+
+Lemma o_wired_app c a b : o_wired c (a ++ b) = o_wired c a || o_wired c b.
+Proof. unfold o_wired. apply existsb_app. Qed.
+
+Lemma unblock_futs_dl cf0 s c now g :
+  In g (futs (fst (fut_unblock cf0 s c now))) ->
+  exists f, In f (futs s) /\ f_chan f = f_chan g /\ rid_f f = rid_f g /\ f_peer f = f_peer g /\
+            (f_dl g = f_dl f \/
+             (f_chan g = c /\ f_dl g = now + tmo cf0 /\ o_wired c (snd (fut_unblock cf0 s c now)) = true)).
+Proof.
+  unfold fut_unblock. destruct (find_fut c (futs s)) as [f|]; [|cbn [fst]; intros H; exists g; auto 6].
+  destruct (f_wait f); [cbn [fst]; intros H; exists g; auto 6|]. destruct (f_cancel f).
+  - pose proof (complete_futs_sub s f (RErr E_CANCELED) g) as S. destruct (complete s f _) as [s1 o].
+    cbn [fst] in *. intros H. exists g. auto 6.
+  - cbn [fst snd]. simp_sets. intros H. unfold to_wait in H. apply in_map_iff in H. destruct H as [f0 [<- H0]].
+    exists f0. destruct (f_chan f0 =? c) eqn:E; cbn [f_chan f_req f_peer f_dl rid_f]; repeat split; auto.
+    right. apply N.eqb_eq in E. repeat split; auto. unfold o_wired. cbn [existsb]. rewrite N.eqb_refl. reflexivity.
+Qed.
+
+Lemma unblock_active cf0 s c now x : In x (active (fst (fut_unblock cf0 s c now))) -> In x (active s).
+Proof.
+  unfold fut_unblock. destruct (find_fut c (futs s)) as [f|]; [|auto].
+  destruct (f_wait f); [auto|]. destruct (f_cancel f); [|auto].
+  pose proof (complete_active s f (RErr E_CANCELED) x) as H. destruct (complete s f _) as [s1 o]. exact H.
+Qed.
+
+Lemma gstep_unblock cf k o c g :
+  gstep cf (EUnblock k) o (Some c) g =
+  mkG (g_now g) (g_conn g) (g_dials g ++ o_dials o) (g_opens g ++ o_opens o)
+      (filter (fun x => negb (memN (snd (fst x)) (o_terms o)))
+              ((if o_wired c o
+                then map (fun x => if fst (fst x) =? c then (c, snd (fst x), g_now g + tmo cf) else x) (g_live g)
+                else g_live g) ++ map (fun b => (fst b, snd b, g_now g + tmo cf)) (o_binds o))).
+Proof. unfold gstep. cbn [memN existsb negb]. rewrite (filter_all (fun _ => true)) by reflexivity. reflexivity. Qed.
+
+(* the carrier starts accepting bytes *)
+Lemma GI_unblock cf s en g tr k ch0 chs ch :
+  0 < tmo cf -> GI cf s en g -> chans en = ch0 :: chs ->
+  nth_error (ch0 :: chs) (N.to_nat (k mod N.of_nat (length (ch0 :: chs)))) = Some ch -> c_gate ch =? 0 = true ->
+  let r := step cf (s, en) (EUnblock k) in
+  Inv (fst (fst (fst r))) (tr ++ snd (fst r)) ->
+  GI cf (fst (fst (fst r))) (snd (fst (fst r))) (gstep cf (EUnblock k) (snd (fst r)) (snd r) g).
+Proof.
+  intros T [G1 G2 G3 G4 G5 G6 G7 G8 G9 G10] CH NE GT r I'. subst r. cbn [step] in *. rewrite CH, NE, GT in *.
+  set (c := k mod N.of_nat (length (ch0 :: chs))) in *.
+  pose proof (unblock_ncl cf s c (now en)) as NC1. pose proof (unblock_Keep3 cf s c (now en)) as (D1 & P1 & _).
+  pose proof (unblock_peers cf s c (now en)) as Pe1. pose proof (unblock_futs_dl cf s c (now en)) as F1.
+  pose proof (unblock_active cf s c (now en)) as A1.
+  destruct (fut_unblock cf s c (now en)) as [s1 o1]. cbn [fst snd] in *.
+  pose proof (rsp_gate_ncl s1 c true) as NC2. pose proof (rsp_gate_same s1 c true) as [(D2 & A2 & P2 & F2 & _ & Pe2) _].
+  destruct (rsp_gate s1 c true) as [s2 o2]. cbn [fst snd] in *.
+  pose proof (ncl_nocall _ (ncl_app _ _ NC1 NC2)) as (N1 & N2 & N3).
+  rewrite gstep_unblock. rewrite N1, N2, N3. cbn [map]. rewrite !app_nil_r.
+  constructor; cbn [g_now g_conn g_dials g_opens g_live now next_sid conns].
+  - exact G1.
+  - intros p. rewrite G2. unfold conn_of. cbn [conns]. tauto.
+  - intros p Hp. rewrite Pe2, Pe1 in Hp. specialize (G3 p Hp). unfold conn_of in *. cbn [conns]. exact G3.
+  - rewrite D2, D1. exact G4.
+  - rewrite P2, P1. exact G5.
+  - rewrite P2, P1. exact G6.
+  - rewrite P2, P1. exact G7.
+  - intros f' Hf Ha. rewrite F2 in Hf. rewrite A2 in Ha.
+    destruct (F1 f' Hf) as [f [Hf0 [E1 [E2 [E3 Hdl]]]]].
+    assert (Ha0 : In (f_peer f, rid_f f) (active s)) by (rewrite E2, E3; apply A1; exact Ha).
+    destruct (G8 f Hf0 Ha0) as [dl [Hl Hd]]. specialize (G10 _ Hl). cbn [snd] in G10.
+    assert (Hnt : negb (memN (rid_f f') (o_terms (o1 ++ o2))) = true).
+    { destruct (memN (rid_f f') (o_terms (o1 ++ o2))) eqn:M; [|reflexivity]. apply memN_in in M.
+      exfalso. assert (Ha2 : In (f_peer f', rid_f f') (active s2)) by (rewrite A2; exact Ha).
+      exact (active_not_term _ _ _ _ _ I' Ha2 M). }
+    destruct (o_wired c (o1 ++ o2)) eqn:W.
+    + (* the entries of carrier c were re-armed *)
+      exists (if f_chan f =? c then g_now g + tmo cf else dl). split.
+      * apply filter_In. split; [|cbn [fst snd]; destruct (f_chan f =? c); exact Hnt].
+        apply in_map_iff. exists (f_chan f, rid_f f, dl). split; [|exact Hl]. cbn [fst snd].
+        destruct (N.eqb_spec (f_chan f) c) as [Ec|Ec]; rewrite <- E1, <- E2; [rewrite Ec|]; reflexivity.
+      * destruct Hdl as [Hdl|(Ec & Hdl & _)].
+        -- rewrite Hdl. destruct (f_chan f =? c); lia.
+        -- rewrite Hdl, E1, Ec, N.eqb_refl, G1. lia.
+    + exists dl. split; [apply filter_In; split; [rewrite <- E1, <- E2; exact Hl|exact Hnt]|].
+      destruct Hdl as [Hdl|(_ & _ & W1)]; [rewrite Hdl; exact Hd|].
+      rewrite o_wired_app, W1 in W. discriminate.
+  - intros f' Hf. rewrite F2 in Hf. destruct (F1 f' Hf) as [f [Hf0 [_ [_ [_ Hdl]]]]].
+    destruct Hdl as [Hdl|(_ & Hdl & _)]; [rewrite Hdl; exact (G9 f Hf0)|rewrite Hdl; lia].
+  - intros x Hx. apply filter_In in Hx. destruct Hx as [Hx _].
+    destruct (o_wired c (o1 ++ o2)); [|exact (G10 x Hx)].
+    apply in_map_iff in Hx. destruct Hx as [y [<- Hy]]. specialize (G10 y Hy).
+    destruct (fst (fst y) =? c); cbn [snd]; [lia|exact G10].
+Qed.
+
+Lemma complete_drops s f res g : In g (futs (fst (complete s f res))) -> rid_f g <> rid_f f.
+Proof.
+  unfold complete, settle. destruct (_ && _); cbn [fst]; simp_sets; intros H; unfold drop_fut in H;
+    apply filter_In in H; destruct H as [_ H]; apply negb_true_iff in H; apply N.eqb_neq in H; exact H.
+Qed.
+Lemma complete_all_drops l : forall s res f g,
+  In f l -> In g (futs (fst (complete_all s l res))) -> rid_f g <> rid_f f.
+Proof.
+  induction l as [|a l IH]; intros s res f g Hf; [destruct Hf|]. cbn [complete_all fst].
+  pose proof (complete_drops s a res) as A. pose proof (complete_futs_sub s a res) as S.
+  destruct (complete s a res) as [s1 o1]. cbn [fst] in *.
+  pose proof (IH s1 res) as B. pose proof (complete_all_futs_sub l s1 res) as S2.
+  destruct (complete_all s1 l res) as [s2 o2]. cbn [fst] in *.
+  intros Hg. destruct Hf as [<-|Hf]; [apply A; apply S2; exact Hg|exact (B f g Hf Hg)].
+Qed.
+Lemma advance_remaining s t g : In g (futs (fst (fut_advance s t))) -> t < f_dl g.
+Proof.
+  unfold fut_advance. intros H. destruct (N.lt_ge_cases t (f_dl g)) as [L|L]; [exact L|exfalso].
+  pose proof (complete_all_futs_sub _ _ _ _ H) as H0.
+  apply (complete_all_drops (filter (fun f => f_dl f <=? t) (futs s)) s (RErr E_TIMEOUT) g g); [|exact H|reflexivity].
+  apply filter_In. split; [exact H0|]. apply N.leb_le. exact L.
+Qed.
+
+Lemma gstep_advance cf dt o tg g :
+  gstep cf (EAdvance dt) o tg g =
+  mkG (g_now g + dt) (g_conn g) (g_dials g ++ o_dials o) (g_opens g ++ o_opens o)
+      (filter (fun x => negb (memN (snd (fst x)) (o_terms o)))
+              (g_live g ++ map (fun b => (fst b, snd b, g_now g + tmo cf)) (o_binds o))).
+Proof. unfold gstep. cbn [memN existsb negb]. rewrite (filter_all (fun _ => true)) by reflexivity. reflexivity. Qed.
+
+(* the clock advances *)
+Lemma GI_advance cf s en g tr dt :
+  GI cf s en g ->
+  let r := step cf (s, en) (EAdvance dt) in
+  Inv (fst (fst (fst r))) (tr ++ snd (fst r)) ->
+  GI cf (fst (fst (fst r))) (snd (fst (fst r))) (gstep cf (EAdvance dt) (snd (fst r)) (snd r) g).
+Proof.
+  intros [G1 G2 G3 G4 G5 G6 G7 G8 G9 G10] r I'. subst r. cbn [step] in *.
+  pose proof (advance_ncl s (now en + dt)) as NC1. pose proof (complete_all_Keep3 (filter (fun f => f_dl f <=? now en + dt) (futs s)) s (RErr E_TIMEOUT)) as (D1 & P1 & _).
+  pose proof (advance_peers s (now en + dt)) as Pe1. pose proof (advance_remaining s (now en + dt)) as R1.
+  pose proof (complete_all_futs_sub (filter (fun f => f_dl f <=? now en + dt) (futs s)) s (RErr E_TIMEOUT)) as S1.
+  pose proof (complete_all_active (filter (fun f => f_dl f <=? now en + dt) (futs s)) s (RErr E_TIMEOUT)) as A1.
+  unfold fut_advance in *. destruct (complete_all s _ (RErr E_TIMEOUT)) as [s1 o1]. cbn [fst snd] in *.
+  pose proof (ncl_nocall _ (ncl_app _ _ NC1 (adv_out_ncl s1 (now en + dt)))) as (N1 & N2 & N3).
+  rewrite gstep_advance. rewrite N1, N2, N3. cbn [map]. rewrite !app_nil_r.
+  constructor; cbn [g_now g_conn g_dials g_opens g_live now next_sid conns]; unfold rsp_advance; simp_sets.
+  - rewrite G1. reflexivity.
+  - intros p. rewrite G2. unfold conn_of. cbn [conns]. tauto.
+  - intros p Hp. rewrite Pe1 in Hp. specialize (G3 p Hp). unfold conn_of in *. cbn [conns]. exact G3.
+  - rewrite D1. exact G4.
+  - rewrite P1. exact G5.
+  - rewrite P1. exact G6.
+  - rewrite P1. exact G7.
+  - rewrite <- (app_nil_r (g_live g)).
+    match type of I' with Inv ?sx _ => apply (fut_clause_keep s sx g _ tr []) end;
+      [exact I'|apply FutsKeep_sub; exact S1|intros x Hx; left; exact (A1 _ Hx)|exact G8].
+  - intros f Hf. exact (R1 f Hf).
+  - intros x Hx. apply filter_In in Hx. specialize (G10 x (proj1 Hx)). lia.
+Qed.
+
+Lemma o_dials_app a b : o_dials (a ++ b) = o_dials a ++ o_dials b.
+Proof. apply flat_map_app. Qed.
+Lemma o_opens_app a b : o_opens (a ++ b) = o_opens a ++ o_opens b.
+Proof. apply flat_map_app. Qed.
+Lemma o_binds_app a b : o_binds (a ++ b) = o_binds a ++ o_binds b.
+Proof. apply flat_map_app. Qed.
+Lemma o_dials_map_open p l : o_dials (map (fun po => OOpen (po_sid po) p) l) = [].
+Proof. induction l; [reflexivity|exact IHl]. Qed.
+Lemma o_binds_map_open p l : o_binds (map (fun po => OOpen (po_sid po) p) l) = [].
+Proof. induction l; [reflexivity|exact IHl]. Qed.
+
+Lemma conn_of_snoc p b q en en' :
+  conns en' = conns en ++ [(p, b)] ->
+  (conn_of q en' = None <-> conn_of q en = None /\ q <> p).
+Proof.
+  intros E. rewrite !conn_of_none. rewrite E. split.
+  - intros H. split.
+    + intros x Hx. apply H. apply in_or_app. left. exact Hx.
+    + intros ->. apply (H (p, b)); [apply in_or_app; right; left; reflexivity|reflexivity].
+  - intros [H Hne] x Hx. apply in_app_or in Hx. destruct Hx as [Hx|[<-|[]]]; [exact (H x Hx)|].
+    cbn [fst]. intros Ep. apply Hne. symmetry. exact Ep.
+Qed.
+
+Lemma gstep_established cf p b cap o tg g :
+  memN p (g_conn g) = false ->
+  gstep cf (EEstablished p b cap) o tg g =
+  mkG (g_now g) (g_conn g ++ [p]) (filter (fun x => negb (x =? p)) (g_dials g) ++ o_dials o) (g_opens g ++ o_opens o)
+      (filter (fun x => negb (memN (snd (fst x)) (o_terms o)))
+              (g_live g ++ map (fun b => (fst b, snd b, g_now g + tmo cf)) (o_binds o))).
+Proof.
+  intros H. unfold gstep. rewrite H. cbn [memN existsb].
+  f_equal. f_equal. apply filter_ext. intros x. rewrite orb_false_r. reflexivity.
+Qed.
+
+(* ConnectionEstablished for a peer that was not connected *)
+Lemma GI_established cf s en g tr p broken cap :
+  GI cf s en g -> Inv s tr -> conn_of p en = None ->
+  let r := step cf (s, en) (EEstablished p broken cap) in
+  Inv (fst (fst (fst r))) (tr ++ snd (fst r)) ->
+  GI cf (fst (fst (fst r))) (snd (fst (fst r))) (gstep cf (EEstablished p broken cap) (snd (fst r)) (snd r) g).
+Proof.
+  intros [G1 G2 G3 G4 G5 G6 G7 G8 G9 G10] I Cp r I'. subst r. cbn [step] in *. rewrite Cp in *.
+  assert (Hp : memN p (peers s) = false).
+  { destruct (memN p (peers s)) eqn:M; [|reflexivity]. apply memN_in in M. destruct (G3 p M Cp). }
+  assert (Hg : memN p (g_conn g) = false).
+  { destruct (memN p (g_conn g)) eqn:M; [|reflexivity]. apply memN_in in M. apply G2 in M. destruct (M Cp). }
+  rewrite Hp in *. unfold h_established in *. rewrite Hp in *. simp_sets.
+  set (nok := est_nok broken cap (length (filter (fun d : N * req => fst d =? p) (dials s)))) in *.
+  rewrite (gstep_established _ _ _ _ _ _ _ Hg).
+  assert (HC : forall en1 q, conns en1 = conns en ++ [(p, negb broken)] ->
+                             (conn_of q en1 = None <-> conn_of q en = None /\ q <> p))
+    by (intros en1 q E; apply (conn_of_snoc p (negb broken) q en en1 E)).
+  assert (Gconn : forall en1, conns en1 = conns en ++ [(p, negb broken)] ->
+                              forall q, In q (g_conn g ++ [p]) <-> conn_of q en1 <> None).
+  { intros en1 E q. rewrite (HC en1 q E). split.
+    - intros H [H1 H2]. apply in_app_or in H. destruct H as [H|[<-|[]]]; [apply (proj1 (G2 q) H H1)|exact (H2 eq_refl)].
+    - intros H. apply in_or_app. destruct (N.eq_dec q p) as [->|Hne]; [right; left; reflexivity|left].
+      apply G2. intros H1. apply H. split; assumption. }
+  assert (Gdial : forall d, In d (filter (fun d : N * req => negb (fst d =? p)) (dials s)) ->
+                            In (fst d) (filter (fun x => negb (x =? p)) (g_dials g))).
+  { intros d H. apply filter_In in H. destruct H as [H Hd]. apply filter_In. split; [exact (G4 d H)|exact Hd]. }
+  assert (Gfut : forall s1 o1 E act', futs s1 = futs s -> active s1 = act' -> Inv s1 (tr ++ o1) ->
+            (forall x, In x act' -> In x (active s) \/ (1 <= cd (snd x) s)%nat) ->
+            forall f', In f' (futs s1) -> In (f_peer f', rid_f f') (active s1) ->
+            exists dl, In (f_chan f', rid_f f', dl)
+                          (filter (fun y => negb (memN (snd (fst y)) (o_terms o1))) (g_live g ++ E)) /\ f_dl f' <= dl).
+  { intros s1 o1 E act' F A Is Hact. apply (fut_clause_keep s s1 g o1 tr E Is); [apply FutsKeep_same; exact F| |exact G8].
+    intros x Hx. rewrite A in Hx. destruct (Hact x Hx) as [H|H]; [left; exact H|right].
+    intros f Hf Ef. destruct (fut_rid_known _ _ _ I Hf) as [_ Z]. rewrite Ef in Z. lia. }
+  destruct (filter (fun d : N * req => fst d =? p) (dials s)) as [|d0 mine] eqn:M; cbn [fst snd] in *.
+  - (* nobody waited for this peer *)
+    cbn [o_dials o_opens o_binds o_terms flat_map map]. rewrite !app_nil_r.
+    constructor; cbn [g_now g_conn g_dials g_opens g_live now next_sid conns]; simp_sets.
+    + exact G1.
+    + apply Gconn. reflexivity.
+    + intros q Hq. apply in_app_or in Hq. match goal with |- context [conn_of q ?e1] => rewrite (HC e1 q eq_refl) end.
+      intros [H1 H2]. destruct Hq as [Hq|[<-|[]]]; [exact (G3 q Hq H1)|exact (H2 eq_refl)].
+    + exact Gdial.
+    + exact G5.
+    + intros po H. specialize (G6 po H). lia.
+    + exact G7.
+    + rewrite <- (app_nil_r (g_live g)). cbn [memN existsb negb]. 
+      match type of I' with Inv ?sx _ => apply (Gfut sx [] [] (active s) eq_refl eq_refl I') end. intros x Hx. left. exact Hx.
+    + exact G9.
+    + intros x Hx. apply filter_In in Hx. exact (G10 x (proj1 Hx)).
+  - change (fun d : N * req => OFail (q_rid (snd d)) E_SUBSTREAM) with (fun d : N * req => OFail (rid_d d) E_SUBSTREAM) in *.
+    destruct (o_quiet_map_fail rid_d E_SUBSTREAM (skipn nok (d0 :: mine))) as (N1 & N2 & N3).
+    assert (Hmine : forall d, In d (d0 :: mine) -> In d (dials s) /\ fst d = p).
+    { intros d Hd. rewrite <- M in Hd. apply filter_In in Hd. destruct Hd as [Hd E]. split; [exact Hd|apply N.eqb_eq; exact E]. }
+    destruct (firstn nok (d0 :: mine)) as [|x okl] eqn:Fo; cbn [fst snd] in *.
+    + (* every open_substream failed: the peer is not registered *)
+      rewrite N1, N2, N3. cbn [map]. rewrite !app_nil_r.
+      constructor; cbn [g_now g_conn g_dials g_opens g_live now next_sid conns]; simp_sets.
+      * exact G1.
+      * apply Gconn. reflexivity.
+      * intros q Hq. match goal with |- context [conn_of q ?e1] => rewrite (HC e1 q eq_refl) end. intros [H1 H2]. exact (G3 q Hq H1).
+      * exact Gdial.
+      * exact G5.
+      * intros po H. specialize (G6 po H). lia.
+      * exact G7.
+      * rewrite <- (app_nil_r (g_live g)).
+        match type of I' with Inv ?sx _ => apply (Gfut sx _ [] (active s) eq_refl eq_refl I') end. intros y Hy. left. exact Hy.
+      * exact G9.
+      * intros y Hy. apply filter_In in Hy. exact (G10 y (proj1 Hy)).
+    + (* at least one substream is being opened *)
+      assert (Hokl : forall d, In d (x :: okl) -> In d (d0 :: mine)).
+      { intros d Hd. rewrite <- Fo in Hd. rewrite <- (firstn_skipn nok (d0 :: mine)). apply in_or_app. left. exact Hd. }
+      assert (Hlen : (length (x :: okl) <= length (d0 :: mine))%nat) by (rewrite <- Fo, firstn_length; lia).
+      rewrite o_dials_app, o_opens_app, o_binds_app, N1, N2, N3, o_opens_map_open, o_dials_map_open, o_binds_map_open.
+      cbn [app map]. rewrite !app_nil_r.
+      constructor; cbn [g_now g_conn g_dials g_opens g_live now next_sid conns]; simp_sets.
+      * exact G1.
+      * apply Gconn. reflexivity.
+      * intros q Hq. apply in_app_or in Hq. match goal with |- context [conn_of q ?e1] => rewrite (HC e1 q eq_refl) end.
+        intros [H1 H2]. destruct Hq as [Hq|[<-|[]]]; [exact (G3 q Hq H1)|exact (H2 eq_refl)].
+      * exact Gdial.
+      * intros po H. apply in_app_or in H. apply in_or_app. destruct H as [H|H]; [left; exact (G5 po H)|right].
+        destruct (number_pouts_in _ _ _ _ H) as [E _]. rewrite E. apply in_map_iff. exists po. split; [reflexivity|exact H].
+      * intros po H. apply in_app_or in H. destruct H as [H|H]; [specialize (G6 po H); lia|].
+        apply number_pouts_sids in H. lia.
+      * rewrite map_app. (* old ids are below next_sid, new ones start there *)
+        assert (ND : forall l1 l2 : list N, NoDup l1 -> NoDup l2 -> (forall a, In a l1 -> In a l2 -> False) -> NoDup (l1 ++ l2)).
+        { induction l1 as [|a l1 IH]; intros l2 H1 H2 H3; [exact H2|]. inversion H1; subst. cbn. constructor.
+          - intros Hin. apply in_app_or in Hin. destruct Hin as [Hin|Hin]; [contradiction|]. apply (H3 a); [left; reflexivity|exact Hin].
+          - apply IH; auto. intros b Hb1 Hb2. apply (H3 b); [right; exact Hb1|exact Hb2]. }
+        apply ND; [exact G7|apply number_pouts_nodup|].
+        intros a H1 H2. apply in_map_iff in H1. destruct H1 as [po1 [<- Hp1]]. specialize (G6 po1 Hp1).
+        apply in_map_iff in H2. destruct H2 as [po2 [E Hp2]]. apply number_pouts_sids in Hp2. lia.
+      * rewrite <- (app_nil_r (g_live g)).
+        match type of I' with Inv ?sx _ =>
+          apply (Gfut sx _ [] (active s ++ map (fun d : N * req => (p, q_rid (snd d))) (x :: okl)) eq_refl eq_refl I') end.
+        intros y Hy. apply in_app_or in Hy. destruct Hy as [Hy|Hy]; [left; exact Hy|right].
+        apply in_map_iff in Hy. destruct Hy as [d [<- Hd]]. cbn [snd].
+        apply cnt_pos_in. apply in_map_iff. exists d. split; [reflexivity|exact (proj1 (Hmine d (Hokl d Hd)))].
+      * exact G9.
+      * intros y Hy. apply filter_In in Hy. destruct Hy as [Hy _]. exact (G10 y Hy).
+Qed.
+
+(* stimuli that do nothing leave the ghost alone *)
+Lemma ghost_eta g : mkG (g_now g) (g_conn g) (g_dials g) (g_opens g) (g_live g) = g.
+Proof. destruct g. reflexivity. Qed.
+
+Lemma gstep_est_noop cf p b c tg g : memN p (g_conn g) = true -> gstep cf (EEstablished p b c) [] tg g = g.
+Proof.
+  intros H. unfold gstep. rewrite H. cbn [o_dials o_opens o_binds o_terms flat_map map memN existsb negb].
+  rewrite !app_nil_r, !(filter_all (fun _ => true)) by reflexivity. apply ghost_eta.
+Qed.
+Lemma gstep_closed_noop cf p tg g : memN p (g_conn g) = false -> gstep cf (EClosed p) [] tg g = g.
+Proof.
+  intros H. unfold gstep. rewrite H. cbn [o_dials o_opens o_binds o_terms flat_map map memN existsb negb].
+  rewrite !app_nil_r, !(filter_all (fun _ => true)) by reflexivity.
+  rewrite (filter_all (fun x => negb (x =? p))); [apply ghost_eta|].
+  intros x Hx. apply negb_true_iff. apply N.eqb_neq. intros ->. apply memN_in in Hx. congruence.
+Qed.
+Lemma gstep_unblock_noop cf k tg g : gstep cf (EUnblock k) [] tg g = g.
+Proof.
+  unfold gstep. destruct tg; cbn [o_wired existsb o_dials o_opens o_binds o_terms flat_map map memN negb];
+    rewrite !app_nil_r, !(filter_all (fun _ => true)) by reflexivity; apply ghost_eta.
+Qed.
+
+Lemma conn_of_map_keys p q en en' :
+  conns en' = map (fun x => if fst x =? p then (p, false) else x) (conns en) ->
+  (conn_of q en' = None <-> conn_of q en = None).
+Proof.
+  intros E. rewrite !conn_of_none, E. split.
+  - intros H x Hx Ex. apply (H (if fst x =? p then (p, false) else x));
+      [exact (in_map (fun x0 : N * bool => if fst x0 =? p then (p, false) else x0) _ _ Hx)|].
+    destruct (N.eqb_spec (fst x) p); cbn [fst]; congruence.
+  - intros H y Hy Ey. apply in_map_iff in Hy. destruct Hy as [x [<- Hx]].
+    destruct (N.eqb_spec (fst x) p) as [Ep|Ep]; cbn [fst] in Ey; apply (H x Hx); congruence.
+Qed.
+
+Lemma conn_same_conns en en' : conns en' = conns en -> forall p, conn_of p en' = None <-> conn_of p en = None.
+Proof. intros E p. unfold conn_of. rewrite E. tauto. Qed.
+
+Ltac gi_inert G I' HI HN :=
+  eapply GI_inert; [exact G|exact I'|exact HI|exact HN|reflexivity|reflexivity|(apply conn_same_conns; reflexivity)|(cbn; lia)].
+
+Lemma step_GI cf s en g tr e :
+  0 < tmo cf -> GI cf s en g -> Inv s tr ->
+  let r := step cf (s, en) e in
+  Inv (fst (fst (fst r))) (tr ++ snd (fst r)) ->
+  GI cf (fst (fst (fst r))) (snd (fst (fst r))) (gstep cf e (snd (fst r)) (snd r) g).
+Proof.
+  intros T G I r I'. subst r. destruct e.
+  - apply (GI_send cf s en g tr); assumption.
+  - (* cancel *)
+    cbn [step] in *. pose proof (cancel_Inert s rid) as In0. pose proof (cancel_ncl s rid) as NC.
+    destruct (h_cancel s rid) as [s1 o]. cbn [fst snd] in *.
+    gi_inert G I' In0 (ncl_nocall _ NC).
+  - (* established *)
+    destruct (conn_of p en) as [b0|] eqn:Cp.
+    + cbn [step] in *. rewrite Cp in *. cbn [fst snd] in *. rewrite gstep_est_noop; [exact G|].
+      apply memN_in. apply (gi_conn _ _ _ _ G). rewrite Cp. discriminate.
+    + apply (GI_established cf s en g tr); assumption.
+  - (* closed *)
+    destruct (conn_of p en) as [b0|] eqn:Cp.
+    + apply (GI_closed cf s en g tr p b0); assumption.
+    + cbn [step] in *. rewrite Cp in *. cbn [fst snd] in *. rewrite gstep_closed_noop; [exact G|].
+      destruct (memN p (g_conn g)) eqn:M; [|reflexivity]. apply memN_in in M. apply (gi_conn _ _ _ _ G) in M. destruct (M Cp).
+  - apply (GI_dialfail cf s en g tr); assumption.
+  - (* opened *)
+    destruct (nth_mod k (opens en)) as [[sid q]|] eqn:Nm.
+    + apply (GI_opened cf s en g tr k gate neg sid q); assumption.
+    + cbn [step] in *. rewrite Nm in *. cbn [fst snd] in *.
+      gi_inert G I' (Inert_refl s) nocall_nil.
+  - destruct (nth_mod k (opens en)) as [[sid q]|] eqn:Nm.
+    + apply (GI_openfail cf s en g tr k unsupported sid q); assumption.
+    + cbn [step] in *. rewrite Nm in *. cbn [fst snd] in *.
+      gi_inert G I' (Inert_refl s) nocall_nil.
+  - (* unblock *)
+    destruct (chans en) as [|ch0 chs] eqn:CH.
+    + cbn [step] in *. rewrite CH in *. cbn [fst snd] in *. rewrite gstep_unblock_noop. exact G.
+    + destruct (nth_error (ch0 :: chs) (N.to_nat (k mod N.of_nat (length (ch0 :: chs))))) as [ch|] eqn:NE.
+      * destruct (c_gate ch =? 0) eqn:GT.
+        -- apply (GI_unblock cf s en g tr k ch0 chs ch); assumption.
+        -- cbn [step] in *. rewrite CH, NE, GT in *. cbn [fst snd] in *. rewrite gstep_unblock_noop. exact G.
+      * cbn [step] in *. rewrite CH, NE in *. cbn [fst snd] in *. rewrite gstep_unblock_noop. exact G.
+  - (* write side breaks *)
+    cbn [step] in *. destruct (chans en) as [|ch0 chs] eqn:CH; cbn [fst snd] in *;
+      [gi_inert G I' (Inert_refl s) nocall_nil|].
+    destruct (nth_error _ _) as [ch|]; cbn [fst snd] in *;
+      [|gi_inert G I' (Inert_refl s) nocall_nil].
+    destruct (c_gate ch =? 2); cbn [fst snd] in *;
+      [gi_inert G I' (Inert_refl s) nocall_nil|].
+    pose proof (breakw_Inert s (k mod N.of_nat (length (ch0 :: chs)))) as In1.
+    pose proof (breakw_ncl s (k mod N.of_nat (length (ch0 :: chs)))) as NC1.
+    destruct (fut_breakw _ _) as [s1 o1]. cbn [fst snd] in *.
+    pose proof (rsp_gate_same s1 (k mod N.of_nat (length (ch0 :: chs))) false) as [SL _].
+    pose proof (rsp_gate_ncl s1 (k mod N.of_nat (length (ch0 :: chs))) false) as NC2.
+    destruct (rsp_gate _ _ _) as [s2 o2]. cbn [fst snd] in *.
+    eapply (GI_inert cf s en g s2 _ _ (o1 ++ o2) _ tr); [exact G|exact I'| | |reflexivity|reflexivity| |cbn; lia].
+    + exact (Inert_trans _ _ _ In1 (same_ledger_Inert _ _ SL)).
+    + apply ncl_nocall. apply ncl_app; assumption.
+    + apply conn_same_conns. reflexivity.
+  - (* the remote answers *)
+    cbn [step] in *. destruct (chans en) as [|ch0 chs] eqn:CH; cbn [fst snd] in *;
+      [gi_inert G I' (Inert_refl s) nocall_nil|].
+    destruct (nth_error _ _) as [ch|]; cbn [fst snd] in *;
+      [|gi_inert G I' (Inert_refl s) nocall_nil].
+    destruct (c_out ch && c_seen ch); cbn [fst snd] in *;
+      [|gi_inert G I' (Inert_refl s) nocall_nil].
+    match goal with |- context [fut_read s ?c ?r] =>
+      pose proof (read_Inert s c r) as In1; pose proof (read_ncl s c r) as NC1; destruct (fut_read s c r) as [s1 o] end.
+    cbn [fst snd] in *.
+    gi_inert G I' In1 (ncl_nocall _ NC1).
+  - (* end of stream *)
+    cbn [step] in *. destruct (chans en) as [|ch0 chs] eqn:CH; cbn [fst snd] in *;
+      [gi_inert G I' (Inert_refl s) nocall_nil|].
+    destruct (nth_error _ _) as [ch|]; cbn [fst snd] in *;
+      [|gi_inert G I' (Inert_refl s) nocall_nil].
+    destruct (c_out ch); [destruct (c_seen ch)|]; cbn [fst snd] in *;
+      try (gi_inert G I' (Inert_refl s) nocall_nil).
+    + match goal with |- context [fut_read s ?c ?r] =>
+        pose proof (read_Inert s c r) as In1; pose proof (read_ncl s c r) as NC1; destruct (fut_read s c r) as [s1 o] end.
+      cbn [fst snd] in *. gi_inert G I' In1 (ncl_nocall _ NC1).
+    + match goal with |- context [h_inread s ?c ?gd ?l ?t] =>
+        pose proof (inread_same s c gd l t) as [SL _]; pose proof (inread_ncl s c gd l t) as NC1;
+        destruct (h_inread s c gd l t) as [s1 o] end.
+      cbn [fst snd] in *.
+      gi_inert G I' (same_ledger_Inert _ _ SL) (ncl_nocall _ NC1).
+  - (* read error *)
+    cbn [step] in *. destruct (chans en) as [|ch0 chs] eqn:CH; cbn [fst snd] in *;
+      [gi_inert G I' (Inert_refl s) nocall_nil|].
+    destruct (nth_error _ _) as [ch|]; cbn [fst snd] in *;
+      [|gi_inert G I' (Inert_refl s) nocall_nil].
+    destruct (c_out ch); [destruct (c_seen ch)|]; cbn [fst snd] in *;
+      try (gi_inert G I' (Inert_refl s) nocall_nil).
+    + match goal with |- context [fut_read s ?c ?r] =>
+        pose proof (read_Inert s c r) as In1; pose proof (read_ncl s c r) as NC1; destruct (fut_read s c r) as [s1 o] end.
+      cbn [fst snd] in *. gi_inert G I' In1 (ncl_nocall _ NC1).
+    + match goal with |- context [h_inread s ?c ?gd ?l ?t] =>
+        pose proof (inread_same s c gd l t) as [SL _]; pose proof (inread_ncl s c gd l t) as NC1;
+        destruct (h_inread s c gd l t) as [s1 o] end.
+      cbn [fst snd] in *.
+      gi_inert G I' (same_ledger_Inert _ _ SL) (ncl_nocall _ NC1).
+  - apply (GI_advance cf s en g tr); assumption.
+  - (* inbound substream *)
+    cbn [step] in *. destruct (conn_of p en); cbn [fst snd] in *;
+      [|gi_inert G I' (Inert_refl s) nocall_nil].
+    pose proof (inopen_same cf s p (N.of_nat (length (chans en))) neg) as [SL O].
+    destruct (h_inopen _ _ _ _ _) as [s1 o]. cbn [fst snd] in *. subst o.
+    eapply (GI_inert cf s en g s1 _ _ [] _ tr); [exact G|exact I'|apply same_ledger_Inert; exact SL|apply nocall_nil|reflexivity|reflexivity| |cbn; lia].
+    apply conn_same_conns. reflexivity.
+  - (* inbound request *)
+    cbn [step] in *. destruct (chans en) as [|ch0 chs] eqn:CH; cbn [fst snd] in *;
+      [gi_inert G I' (Inert_refl s) nocall_nil|].
+    destruct (nth_error _ _) as [ch|]; cbn [fst snd] in *;
+      [|gi_inert G I' (Inert_refl s) nocall_nil].
+    destruct (negb (c_out ch)); cbn [fst snd] in *;
+      [|gi_inert G I' (Inert_refl s) nocall_nil].
+    match goal with |- context [h_inread s ?c ?gd ?l ?t] =>
+      pose proof (inread_same s c gd l t) as [SL _]; pose proof (inread_ncl s c gd l t) as NC1;
+      destruct (h_inread s c gd l t) as [s1 o] end.
+    cbn [fst snd] in *.
+    eapply (GI_inert cf s en g s1 _ _ o _ tr); [exact G|exact I'|apply same_ledger_Inert; exact SL|apply ncl_nocall; exact NC1|reflexivity|reflexivity| |cbn; lia].
+    apply conn_same_conns. reflexivity.
+  - (* send_response *)
+    cbn [step] in *. destruct (nth_mod k (hpend en)) as [irid|]; cbn [fst snd] in *;
+      [|gi_inert G I' (Inert_refl s) nocall_nil].
+    match goal with |- context [h_uresp cf s ?a ?b ?c ?f ?d ?e0] =>
+      pose proof (uresp_same cf s a b c f d e0) as [SL _]; pose proof (uresp_ncl cf s a b c f d e0) as NC1;
+      destruct (h_uresp cf s a b c f d e0) as [s1 o] end.
+    cbn [fst snd] in *.
+    eapply (GI_inert cf s en g s1 _ _ o _ tr); [exact G|exact I'|apply same_ledger_Inert; exact SL|apply ncl_nocall; exact NC1|reflexivity|reflexivity| |cbn; lia].
+    apply conn_same_conns. reflexivity.
+  - (* reject_request *)
+    cbn [step] in *. destruct (nth_mod k (hpend en)) as [irid|]; cbn [fst snd] in *;
+      [|gi_inert G I' (Inert_refl s) nocall_nil].
+    unfold h_urej in *. cbn [fst snd] in *.
+    eapply (GI_inert cf s en g _ _ _ [] _ tr); [exact G|exact I'| |apply nocall_nil|reflexivity|reflexivity| |cbn; lia].
+    + repeat split; auto. apply FutsKeep_same. reflexivity.
+    + apply conn_same_conns. reflexivity.
+  - (* the connection stops reading commands *)
+    cbn [step] in *. cbn [fst snd] in *.
+    eapply (GI_inert cf s en g s _ _ [] _ tr); [exact G|exact I'|apply Inert_refl|apply nocall_nil|reflexivity|reflexivity| |cbn; lia].
+    intros q. apply (conn_of_map_keys p q en). reflexivity.
+  - (* a request id burned by a clogged try_send_request *)
+    cbn [step] in *. unfold h_burn in *. cbn [fst snd] in *.
+    eapply (GI_inert cf s en g _ en _ [] _ tr); [exact G|exact I'| |apply nocall_nil|reflexivity|reflexivity|tauto|lia].
+    repeat split; auto. apply FutsKeep_same. reflexivity.
+  - cbn [step] in *. cbn [fst snd] in *.
+    eapply (GI_inert cf s en g s _ _ [] _ tr); [exact G|exact I'|apply Inert_refl|apply nocall_nil|reflexivity|reflexivity| |cbn; lia].
+    apply conn_same_conns. reflexivity.
+  - cbn [step] in *. cbn [fst snd] in *.
+    eapply (GI_inert cf s en g s _ _ [] _ tr); [exact G|exact I'|apply Inert_refl|apply nocall_nil|reflexivity|reflexivity| |cbn; lia].
+    apply conn_same_conns. reflexivity.
+Qed.
+
+Lemma run_GI cf evs : forall s en g tr,
+  0 < tmo cf -> GI cf s en g -> Inv s tr ->
+  GI cf (fst (fst (run cf (s, en) evs))) (snd (fst (run cf (s, en) evs)))
+        (grun cf g (run_steps cf (s, en) evs)).
+Proof.
+  induction evs as [|e evs IH]; intros s en g tr T G I; cbn [run run_steps grun fst snd]; [exact G|].
+  pose proof (step_Inv cf s en e tr I) as I'. pose proof (step_GI cf s en g tr e T G I) as G'. cbn zeta in G'.
+  specialize (G' I').
+  destruct (step cf (s, en) e) as [[[s1 en1] o] tg]. cbn [fst snd] in *.
+  specialize (IH s1 en1 _ (tr ++ o) T G' I').
+  destruct (run cf (s1, en1) evs) as [[s2 en2] o2]. cbn [fst snd grun] in *. exact IH.
+Qed.
+
+(* when the environment has discharged what it owes, nothing is owed by the protocol *)
+Lemma discharged_settled cf s en g tr :
+  GI cf s en g -> Inv3 s -> Inv s tr -> discharged g -> settled s.
+Proof.
+  intros G [C _] I (Dd & Do & Dl). split.
+  - destruct (dials s) as [|d l] eqn:E; [reflexivity|].
+    assert (H : In (fst d) (g_dials g)) by (apply (gi_dial _ _ _ _ G); rewrite E; left; reflexivity).
+    rewrite Dd in H. destruct H.
+  - assert (Hno : forall x, In x (active s) -> False).
+    { intros x Hx. destruct (C x Hx) as [[po [Hpo _]]|[f [Hf Ef]]].
+      - pose proof (gi_po _ _ _ _ G po Hpo) as H. rewrite Do in H. destruct H.
+      - rewrite <- Ef in Hx. destruct (gi_fut _ _ _ _ G f Hf Hx) as [dl [Hl Hd]].
+        specialize (Dl _ Hl). cbn [snd] in Dl. pose proof (gi_dl _ _ _ _ G f Hf) as L.
+        rewrite (gi_now _ _ _ _ G) in Dl. lia. }
+    destruct (active s) as [|x l]; [reflexivity|]. destruct (Hno x (or_introl eq_refl)).
+Qed.
+
+(* Exactly one terminal event per accepted request once the environment has discharged
+   everything it owes — the premise is the transport contract, not a property of the
+   protocol's final state. *)
+Theorem exactly_one_contract cf evs r :
+  0 < tmo cf ->
+  let res := run cf (init_pst, init_env) evs in
+  discharged (grun cf g0 (run_steps cf (init_pst, init_env) evs)) ->
+  In (OSent r) (snd res) ->
+  terms r (snd res) = 1%nat \/ In r (cancel_reqs evs).
+Proof.
+  intros T res D. apply exactly_one_settled.
+  pose proof (run_GI cf evs init_pst init_env g0 [] T (GI_init cf) Inv_init) as G.
+  pose proof (run_Inv3 cf evs (init_pst, init_env) [] Inv_init Inv3_init) as I3.
+  pose proof (run_Inv cf evs (init_pst, init_env) [] Inv_init) as I. cbn [app fst] in *.
+  exact (discharged_settled cf _ _ _ _ G I3 I D).
+Qed.
+
+(* ------------------------------------------------------------------ output alphabets, generically *)
+
+Section Alphabet.
+  Variable P : out -> bool.
+  Hypothesis P_sent : forall r, P (OSent r) = true.
+  Hypothesis P_fail : forall r c, P (OFail r c) = true.
+  Hypothesis P_resp : forall r l t, P (OResp r l t) = true.
+  Hypothesis P_fbresp : forall r n, P (OFbResp r n) = true.
+  Hypothesis P_dial : forall p, P (ODial p) = true.
+  Hypothesis P_open : forall sid p, P (OOpen sid p) = true.
+
+  Definition Pl (o : list out) : Prop := forallb P o = true.
+
+  Lemma Pl_app a b : Pl a -> Pl b -> Pl (a ++ b).
+  Proof. unfold Pl. rewrite forallb_app. intros -> ->. reflexivity. Qed.
+  Lemma Pl_map_fail {A} (g : A -> N) code l : Pl (map (fun a => OFail (g a) code) l).
+  Proof. unfold Pl. induction l; cbn; rewrite ?P_fail; auto. Qed.
+  Lemma Pl_verdict rid res : Pl (verdict rid res).
+  Proof.
+    unfold verdict, Pl. destruct res as [l t|c]; [cbn; rewrite P_resp; reflexivity|].
+    destruct (c =? E_CANCELED); cbn; rewrite ?P_fail; reflexivity.
+  Qed.
+  Lemma Pl_settle s p rid res : Pl (snd (settle s p rid res)).
+  Proof. unfold settle. destruct (_ && _); cbn [snd]; [apply Pl_verdict|reflexivity]. Qed.
+  Lemma Pl_complete s f res : Pl (snd (complete s f res)).
+  Proof. unfold complete. apply Pl_settle. Qed.
+  Lemma Pl_complete_all l : forall s res, Pl (snd (complete_all s l res)).
+  Proof.
+    induction l as [|f l IH]; intros s res; cbn [complete_all snd]; [reflexivity|].
+    pose proof (Pl_complete s f res) as H. destruct (complete s f res) as [s1 o1].
+    pose proof (IH s1 res) as H2. destruct (complete_all s1 l res) as [s2 o2]. cbn [snd] in *.
+    apply Pl_app; assumption.
+  Qed.
+  Lemma Pl_send s p dial len tag fb ok dok sid : Pl (snd (h_send s p dial len tag fb ok dok sid)).
+  Proof.
+    unfold h_send, Pl. repeat match goal with |- context [if ?x then _ else _] => destruct x end;
+      cbn; rewrite ?P_sent, ?P_fail, ?P_dial, ?P_open; reflexivity.
+  Qed.
+  Lemma Pl_established s p ok sid : Pl (snd (h_established s p ok sid)).
+  Proof.
+    unfold h_established. destruct (memN p (peers s)); [reflexivity|].
+    destruct (filter _ (dials s)) as [|d0 mine]; [reflexivity|].
+    destruct (firstn ok (d0 :: mine)); cbn [snd]; [apply (Pl_map_fail (fun d : N * req => q_rid (snd d)))|].
+    apply Pl_app; [apply (Pl_map_fail (fun d : N * req => q_rid (snd d)))|].
+    unfold Pl. induction (number_pouts p sid (p0 :: l)); cbn; rewrite ?P_open; auto.
+  Qed.
+  Lemma Pl_closed s p : Pl (snd (h_closed s p)).
+  Proof. unfold h_closed. destruct (memN p _); cbn [snd]; [apply (Pl_map_fail snd)|reflexivity]. Qed.
+  Lemma Pl_dialfail s p : Pl (snd (h_dialfail s p)).
+  Proof. unfold h_dialfail. cbn [snd]. apply (Pl_map_fail (fun d : N * req => q_rid (snd d))). Qed.
+  Lemma Pl_openfail s sid u : Pl (snd (h_openfail s sid u)).
+  Proof. unfold h_openfail, Pl. destruct (find_po sid (pouts s)); cbn; rewrite ?P_fail; reflexivity. Qed.
+  Lemma Pl_breakw s c : Pl (snd (fut_breakw s c)).
+  Proof.
+    unfold fut_breakw. destruct (find_fut c (futs s)) as [f|]; [|reflexivity].
+    destruct (f_wait f); [reflexivity|apply Pl_complete].
+  Qed.
+  Lemma Pl_fb_resp f o : Pl (fb_resp f o).
+  Proof.
+    unfold fb_resp, Pl. destruct (f_neg f =? 0); [reflexivity|].
+    induction o as [|x o IH]; [reflexivity|]. cbn [flat_map]. rewrite forallb_app, IH, andb_true_r.
+    destruct x; cbn; rewrite ?P_fbresp; reflexivity.
+  Qed.
+  Lemma Pl_read s c res : Pl (snd (fut_read s c res)).
+  Proof.
+    unfold fut_read. destruct (find_fut c (futs s)) as [f|]; [|reflexivity].
+    destruct (f_wait f); [|reflexivity].
+    pose proof (Pl_complete s f res) as H. destruct (complete s f res) as [s1 o]. cbn [snd] in *.
+    apply Pl_app; [exact H|apply Pl_fb_resp].
+  Qed.
+  Lemma Pl_advance s now : Pl (snd (fut_advance s now)).
+  Proof. unfold fut_advance. apply Pl_complete_all. Qed.
+  Lemma Pl_cancel s rid : Pl (snd (h_cancel s rid)).
+  Proof.
+    unfold h_cancel. destruct (find _ (futs s)) as [f|]; [|reflexivity].
+    destruct (f_wait f); [apply Pl_complete|reflexivity].
+  Qed.
+  Lemma Pl_in o x : Pl o -> In x o -> P x = true.
+  Proof. unfold Pl. rewrite forallb_forall. auto. Qed.
+End Alphabet.
+
+(* no feedback / no frame on the wire *)
+Definition nfd (x : out) : bool := match x with OFeed _ _ => false | _ => true end.
+Definition nwr (x : out) : bool := match x with OWire _ _ _ => false | _ => true end.
+
+Definition nfdl := Pl nfd.
+Lemma nfd_no_feed o i b : nfdl o -> ~ In (OFeed i b) o.
+Proof. intros H Hin. pose proof (Pl_in nfd o _ H Hin). discriminate. Qed.
+Lemma nfdl_app a b : nfdl a -> nfdl b -> nfdl (a ++ b).
+Proof. apply Pl_app. Qed.
+
+Lemma opened_body_nfd cf0 s po c gate now neg : nfdl (snd (opened_body cf0 s po c gate now neg)).
+Proof.
+  unfold opened_body. cbn [q_rid q_len q_tag q_fb].
+  destruct (max_size cf0 <? _); [apply Pl_settle; reflexivity|].
+  destruct gate as [|[g|g|]]; try (apply Pl_settle; reflexivity); reflexivity.
+Qed.
+Lemma unblock_nfd cf0 s c now : nfdl (snd (fut_unblock cf0 s c now)).
+Proof.
+  unfold fut_unblock. destruct (find_fut c (futs s)) as [f|]; [|reflexivity].
+  destruct (f_wait f); [reflexivity|]. destruct (f_cancel f); [|reflexivity].
+  pose proof (Pl_complete nfd (fun _ _ => eq_refl) (fun _ _ _ => eq_refl) s f (RErr E_CANCELED)) as H.
+  destruct (complete s f _) as [s1 o]. cbn [snd] in *. unfold nfdl, Pl in *. cbn [forallb nfd]. exact H.
+Qed.
+Lemma inread_nfd s c good len tag : nfdl (snd (h_inread s c good len tag)).
+Proof.
+  unfold h_inread. destruct (find_rd c (rdrs s)) as [rd|]; [|reflexivity].
+  destruct (_ && _); [destruct good; [destruct (r_neg rd =? 0)|]|]; reflexivity.
+Qed.
+
+Definition wired (o : list out) : Prop := exists c l t, In (OWireR c l t) o.
+
+Lemma uresp_feed cf0 s irid len tag fb gate now i :
+  In (OFeed i true) (snd (h_uresp cf0 s irid len tag fb gate now)) -> wired (snd (h_uresp cf0 s irid len tag fb gate now)).
+Proof.
+  unfold h_uresp, feed. destruct (find_rs irid (rsps s)) as [rs|]; [|intros []].
+  destruct (s_w rs); [intros []|].
+  destruct fb; (destruct (max_size cf0 <? len); [cbn; intros H; repeat destruct H as [H|H]; try discriminate; tauto|]);
+    destruct gate as [|[g|g|]]; cbn [snd]; intros H; cbn in H; repeat destruct H as [H|H]; try discriminate; try tauto;
+    eexists; eexists; eexists; left; reflexivity.
+Qed.
+Lemma rsp_gate_feed s c ok i :
+  In (OFeed i true) (snd (rsp_gate s c ok)) -> wired (snd (rsp_gate s c ok)).
+Proof.
+  unfold rsp_gate, feed. destruct (find _ (rsps s)) as [rs|]; [|intros []].
+  destruct (s_w rs) as [[[l t] d]|]; [|intros []]. cbn [snd].
+  destruct ok; destruct (s_fb rs); cbn; intros H; repeat destruct H as [H|H]; try discriminate; try tauto;
+    eexists; eexists; eexists; left; reflexivity.
+Qed.
+Lemma adv_out_feed s now i : ~ In (OFeed i true) (rsp_advance_out s now).
+Proof.
+  unfold rsp_advance_out. intros H. apply in_flat_map in H. destruct H as [a [_ H]].
+  destruct (s_w a) as [[[x y] d]|]; [|destruct H]. destruct (d <=? now); [|destruct H].
+  unfold feed in H. destruct (s_fb a); [|destruct H]. destruct H as [H|[]]. discriminate.
+Qed.
+
+Lemma wired_app_l a b : wired a -> wired (a ++ b).
+Proof. intros [c [l [t H]]]. exists c, l, t. apply in_or_app. left. exact H. Qed.
+Lemma wired_app_r a b : wired b -> wired (a ++ b).
+Proof. intros [c [l [t H]]]. exists c, l, t. apply in_or_app. right. exact H. Qed.
+
+(* feedback () is sent only in a step in which a frame went out *)
+Lemma step_feed cf0 s en e i :
+  In (OFeed i true) (snd (fst (step cf0 (s, en) e))) -> wired (snd (fst (step cf0 (s, en) e))).
+Proof.
+  assert (B := fun o (H : nfdl o) (Hin : In (OFeed i true) o) => False_ind (wired o) (nfd_no_feed o i true H Hin)).
+  destruct e; cbn [step].
+  - match goal with |- context [h_send s p dial len tag ?fb0 ?a0 ?b0 ?c0] =>
+      pose proof (Pl_send nfd (fun _ => eq_refl) (fun _ _ => eq_refl) (fun _ => eq_refl) (fun _ _ => eq_refl) s p dial len tag fb0 a0 b0 c0) as H end.
+    destruct (h_send _ _ _ _ _ _ _ _ _) as [s1 o]. apply B. exact H.
+  - pose proof (Pl_cancel nfd (fun _ _ => eq_refl) (fun _ _ _ => eq_refl) s rid) as H. destruct (h_cancel s rid) as [s1 o]. apply B. exact H.
+  - destruct (conn_of p en); cbn [fst snd]; [intros []|].
+    match goal with |- context [h_established s p ?n ?sd] =>
+      pose proof (Pl_established nfd (fun _ _ => eq_refl) (fun _ _ => eq_refl) s p n sd) as H end.
+    destruct (h_established _ _ _ _) as [s1 o]. apply B. exact H.
+  - destruct (conn_of p en); cbn [fst snd]; [|intros []].
+    pose proof (Pl_closed nfd (fun _ _ => eq_refl) s p) as H. destruct (h_closed s p) as [s1 o]. apply B. exact H.
+  - pose proof (Pl_dialfail nfd (fun _ _ => eq_refl) s p) as H. destruct (h_dialfail s p) as [s1 o]. apply B. exact H.
+  - destruct (nth_mod k (opens en)) as [[sid q]|]; cbn [fst snd]; [|intros []].
+    unfold h_opened. destruct (find_po sid (pouts s)) as [po|]; [|intros []].
+    pose proof (opened_body_nfd cf0 s po (N.of_nat (length (chans en))) (N.min gate 2) (now en) neg) as H.
+    destruct (opened_body _ _ _ _ _ _ _) as [s1 o]. cbn [fst snd] in *. intros [Hin|Hin]; [discriminate|].
+    destruct (nfd_no_feed _ _ _ H Hin).
+  - destruct (nth_mod k (opens en)) as [[sid q]|]; cbn [fst snd]; [|intros []].
+    pose proof (Pl_openfail nfd (fun _ _ => eq_refl) s sid unsupported) as H. destruct (h_openfail _ _ _) as [s1 o]. apply B. exact H.
+  - destruct (chans en) as [|ch0 chs]; cbn [fst snd]; [intros []|].
+    destruct (nth_error _ _) as [ch|]; cbn [fst snd]; [|intros []].
+    destruct (c_gate ch =? 0); cbn [fst snd]; [|intros []].
+    pose proof (unblock_nfd cf0 s (k mod N.of_nat (length (ch0 :: chs))) (now en)) as H1.
+    destruct (fut_unblock _ _ _ _) as [s1 o1]. cbn [fst snd] in *.
+    pose proof (rsp_gate_feed s1 (k mod N.of_nat (length (ch0 :: chs))) true i) as H2.
+    destruct (rsp_gate _ _ _) as [s2 o2]. cbn [fst snd] in *.
+    intros Hin. apply in_app_or in Hin. destruct Hin as [Hin|Hin]; [destruct (nfd_no_feed _ _ _ H1 Hin)|].
+    apply wired_app_r. exact (H2 Hin).
+  - destruct (chans en) as [|ch0 chs]; cbn [fst snd]; [intros []|].
+    destruct (nth_error _ _) as [ch|]; cbn [fst snd]; [|intros []].
+    destruct (c_gate ch =? 2); cbn [fst snd]; [intros []|].
+    pose proof (Pl_breakw nfd (fun _ _ => eq_refl) (fun _ _ _ => eq_refl) s (k mod N.of_nat (length (ch0 :: chs)))) as H1.
+    destruct (fut_breakw _ _) as [s1 o1]. cbn [fst snd] in *.
+    pose proof (rsp_gate_feed s1 (k mod N.of_nat (length (ch0 :: chs))) false i) as H2.
+    destruct (rsp_gate _ _ _) as [s2 o2]. cbn [fst snd] in *.
+    intros Hin. apply in_app_or in Hin. destruct Hin as [Hin|Hin]; [destruct (nfd_no_feed _ _ _ H1 Hin)|].
+    apply wired_app_r. exact (H2 Hin).
+  - destruct (chans en) as [|ch0 chs]; cbn [fst snd]; [intros []|].
+    destruct (nth_error _ _) as [ch|]; cbn [fst snd]; [|intros []].
+    destruct (c_out ch && c_seen ch); cbn [fst snd]; [|intros []].
+    match goal with |- context [fut_read s ?c ?r] =>
+      pose proof (Pl_read nfd (fun _ _ => eq_refl) (fun _ _ _ => eq_refl) (fun _ _ => eq_refl) s c r) as H; destruct (fut_read s c r) as [s1 o] end.
+    apply B. exact H.
+  - destruct (chans en) as [|ch0 chs]; cbn [fst snd]; [intros []|].
+    destruct (nth_error _ _) as [ch|]; cbn [fst snd]; [|intros []].
+    destruct (c_out ch); [destruct (c_seen ch)|]; cbn [fst snd]; try (intros []).
+    + match goal with |- context [fut_read s ?c ?r] =>
+        pose proof (Pl_read nfd (fun _ _ => eq_refl) (fun _ _ _ => eq_refl) (fun _ _ => eq_refl) s c r) as H; destruct (fut_read s c r) as [s1 o] end.
+      apply B. exact H.
+    + match goal with |- context [h_inread s ?c ?g ?l ?t] =>
+        pose proof (inread_nfd s c g l t) as H; destruct (h_inread s c g l t) as [s1 o] end. apply B. exact H.
+  - destruct (chans en) as [|ch0 chs]; cbn [fst snd]; [intros []|].
+    destruct (nth_error _ _) as [ch|]; cbn [fst snd]; [|intros []].
+    destruct (c_out ch); [destruct (c_seen ch)|]; cbn [fst snd]; try (intros []).
+    + match goal with |- context [fut_read s ?c ?r] =>
+        pose proof (Pl_read nfd (fun _ _ => eq_refl) (fun _ _ _ => eq_refl) (fun _ _ => eq_refl) s c r) as H; destruct (fut_read s c r) as [s1 o] end.
+      apply B. exact H.
+    + match goal with |- context [h_inread s ?c ?g ?l ?t] =>
+        pose proof (inread_nfd s c g l t) as H; destruct (h_inread s c g l t) as [s1 o] end. apply B. exact H.
+  - pose proof (Pl_advance nfd (fun _ _ => eq_refl) (fun _ _ _ => eq_refl) s (now en + dt)) as H.
+    destruct (fut_advance s (now en + dt)) as [s1 o]. cbn [fst snd] in *.
+    intros Hin. apply in_app_or in Hin. destruct Hin as [Hin|Hin]; [destruct (nfd_no_feed _ _ _ H Hin)|destruct (adv_out_feed _ _ _ Hin)].
+  - destruct (conn_of p en); cbn [fst snd]; [|intros []].
+    pose proof (inopen_shape cf0 s p (N.of_nat (length (chans en))) neg) as (O & _).
+    destruct (h_inopen _ _ _ _ _) as [s1 o]. cbn [fst snd] in *. subst o. intros [].
+  - destruct (chans en) as [|ch0 chs]; cbn [fst snd]; [intros []|].
+    destruct (nth_error _ _) as [ch|]; cbn [fst snd]; [|intros []].
+    destruct (negb (c_out ch)); cbn [fst snd]; [|intros []].
+    match goal with |- context [h_inread s ?c ?g ?l ?t] =>
+      pose proof (inread_nfd s c g l t) as H; destruct (h_inread s c g l t) as [s1 o] end. apply B. exact H.
+  - destruct (nth_mod k (hpend en)) as [irid|]; cbn [fst snd]; [|intros []].
+    match goal with |- context [h_uresp cf0 s ?a ?b ?c ?f ?d ?e0] =>
+      pose proof (uresp_feed cf0 s a b c f d e0 i) as H; destruct (h_uresp cf0 s a b c f d e0) as [s1 o] end. exact H.
+  - destruct (nth_mod k (hpend en)) as [irid|]; cbn [fst snd]; intros [].
+  - cbn [fst snd]. intros [].
+  - cbn [fst snd]. intros [].
+  - cbn [fst snd]. intros [].
+  - cbn [fst snd]. intros [].
+Qed.
+
+Theorem feedback_only_after_wire cf0 evs e o tg i :
+  In (e, o, tg) (run_steps cf0 (init_pst, init_env) evs) -> In (OFeed i true) o ->
+  exists c l t, In (OWireR c l t) o.
+Proof.
+  intros Hin Hf. destruct (steps_are_steps cf0 evs _ _ Hin) as [s [en [Eo _]]]. cbn [fst snd] in Eo.
+  rewrite Eo in *. exact (step_feed cf0 s en e i Hf).
+Qed.
+
+(* ------------------------------------------------------------------ the request frame on the wire *)
+
+Definition nwrl := Pl nwr.
+Lemma nwr_no_wire o c l t : nwrl o -> ~ In (OWire c l t) o.
+Proof. intros H Hin. pose proof (Pl_in nwr o _ H Hin). discriminate. Qed.
+
+Lemma uresp_nwr cf0 s irid len tag fb gate now : nwrl (snd (h_uresp cf0 s irid len tag fb gate now)).
+Proof.
+  unfold h_uresp, feed. destruct (find_rs irid (rsps s)) as [rs|]; [|reflexivity].
+  destruct (s_w rs); [reflexivity|]. destruct fb; (destruct (max_size cf0 <? len); [reflexivity|]);
+  destruct gate as [|[g|g|]]; reflexivity.
+Qed.
+Lemma rsp_gate_nwr s c ok : nwrl (snd (rsp_gate s c ok)).
+Proof.
+  unfold rsp_gate. destruct (find _ (rsps s)) as [rs|]; [|reflexivity].
+  destruct (s_w rs) as [[[l t] d]|]; [|reflexivity]. unfold feed. destruct ok; destruct (s_fb rs); reflexivity.
+Qed.
+Lemma adv_out_nwr s now : nwrl (rsp_advance_out s now).
+Proof.
+  unfold rsp_advance_out, nwrl, Pl. induction (rsps s) as [|a l IH]; [reflexivity|].
+  cbn [flat_map]. rewrite forallb_app, IH, andb_true_r. destruct (s_w a) as [[[x y] d]|]; [|reflexivity].
+  destruct (d <=? now); [|reflexivity]. unfold feed. destruct (s_fb a); reflexivity.
+Qed.
+Lemma inread_nwr s c good len tag : nwrl (snd (h_inread s c good len tag)).
+Proof.
+  unfold h_inread. destruct (find_rd c (rdrs s)) as [rd|]; [|reflexivity].
+  destruct (_ && _); [destruct good; [destruct (r_neg rd =? 0)|]|]; reflexivity.
+Qed.
+
+(* the request contexts held by the protocol *)
+Definition reqs (s : pst) : list req := map snd (dials s) ++ map po_req (pouts s) ++ map f_req (futs s).
+Definition ReqsSub (s s' : pst) : Prop := forall q, In q (reqs s') -> In q (reqs s).
+
+Lemma in_reqs s q :
+  In q (reqs s) <-> (exists d, In d (dials s) /\ snd d = q) \/ (exists po, In po (pouts s) /\ po_req po = q) \/
+                    (exists f, In f (futs s) /\ f_req f = q).
+Proof.
+  unfold reqs. rewrite !in_app_iff, !in_map_iff. firstorder.
+Qed.
+
+Definition FutsReq (s s' : pst) : Prop := forall g, In g (futs s') -> exists f, In f (futs s) /\ f_req f = f_req g.
+
+Lemma ReqsSub_keep s s' : dials s' = dials s -> pouts s' = pouts s -> FutsReq s s' -> ReqsSub s s'.
+Proof.
+  intros D P F q. rewrite !in_reqs, D, P. intros [H|[H|[g [Hg E]]]]; [left; exact H|right; left; exact H|].
+  right. right. destruct (F g Hg) as [f [Hf Ef]]. exists f. split; [exact Hf|congruence].
+Qed.
+Lemma ReqsSub_refl s : ReqsSub s s.
+Proof. intros q H. exact H. Qed.
+Lemma ReqsSub_trans s s1 s2 : ReqsSub s s1 -> ReqsSub s1 s2 -> ReqsSub s s2.
+Proof. intros A B q H. apply A, B, H. Qed.
+Lemma FutsReq_sub s s' : (forall g, In g (futs s') -> In g (futs s)) -> FutsReq s s'.
+Proof. intros H g Hg. exists g. auto. Qed.
+
+Lemma complete_ReqsSub s f res : ReqsSub s (fst (complete s f res)).
+Proof.
+  pose proof (complete_Keep3 s f res) as (D & P & _).
+  apply ReqsSub_keep; auto. apply FutsReq_sub. apply complete_futs_sub.
+Qed.
+Lemma complete_all_ReqsSub l s res : ReqsSub s (fst (complete_all s l res)).
+Proof.
+  pose proof (complete_all_Keep3 l s res) as (D & P & _).
+  apply ReqsSub_keep; auto. apply FutsReq_sub. apply complete_all_futs_sub.
+Qed.
+Lemma unblock_ReqsSub cf0 s c now : ReqsSub s (fst (fut_unblock cf0 s c now)).
+Proof.
+  pose proof (unblock_Keep3 cf0 s c now) as (D & P & _). apply ReqsSub_keep; auto.
+  unfold fut_unblock. destruct (find_fut c (futs s)) as [f|]; [|apply FutsReq_sub; auto].
+  destruct (f_wait f); [apply FutsReq_sub; auto|]. destruct (f_cancel f).
+  - pose proof (complete_futs_sub s f (RErr E_CANCELED)) as H. destruct (complete s f _) as [s1 o]. apply FutsReq_sub. exact H.
+  - cbn [fst]. intros g Hg. simp_sets. unfold to_wait in Hg. apply in_map_iff in Hg. destruct Hg as [f0 [<- H0]].
+    exists f0. split; [exact H0|]. destruct (f_chan f0 =? c); reflexivity.
+Qed.
+Lemma breakw_ReqsSub s c : ReqsSub s (fst (fut_breakw s c)).
+Proof.
+  unfold fut_breakw. destruct (find_fut c (futs s)) as [f|]; [|apply ReqsSub_refl].
+  destruct (f_wait f); [apply ReqsSub_refl|apply complete_ReqsSub].
+Qed.
+Lemma read_ReqsSub s c res : ReqsSub s (fst (fut_read s c res)).
+Proof.
+  unfold fut_read. destruct (find_fut c (futs s)) as [f|]; [|apply ReqsSub_refl].
+  destruct (f_wait f); [|apply ReqsSub_refl].
+  pose proof (complete_ReqsSub s f res) as H. destruct (complete s f res) as [s1 o]. exact H.
+Qed.
+Lemma cancel_ReqsSub s rid : ReqsSub s (fst (h_cancel s rid)).
+Proof.
+  unfold h_cancel. destruct (find _ (futs s)) as [f|]; [|apply ReqsSub_refl].
+  destruct (f_wait f); [apply complete_ReqsSub|].
+  cbn [fst]. apply ReqsSub_keep; [reflexivity|reflexivity|].
+  intros g Hg. simp_sets. unfold mark_cancel in Hg. apply in_map_iff in Hg. destruct Hg as [f0 [<- H0]].
+  exists f0. split; [exact H0|]. destruct (q_rid (f_req f0) =? rid); reflexivity.
+Qed.
+Lemma same_ledger_ReqsSub s s' : same_ledger s s' -> ReqsSub s s'.
+Proof. intros (D & _ & P & F & _). apply ReqsSub_keep; auto. apply FutsReq_sub. rewrite F. auto. Qed.
+Lemma closed_ReqsSub s p : ReqsSub s (fst (h_closed s p)).
+Proof.
+  intros q. rewrite !in_reqs. unfold h_closed. simp_sets. destruct (memN p (peers s)); cbn [fst]; simp_sets;
+    (intros [H|[[po [Hpo E]]|H]]; [left; exact H|right; left; exists po; apply filter_In in Hpo; destruct Hpo; split; assumption|right; right; exact H]).
+Qed.
+Lemma dialfail_ReqsSub s p : ReqsSub s (fst (h_dialfail s p)).
+Proof.
+  intros q. rewrite !in_reqs. unfold h_dialfail. cbn [fst]. simp_sets.
+  intros [[d [Hd E]]|H]; [left; exists d; apply filter_In in Hd; tauto|right; exact H].
+Qed.
+Lemma openfail_ReqsSub s sid u : ReqsSub s (fst (h_openfail s sid u)).
+Proof.
+  intros q. rewrite !in_reqs. unfold h_openfail. destruct (find_po sid (pouts s)); cbn [fst]; simp_sets; [|auto].
+  intros [H|[[po [Hpo E]]|H]]; [left; exact H|right; left; exists po; unfold drop_po in Hpo; apply filter_In in Hpo; tauto|right; right; exact H].
+Qed.
+Lemma number_pouts_reqs p sid l po : In po (number_pouts p sid l) -> exists d, In d l /\ snd d = po_req po.
+Proof.
+  revert sid. induction l as [|[a q] l IH]; intros sid; [intros []|].
+  cbn [number_pouts In]. intros [<-|H]; [exists (a, q); auto|]. destruct (IH _ H) as [d [Hd E]]. exists d. auto.
+Qed.
+Lemma established_ReqsSub s p ok sid : ReqsSub s (fst (h_established s p ok sid)).
+Proof.
+  intros q. rewrite !in_reqs. unfold h_established. destruct (memN p (peers s)); cbn [fst]; [auto|]. simp_sets.
+  assert (HD : forall d, In d (filter (fun d : N * req => negb (fst d =? p)) (dials s)) -> In d (dials s))
+    by (intros d H; apply filter_In in H; tauto).
+  destruct (filter (fun d : N * req => fst d =? p) (dials s)) as [|d0 mine] eqn:M; cbn [fst]; simp_sets.
+  - intros [[d [Hd E]]|H]; [left; exists d; auto|right; exact H].
+  - assert (Hm : forall d, In d (d0 :: mine) -> In d (dials s)).
+    { intros d Hd. rewrite <- M in Hd. apply filter_In in Hd. tauto. }
+    destruct (firstn ok (d0 :: mine)) as [|x okl] eqn:Fo; cbn [fst]; simp_sets.
+    + intros [[d [Hd E]]|H]; [left; exists d; auto|right; exact H].
+    + intros [[d [Hd E]]|[[po [Hpo E]]|H]]; [left; exists d; auto| |right; right; exact H].
+      apply in_app_or in Hpo. destruct Hpo as [Hpo|Hpo]; [right; left; exists po; auto|].
+      left. destruct (number_pouts_reqs _ _ _ _ Hpo) as [d [Hd Ed]]. exists d. split; [|congruence].
+      apply Hm. rewrite <- (firstn_skipn ok (d0 :: mine)), Fo. apply in_or_app. left. exact Hd.
+Qed.
+
+Lemma unblock_wire cf0 s c now c' l t :
+  In (OWire c' l t) (snd (fut_unblock cf0 s c now)) ->
+  exists f, In f (futs s) /\ f_chan f = c' /\ l = q_len (f_req f) /\ t = q_tag (f_req f).
+Proof.
+  unfold fut_unblock. destruct (find_fut c (futs s)) as [f|] eqn:F; [|intros []].
+  apply find_some in F. destruct F as [Hf Ec]. apply N.eqb_eq in Ec.
+  destruct (f_wait f); [intros []|]. destruct (f_cancel f).
+  - pose proof (Pl_complete nwr (fun _ _ => eq_refl) (fun _ _ _ => eq_refl) s f (RErr E_CANCELED)) as H.
+    destruct (complete s f _) as [s1 o]. cbn [snd] in *. intros [Hin|Hin]; [|destruct (nwr_no_wire _ _ _ _ H Hin)].
+    injection Hin as <- <- <-. exists f. auto.
+  - cbn [snd]. intros [Hin|[]]. injection Hin as <- <- <-. exists f. auto.
+Qed.
+Lemma opened_body_wire cf0 s po c gate now neg c' l t :
+  In (OWire c' l t) (snd (opened_body cf0 s po c gate now neg)) ->
+  c' = c /\ l = fst (chosen (po_req po) neg) /\ t = snd (chosen (po_req po) neg).
+Proof.
+  unfold opened_body. cbn [q_rid q_len q_tag q_fb].
+  assert (H : forall res, ~ In (OWire c' l t) (snd (settle (set_pouts s (drop_po po (pouts s))) (po_peer po) (q_rid (po_req po)) res))).
+  { intros res. apply nwr_no_wire. apply Pl_settle; reflexivity. }
+  destruct (max_size cf0 <? _); [intros Hin; destruct (H _ Hin)|].
+  destruct gate as [|[g|g|]]; try (intros Hin; destruct (H _ Hin)); cbn [snd]; [intros []|].
+  intros [Hin|[]]. injection Hin as <- <- <-. auto.
+Qed.
+
+(* where a request frame on the wire comes from *)
+Lemma step_wire cf0 s en e c l t :
+  In (OWire c l t) (snd (fst (step cf0 (s, en) e))) ->
+  (exists f, In f (futs s) /\ f_chan f = c /\ l = q_len (f_req f) /\ t = q_tag (f_req f) /\
+             forall c' r, ~ In (OBind c' r) (snd (fst (step cf0 (s, en) e)))) \/
+  (exists k g ng po, e = EOpened k g ng /\ In po (pouts s) /\ c = nch en /\
+                     l = fst (chosen (po_req po) ng) /\ t = snd (chosen (po_req po) ng) /\
+                     forall c' r, In (OBind c' r) (snd (fst (step cf0 (s, en) e))) -> c' = c /\ r = rid_po po).
+Proof.
+  assert (B := fun o (H : nwrl o) (Hin : In (OWire c l t) o) => False_ind
+     ((exists f, In f (futs s) /\ f_chan f = c /\ l = q_len (f_req f) /\ t = q_tag (f_req f) /\
+                 forall c' r, ~ In (OBind c' r) o) \/
+      (exists k g ng po, e = EOpened k g ng /\ In po (pouts s) /\ c = nch en /\
+                     l = fst (chosen (po_req po) ng) /\ t = snd (chosen (po_req po) ng) /\
+                     forall c' r, In (OBind c' r) o -> c' = c /\ r = rid_po po)) (nwr_no_wire o c l t H Hin)).
+  destruct e; cbn [step].
+  - match goal with |- context [h_send s p dial len tag ?fb0 ?a0 ?b0 ?c0] =>
+      pose proof (Pl_send nwr (fun _ => eq_refl) (fun _ _ => eq_refl) (fun _ => eq_refl) (fun _ _ => eq_refl) s p dial len tag fb0 a0 b0 c0) as H end.
+    destruct (h_send _ _ _ _ _ _ _ _ _) as [s1 o]. apply B. exact H.
+  - pose proof (Pl_cancel nwr (fun _ _ => eq_refl) (fun _ _ _ => eq_refl) s rid) as H. destruct (h_cancel s rid) as [s1 o]. apply B. exact H.
+  - destruct (conn_of p en); cbn [fst snd]; [intros []|].
+    match goal with |- context [h_established s p ?n ?sd] =>
+      pose proof (Pl_established nwr (fun _ _ => eq_refl) (fun _ _ => eq_refl) s p n sd) as H end.
+    destruct (h_established _ _ _ _) as [s1 o]. apply B. exact H.
+  - destruct (conn_of p en); cbn [fst snd]; [|intros []].
+    pose proof (Pl_closed nwr (fun _ _ => eq_refl) s p) as H. destruct (h_closed s p) as [s1 o]. apply B. exact H.
+  - pose proof (Pl_dialfail nwr (fun _ _ => eq_refl) s p) as H. destruct (h_dialfail s p) as [s1 o]. apply B. exact H.
+  - (* opened *)
+    destruct (nth_mod k (opens en)) as [[sid q]|]; cbn [fst snd]; [|intros []].
+    unfold h_opened. destruct (find_po sid (pouts s)) as [po|] eqn:Fp; [|intros []].
+    pose proof (opened_body_wire cf0 s po (N.of_nat (length (chans en))) (N.min gate 2) (now en) neg c l t) as W.
+    pose proof (opened_body_ncl cf0 s po (N.of_nat (length (chans en))) (N.min gate 2) (now en) neg) as NC.
+    destruct (opened_body _ _ _ _ _ _ _) as [s1 o]. cbn [fst snd] in *.
+    intros [Hin|Hin]; [discriminate|]. destruct (W Hin) as (-> & -> & ->).
+    right. exists k, gate, neg, po. split; [reflexivity|]. split; [exact (proj1 (find_in _ _ _ Fp))|].
+    repeat split; try reflexivity.
+    + destruct H as [H|H]; [injection H as <- _; reflexivity|].
+      apply ncl_nocall in NC. destruct NC as (_ & _ & N3). exfalso.
+      assert (In (c', r) (o_binds o)) by (unfold o_binds; apply in_flat_map; exists (OBind c' r); split; [exact H|left; reflexivity]).
+      rewrite N3 in H0. destruct H0.
+    + destruct H as [H|H]; [injection H as _ <-; reflexivity|].
+      apply ncl_nocall in NC. destruct NC as (_ & _ & N3). exfalso.
+      assert (In (c', r) (o_binds o)) by (unfold o_binds; apply in_flat_map; exists (OBind c' r); split; [exact H|left; reflexivity]).
+      rewrite N3 in H0. destruct H0.
+  - destruct (nth_mod k (opens en)) as [[sid q]|]; cbn [fst snd]; [|intros []].
+    pose proof (Pl_openfail nwr (fun _ _ => eq_refl) s sid unsupported) as H. destruct (h_openfail _ _ _) as [s1 o]. apply B. exact H.
+  - (* unblock *)
+    destruct (chans en) as [|ch0 chs]; cbn [fst snd]; [intros []|].
+    destruct (nth_error _ _) as [ch|]; cbn [fst snd]; [|intros []].
+    destruct (c_gate ch =? 0); cbn [fst snd]; [|intros []].
+    pose proof (unblock_wire cf0 s (k mod N.of_nat (length (ch0 :: chs))) (now en) c l t) as W.
+    pose proof (unblock_ncl cf0 s (k mod N.of_nat (length (ch0 :: chs))) (now en)) as NC1.
+    destruct (fut_unblock _ _ _ _) as [s1 o1]. cbn [fst snd] in *.
+    pose proof (rsp_gate_nwr s1 (k mod N.of_nat (length (ch0 :: chs))) true) as H2.
+    pose proof (rsp_gate_ncl s1 (k mod N.of_nat (length (ch0 :: chs))) true) as NC2.
+    destruct (rsp_gate _ _ _) as [s2 o2]. cbn [fst snd] in *.
+    intros Hin. apply in_app_or in Hin. destruct Hin as [Hin|Hin]; [|destruct (nwr_no_wire _ _ _ _ H2 Hin)].
+    destruct (W Hin) as [f [Hf [E1 [E2 E3]]]]. left. exists f. repeat split; auto.
+    intros c' r Hb. pose proof (ncl_nocall _ (ncl_app _ _ NC1 NC2)) as (_ & _ & N3).
+    assert (In (c', r) (o_binds (o1 ++ o2))) by (unfold o_binds; apply in_flat_map; exists (OBind c' r); split; [exact Hb|left; reflexivity]).
+    rewrite N3 in H. destruct H.
+  - destruct (chans en) as [|ch0 chs]; cbn [fst snd]; [intros []|].
+    destruct (nth_error _ _) as [ch|]; cbn [fst snd]; [|intros []].
+    destruct (c_gate ch =? 2); cbn [fst snd]; [intros []|].
+    pose proof (Pl_breakw nwr (fun _ _ => eq_refl) (fun _ _ _ => eq_refl) s (k mod N.of_nat (length (ch0 :: chs)))) as H1.
+    destruct (fut_breakw _ _) as [s1 o1]. cbn [fst snd] in *.
+    pose proof (rsp_gate_nwr s1 (k mod N.of_nat (length (ch0 :: chs))) false) as H2.
+    destruct (rsp_gate _ _ _) as [s2 o2]. cbn [fst snd] in *. apply B. apply Pl_app; assumption.
+  - destruct (chans en) as [|ch0 chs]; cbn [fst snd]; [intros []|].
+    destruct (nth_error _ _) as [ch|]; cbn [fst snd]; [|intros []].
+    destruct (c_out ch && c_seen ch); cbn [fst snd]; [|intros []].
+    match goal with |- context [fut_read s ?c0 ?r] =>
+      pose proof (Pl_read nwr (fun _ _ => eq_refl) (fun _ _ _ => eq_refl) (fun _ _ => eq_refl) s c0 r) as H; destruct (fut_read s c0 r) as [s1 o] end.
+    apply B. exact H.
+  - destruct (chans en) as [|ch0 chs]; cbn [fst snd]; [intros []|].
+    destruct (nth_error _ _) as [ch|]; cbn [fst snd]; [|intros []].
+    destruct (c_out ch); [destruct (c_seen ch)|]; cbn [fst snd]; try (intros []).
+    + match goal with |- context [fut_read s ?c0 ?r] =>
+        pose proof (Pl_read nwr (fun _ _ => eq_refl) (fun _ _ _ => eq_refl) (fun _ _ => eq_refl) s c0 r) as H; destruct (fut_read s c0 r) as [s1 o] end.
+      apply B. exact H.
+    + match goal with |- context [h_inread s ?c0 ?g ?l0 ?t0] =>
+        pose proof (inread_nwr s c0 g l0 t0) as H; destruct (h_inread s c0 g l0 t0) as [s1 o] end. apply B. exact H.
+  - destruct (chans en) as [|ch0 chs]; cbn [fst snd]; [intros []|].
+    destruct (nth_error _ _) as [ch|]; cbn [fst snd]; [|intros []].
+    destruct (c_out ch); [destruct (c_seen ch)|]; cbn [fst snd]; try (intros []).
+    + match goal with |- context [fut_read s ?c0 ?r] =>
+        pose proof (Pl_read nwr (fun _ _ => eq_refl) (fun _ _ _ => eq_refl) (fun _ _ => eq_refl) s c0 r) as H; destruct (fut_read s c0 r) as [s1 o] end.
+      apply B. exact H.
+    + match goal with |- context [h_inread s ?c0 ?g ?l0 ?t0] =>
+        pose proof (inread_nwr s c0 g l0 t0) as H; destruct (h_inread s c0 g l0 t0) as [s1 o] end. apply B. exact H.
+  - pose proof (Pl_advance nwr (fun _ _ => eq_refl) (fun _ _ _ => eq_refl) s (now en + dt)) as H.
+    destruct (fut_advance s (now en + dt)) as [s1 o]. cbn [fst snd] in *. apply B. apply Pl_app; [exact H|apply adv_out_nwr].
+  - destruct (conn_of p en); cbn [fst snd]; [|intros []].
+    pose proof (inopen_shape cf0 s p (N.of_nat (length (chans en))) neg) as (O & _).
+    destruct (h_inopen _ _ _ _ _) as [s1 o]. cbn [fst snd] in *. subst o. intros [].
+  - destruct (chans en) as [|ch0 chs]; cbn [fst snd]; [intros []|].
+    destruct (nth_error _ _) as [ch|]; cbn [fst snd]; [|intros []].
+    destruct (negb (c_out ch)); cbn [fst snd]; [|intros []].
+    match goal with |- context [h_inread s ?c0 ?g ?l0 ?t0] =>
+      pose proof (inread_nwr s c0 g l0 t0) as H; destruct (h_inread s c0 g l0 t0) as [s1 o] end. apply B. exact H.
+  - destruct (nth_mod k (hpend en)) as [irid|]; cbn [fst snd]; [|intros []].
+    match goal with |- context [h_uresp cf0 s ?a ?b ?c0 ?f ?d ?e0] =>
+      pose proof (uresp_nwr cf0 s a b c0 f d e0) as H; destruct (h_uresp cf0 s a b c0 f d e0) as [s1 o] end. apply B. exact H.
+  - destruct (nth_mod k (hpend en)) as [irid|]; cbn [fst snd]; intros [].
+  - cbn [fst snd]. intros [].
+  - cbn [fst snd]. intros [].
+  - cbn [fst snd]. intros [].
+  - cbn [fst snd]. intros [].
+Qed.
+
+Definition sent_ids (o : list out) : list N := flat_map (fun x => match x with OSent r => [r] | _ => [] end) o.
+
+Lemma send_reqs s p dial len tag fb ok dok sid q :
+  In q (reqs (fst (h_send s p dial len tag fb ok dok sid))) -> In q (reqs s) \/ q = mkReq (next_rid s) len tag fb.
+Proof.
+  rewrite !in_reqs. unfold h_send. simp_sets.
+  destruct (memN p (peers s)); [destruct ok|destruct dial; cbn [negb]; [destruct dok|]]; cbn [fst]; simp_sets;
+    try (intros H; left; exact H).
+  - intros [H|[[po [Hpo E]]|H]]; [left; left; exact H| |left; right; right; exact H].
+    apply in_app_or in Hpo. destruct Hpo as [Hpo|[<-|[]]]; [left; right; left; exists po; auto|right; symmetry; exact E].
+  - intros [[d [Hd E]]|H]; [|left; right; exact H].
+    apply in_app_or in Hd. destruct Hd as [Hd|[<-|[]]]; [left; left; exists d; auto|right; symmetry; exact E].
+Qed.
+Lemma send_sent s p dial len tag fb ok dok sid :
+  sent_ids (snd (h_send s p dial len tag fb ok dok sid)) = [next_rid s].
+Proof. unfold h_send. repeat match goal with |- context [if ?x then _ else _] => destruct x end; reflexivity. Qed.
+
+Lemma opened_body_reqs cf0 s po c gate now neg q :
+  In po (pouts s) ->
+  In q (reqs (fst (opened_body cf0 s po c gate now neg))) ->
+  In q (reqs s) \/ q = mkReq (q_rid (po_req po)) (fst (chosen (po_req po) neg)) (snd (chosen (po_req po) neg)) (q_fb (po_req po)).
+Proof.
+  intros Hin. unfold opened_body. cbn [q_rid q_len q_tag q_fb].
+  assert (HS : forall res, In q (reqs (fst (settle (set_pouts s (drop_po po (pouts s))) (po_peer po) (q_rid (po_req po)) res))) -> In q (reqs s)).
+  { intros res. rewrite !in_reqs. unfold settle. destruct (_ && _); cbn [fst]; simp_sets;
+      (intros [H|[[po' [Hpo E]]|H]]; [left; exact H|right; left; exists po'; unfold drop_po in Hpo; apply filter_In in Hpo; destruct Hpo; auto|right; right; exact H]). }
+  destruct (max_size cf0 <? _); [intros H; left; exact (HS _ H)|].
+  destruct gate as [|[g|g|]]; try (intros H; left; exact (HS _ H)); rewrite !in_reqs; cbn [fst]; simp_sets;
+    (intros [H|[[po' [Hpo E]]|[f [Hf E]]]];
+     [left; left; exact H
+     |left; right; left; exists po'; unfold drop_po in Hpo; apply filter_In in Hpo; destruct Hpo; auto
+     |apply in_app_or in Hf; destruct Hf as [Hf|[<-|[]]]; [left; right; right; exists f; auto|right; symmetry; exact E]]).
+Qed.
+
+(* where a request context comes from *)
+Lemma step_reqs cf0 s en e q :
+  In q (reqs (fst (fst (fst (step cf0 (s, en) e))))) ->
+  In q (reqs s) \/
+  (exists p d l t fb, e = ESend p d l t fb /\ q = mkReq (next_rid s) l t fb) \/
+  (exists k g ng po, e = EOpened k g ng /\ In po (pouts s) /\
+                     q = mkReq (q_rid (po_req po)) (fst (chosen (po_req po) ng)) (snd (chosen (po_req po) ng)) (q_fb (po_req po))).
+Proof.
+  destruct e; cbn [step].
+  - match goal with |- context [h_send s p dial len tag ?fb0 ?a0 ?b0 ?c0] =>
+      pose proof (send_reqs s p dial len tag fb0 a0 b0 c0 q) as H end.
+    destruct (h_send _ _ _ _ _ _ _ _ _) as [s1 o]. cbn [fst] in *. intros Hq. destruct (H Hq) as [A|A]; [left; exact A|].
+    right. left. exists p, dial, len, tag, fb. auto.
+  - pose proof (cancel_ReqsSub s rid q) as H. destruct (h_cancel s rid) as [s1 o]. intros Hq. left. exact (H Hq).
+  - destruct (conn_of p en); cbn [fst]; [auto|].
+    match goal with |- context [h_established s p ?n ?sd] => pose proof (established_ReqsSub s p n sd q) as H end.
+    destruct (h_established _ _ _ _) as [s1 o]. intros Hq. left. exact (H Hq).
+  - destruct (conn_of p en); cbn [fst]; [|auto].
+    pose proof (closed_ReqsSub s p q) as H. destruct (h_closed s p) as [s1 o]. intros Hq. left. exact (H Hq).
+  - pose proof (dialfail_ReqsSub s p q) as H. destruct (h_dialfail s p) as [s1 o]. intros Hq. left. exact (H Hq).
+  - destruct (nth_mod k (opens en)) as [[sid q0]|]; cbn [fst]; [|auto].
+    unfold h_opened. destruct (find_po sid (pouts s)) as [po|] eqn:Fp; [|auto].
+    pose proof (opened_body_reqs cf0 s po (N.of_nat (length (chans en))) (N.min gate 2) (now en) neg q (proj1 (find_in _ _ _ Fp))) as H.
+    destruct (opened_body _ _ _ _ _ _ _) as [s1 o]. cbn [fst] in *. intros Hq. destruct (H Hq) as [A|A]; [left; exact A|].
+    right. right. exists k, gate, neg, po. split; [reflexivity|]. split; [exact (proj1 (find_in _ _ _ Fp))|exact A].
+  - destruct (nth_mod k (opens en)) as [[sid q0]|]; cbn [fst]; [|auto].
+    pose proof (openfail_ReqsSub s sid unsupported q) as H. destruct (h_openfail _ _ _) as [s1 o]. intros Hq. left. exact (H Hq).
+  - destruct (chans en) as [|ch0 chs]; cbn [fst]; [auto|].
+    destruct (nth_error _ _) as [ch|]; cbn [fst]; [|auto].
+    destruct (c_gate ch =? 0); cbn [fst]; [|auto].
+    pose proof (unblock_ReqsSub cf0 s (k mod N.of_nat (length (ch0 :: chs))) (now en)) as H.
+    destruct (fut_unblock _ _ _ _) as [s1 o1]. cbn [fst] in *.
+    pose proof (rsp_gate_same s1 (k mod N.of_nat (length (ch0 :: chs))) true) as [H2 _].
+    destruct (rsp_gate _ _ _) as [s2 o2]. cbn [fst] in *. intros Hq. left. apply H. exact (same_ledger_ReqsSub _ _ H2 q Hq).
+  - destruct (chans en) as [|ch0 chs]; cbn [fst]; [auto|].
+    destruct (nth_error _ _) as [ch|]; cbn [fst]; [|auto].
+    destruct (c_gate ch =? 2); cbn [fst]; [auto|].
+    pose proof (breakw_ReqsSub s (k mod N.of_nat (length (ch0 :: chs)))) as H.
+    destruct (fut_breakw _ _) as [s1 o1]. cbn [fst] in *.
+    pose proof (rsp_gate_same s1 (k mod N.of_nat (length (ch0 :: chs))) false) as [H2 _].
+    destruct (rsp_gate _ _ _) as [s2 o2]. cbn [fst] in *. intros Hq. left. apply H. exact (same_ledger_ReqsSub _ _ H2 q Hq).
+  - destruct (chans en) as [|ch0 chs]; cbn [fst]; [auto|].
+    destruct (nth_error _ _) as [ch|]; cbn [fst]; [|auto].
+    destruct (c_out ch && c_seen ch); cbn [fst]; [|auto].
+    match goal with |- context [fut_read s ?c0 ?r] =>
+      pose proof (read_ReqsSub s c0 r q) as H; destruct (fut_read s c0 r) as [s1 o] end. intros Hq. left. exact (H Hq).
+  - destruct (chans en) as [|ch0 chs]; cbn [fst]; [auto|].
+    destruct (nth_error _ _) as [ch|]; cbn [fst]; [|auto].
+    destruct (c_out ch); [destruct (c_seen ch)|]; cbn [fst]; auto.
+    + match goal with |- context [fut_read s ?c0 ?r] =>
+        pose proof (read_ReqsSub s c0 r q) as H; destruct (fut_read s c0 r) as [s1 o] end. intros Hq. left. exact (H Hq).
+    + match goal with |- context [h_inread s ?c0 ?g ?l0 ?t0] =>
+        pose proof (inread_same s c0 g l0 t0) as [H _]; destruct (h_inread s c0 g l0 t0) as [s1 o] end.
+      intros Hq. left. exact (same_ledger_ReqsSub _ _ H q Hq).
+  - destruct (chans en) as [|ch0 chs]; cbn [fst]; [auto|].
+    destruct (nth_error _ _) as [ch|]; cbn [fst]; [|auto].
+    destruct (c_out ch); [destruct (c_seen ch)|]; cbn [fst]; auto.
+    + match goal with |- context [fut_read s ?c0 ?r] =>
+        pose proof (read_ReqsSub s c0 r q) as H; destruct (fut_read s c0 r) as [s1 o] end. intros Hq. left. exact (H Hq).
+    + match goal with |- context [h_inread s ?c0 ?g ?l0 ?t0] =>
+        pose proof (inread_same s c0 g l0 t0) as [H _]; destruct (h_inread s c0 g l0 t0) as [s1 o] end.
+      intros Hq. left. exact (same_ledger_ReqsSub _ _ H q Hq).
+  - pose proof (complete_all_ReqsSub (filter (fun f => f_dl f <=? now en + dt) (futs s)) s (RErr E_TIMEOUT) q) as H.
+    unfold fut_advance. destruct (complete_all _ _ _) as [s1 o]. cbn [fst] in *. intros Hq. left. apply H. exact Hq.
+  - destruct (conn_of p en); cbn [fst]; [|auto].
+    pose proof (inopen_same cf0 s p (N.of_nat (length (chans en))) neg) as [H _].
+    destruct (h_inopen _ _ _ _ _) as [s1 o]. intros Hq. left. exact (same_ledger_ReqsSub _ _ H q Hq).
+  - destruct (chans en) as [|ch0 chs]; cbn [fst]; [auto|].
+    destruct (nth_error _ _) as [ch|]; cbn [fst]; [|auto].
+    destruct (negb (c_out ch)); cbn [fst]; [|auto].
+    match goal with |- context [h_inread s ?c0 ?g ?l0 ?t0] =>
+      pose proof (inread_same s c0 g l0 t0) as [H _]; destruct (h_inread s c0 g l0 t0) as [s1 o] end.
+    intros Hq. left. exact (same_ledger_ReqsSub _ _ H q Hq).
+  - destruct (nth_mod k (hpend en)) as [irid|]; cbn [fst]; [|auto].
+    match goal with |- context [h_uresp cf0 s ?a ?b ?c0 ?f ?d ?e0] =>
+      pose proof (uresp_same cf0 s a b c0 f d e0) as [H _]; destruct (h_uresp cf0 s a b c0 f d e0) as [s1 o] end.
+    intros Hq. left. exact (same_ledger_ReqsSub _ _ H q Hq).
+  - destruct (nth_mod k (hpend en)) as [irid|]; cbn [fst]; auto.
+  - cbn [fst]. auto.
+  - cbn [fst]. auto.
+  - cbn [fst]. auto.
+  - cbn [fst]. auto.
+Qed.
+
+(* what send_request was given for each request id: (length, tag, fallback variant) *)
+Definition payinfo := (N * N * option (N * N * N))%type.
+Definition pay_ok (x : payinfo) (l t : N) : Prop :=
+  (l, t) = (fst (fst x), snd (fst x)) \/ exists n fl ft, snd x = Some (n, fl, ft) /\ (l, t) = (fl, ft).
+Definition okreq (sp : list (N * payinfo)) (q : req) : Prop :=
+  exists l t, In (q_rid q, (l, t, q_fb q)) sp /\ pay_ok (l, t, q_fb q) (q_len q) (q_tag q).
+Definition sp_step (e : ev) (o : list out) (sp : list (N * payinfo)) : list (N * payinfo) :=
+  sp ++ match e with ESend _ _ l t fb => map (fun r => (r, (l, t, fb))) (sent_ids o) | _ => [] end.
+
+Record Inv7 (sp : list (N * payinfo)) (s : pst) (en : env) (tr : list out) : Prop := mkInv7 {
+  w_req : forall q, In q (reqs s) -> okreq sp q;
+  w_fun : forall r x y, In (r, x) sp -> In (r, y) sp -> x = y;
+  w_lt : forall r x, In (r, x) sp -> r < next_rid s;
+  w_wire : forall c rid l t, In (OBind c rid) tr -> In (OWire c l t) tr -> exists x, In (rid, x) sp /\ pay_ok x l t;
+  w_wlt : forall c l t, In (OWire c l t) tr -> c < nch en
+}.
+
+Lemma Inv7_init : Inv7 [] init_pst init_env [].
+Proof. constructor; cbn; intros; contradiction. Qed.
+
+Lemma chosen_ok l t fb q ng :
+  q_fb q = fb -> pay_ok (l, t, fb) (q_len q) (q_tag q) ->
+  pay_ok (l, t, fb) (fst (chosen q ng)) (snd (chosen q ng)).
+Proof.
+  intros E H. unfold chosen. rewrite E. destruct fb as [[[n fl] ft]|]; [|exact H].
+  destruct (negb (ng =? 0) && (n =? ng)); [|exact H]. right. exists n, fl, ft. split; reflexivity.
+Qed.
+
+Lemma step_next_rid cf0 s en e : next_rid s <= next_rid (fst (fst (fst (step cf0 (s, en) e)))).
+Proof. exact (proj1 (step_DP cf0 s en e)). Qed.
+
+Lemma step_Inv7 cf0 s en e tr used sp :
+  Inv s tr -> Inv4 s en tr used -> Inv7 sp s en tr ->
+  let r := step cf0 (s, en) e in
+  Inv7 (sp_step e (snd (fst r)) sp) (fst (fst (fst r))) (snd (fst (fst r))) (tr ++ snd (fst r)).
+Proof.
+  intros I I4 [W1 W2 W3 W4 W5] r.
+  pose proof (step_reqs cf0 s en e) as SR. pose proof (step_wire cf0 s en e) as SW.
+  pose proof (step_facts cf0 s en e) as SF. pose proof (step_next_rid cf0 s en e) as NR. cbn zeta in SF. fold r in SR, SW, SF, NR.
+  assert (Hsent : forall p d l t fb, e = ESend p d l t fb -> sent_ids (snd (fst r)) = [next_rid s] /\
+                                      next_rid s < next_rid (fst (fst (fst r)))).
+  { intros p d l t fb ->. subst r. cbn [step].
+    match goal with |- context [h_send s p d l t fb ?a0 ?b0 ?c0] => pose proof (send_sent s p d l t fb a0 b0 c0) as H end.
+    unfold h_send in *. simp_sets.
+    repeat match goal with |- context [if ?x then _ else _] => destruct x end; cbn [fst snd] in *; simp_sets; split; try exact H; lia. }
+  assert (Hmono : forall x, In x sp -> In x (sp_step e (snd (fst r)) sp)) by (intros x H; apply in_or_app; left; exact H).
+  assert (Hok : forall q, okreq sp q -> okreq (sp_step e (snd (fst r)) sp) q).
+  { intros q [l [t [H1 H2]]]. exists l, t. split; [apply Hmono; exact H1|exact H2]. }
+  destruct SF as [L F B R Q0].
+  constructor.
+  - (* every context carries what send_request was given *)
+    intros q Hq. destruct (SR q Hq) as [Hold|[Hs0|Ho0]];
+      [|destruct Hs0 as [p [d [l [t [fb [Ee Eq]]]]]]|destruct Ho0 as [k [g [ng [po [Ee [Hpo Eq]]]]]]].
+    + apply Hok. exact (W1 q Hold).
+    + destruct (Hsent p d l t fb Ee) as [Hs _]. subst q. exists l, t. cbn [q_rid q_fb q_len q_tag]. split; [|left; reflexivity].
+      unfold sp_step. rewrite Ee at 1. apply in_or_app. right. rewrite Hs. left. reflexivity.
+    + assert (Hq0 : In (po_req po) (reqs s)) by (apply in_reqs; right; left; exists po; auto).
+      destruct (W1 _ Hq0) as [l [t [H1 H2]]]. subst q. exists l, t. cbn [q_rid q_fb q_len q_tag]. split; [apply Hmono; exact H1|].
+      apply chosen_ok; [reflexivity|exact H2].
+  - intros r0 x y Hx Hy. unfold sp_step in Hx, Hy. apply in_app_or in Hx. apply in_app_or in Hy.
+    destruct e; try (destruct Hx as [Hx|[]]; destruct Hy as [Hy|[]]; exact (W2 r0 x y Hx Hy)).
+    destruct (Hsent p dial len tag fb eq_refl) as [Hs _]. rewrite Hs in Hx, Hy. cbn [map In] in Hx, Hy.
+    destruct Hx as [Hx|[Hx|[]]], Hy as [Hy|[Hy|[]]].
+    + exact (W2 r0 x y Hx Hy).
+    + injection Hy as <- <-. specialize (W3 _ _ Hx). lia.
+    + injection Hx as <- <-. specialize (W3 _ _ Hy). lia.
+    + congruence.
+  - intros r0 x Hx. unfold sp_step in Hx. apply in_app_or in Hx. destruct Hx as [Hx|Hx]; [specialize (W3 _ _ Hx); lia|].
+    destruct e; try destruct Hx. destruct (Hsent p dial len tag fb eq_refl) as [Hs Hn]. rewrite Hs in Hx.
+    destruct Hx as [Hx|[]]. injection Hx as <- _. exact Hn.
+  - (* a frame on a bound carrier is that request's payload *)
+    intros c rid l t Hb Hw. apply in_app_or in Hb. apply in_app_or in Hw.
+    destruct Hb as [Hb|Hb], Hw as [Hw|Hw].
+    + destruct (W4 c rid l t Hb Hw) as [x [Hx Hp]]. exists x. split; [apply Hmono; exact Hx|exact Hp].
+    + destruct (SW c l t Hw) as [[f [Hf [Ec [El [Et _]]]]]|[k [g [ng [po [_ [_ [Ec _]]]]]]]].
+      * pose proof (b_fut _ _ _ _ I4 f Hf) as Hbf. rewrite Ec in Hbf.
+        pose proof (b_fun _ _ _ _ I4 c rid (rid_f f) Hb Hbf) as Er.
+        assert (Hq : In (f_req f) (reqs s)) by (apply in_reqs; right; right; exists f; auto).
+        destruct (W1 _ Hq) as [l0 [t0 [H1 H2]]]. exists (l0, t0, q_fb (f_req f)).
+        split; [apply Hmono; rewrite Er; exact H1|rewrite El, Et; exact H2].
+      * pose proof (b_lt _ _ _ _ I4 c rid Hb). lia.
+    + destruct (B c rid Hb) as [Ec _]. specialize (W5 c l t Hw). lia.
+    + destruct (SW c l t Hw) as [[f [_ [_ [_ [_ Nb]]]]]|[k [g [ng [po [Ee [Hpo [Ec [El [Et Hb1]]]]]]]]]]; [destruct (Nb c rid Hb)|].
+      destruct (Hb1 c rid Hb) as [_ Er].
+      assert (Hq0 : In (po_req po) (reqs s)) by (apply in_reqs; right; left; exists po; auto).
+      destruct (W1 _ Hq0) as [l0 [t0 [H1 H2]]]. exists (l0, t0, q_fb (po_req po)).
+      split; [apply Hmono; rewrite Er; exact H1|]. rewrite El, Et. apply chosen_ok; [reflexivity|exact H2].
+  - intros c l t Hw. apply in_app_or in Hw. destruct Hw as [Hw|Hw]; [specialize (W5 c l t Hw); lia|].
+    destruct (SW c l t Hw) as [[f [Hf [Ec _]]]|[k [g [ng [po [Ee [_ [Ec [_ [_ Hb1]]]]]]]]]].
+    + pose proof (b_fut _ _ _ _ I4 f Hf) as Hbf. pose proof (b_lt _ _ _ _ I4 _ _ Hbf). lia.
+    + (* the new carrier: the binding of this step gives nch en < nch en' *)
+      subst c.
+      assert (Hex : exists rid, In (OBind (nch en) rid) (snd (fst r))).
+      { clear - Hw Ee. subst r e. cbn [step] in *. destruct (nth_mod k (opens en)) as [[sid q0]|]; cbn [fst snd] in *; [|destruct Hw].
+        unfold h_opened in *. destruct (find_po sid (pouts s)) as [po0|]; [|destruct Hw].
+        destruct (opened_body _ _ _ _ _ _ _) as [s1 o]. cbn [fst snd] in *. eexists. left. reflexivity. }
+      destruct Hex as [rid Hb]. destruct (B _ _ Hb) as [_ [Hlt _]]. exact Hlt.
+Qed.
+
+Definition sp_of (steps : list (ev * list out * option N)) : list (N * payinfo) :=
+  flat_map (fun x => match fst (fst x) with
+                     | ESend _ _ l t fb => map (fun r => (r, (l, t, fb))) (sent_ids (snd (fst x)))
+                     | _ => [] end) steps.
+
+Lemma steps_Inv7 cf0 evs : forall s en tr used sp,
+  Inv s tr -> Inv4 s en tr used -> Inv7 sp s en tr ->
+  exists s' en', Inv7 (sp ++ sp_of (run_steps cf0 (s, en) evs)) s' en' (tr ++ outs_of (run_steps cf0 (s, en) evs)).
+Proof.
+  induction evs as [|e evs IH]; intros s en tr used sp I I4 I7; cbn [run_steps].
+  - exists s, en. cbn. rewrite !app_nil_r. exact I7.
+  - pose proof (step_Inv cf0 s en e tr I) as I'. pose proof (step_Inv4 cf0 s en e tr used I4) as I4'.
+    pose proof (step_Inv7 cf0 s en e tr used sp I I4 I7) as I7'. cbn zeta in *.
+    destruct (step cf0 (s, en) e) as [[[s1 en1] o] tg]. cbn [fst snd] in *.
+    destruct (IH s1 en1 _ _ _ I' I4' I7') as [s2 [en2 J]]. exists s2, en2.
+    rewrite outs_of_cons. cbn [fst snd]. unfold sp_of in *. cbn [flat_map fst snd]. unfold sp_step in J.
+    rewrite !app_assoc. rewrite <- !app_assoc in J. rewrite <- !app_assoc. exact J.
+Qed.
+
+(* The frame written on the carrier that was handed to request rid is the request given to
+   send_request for rid (or its fallback variant). *)
+Theorem request_wire cf0 evs pre p d len tag fb o tg post rid c l t :
+  run_steps cf0 (init_pst, init_env) evs = pre ++ (ESend p d len tag fb, o, tg) :: post ->
+  In (OSent rid) o ->
+  In (OBind c rid) (outs_of (run_steps cf0 (init_pst, init_env) evs)) ->
+  In (OWire c l t) (outs_of (run_steps cf0 (init_pst, init_env) evs)) ->
+  (l, t) = (len, tag) \/ exists n fl ft, fb = Some (n, fl, ft) /\ (l, t) = (fl, ft).
+Proof.
+  intros E Hs Hb Hw.
+  destruct (steps_Inv7 cf0 evs _ _ _ _ _ Inv_init Inv4_init Inv7_init) as [s' [en' J]]. cbn [app] in J.
+  destruct (w_wire _ _ _ _ J c rid l t Hb Hw) as [x [Hx Hp]].
+  assert (Hin : In (rid, (len, tag, fb)) (sp_of (run_steps cf0 (init_pst, init_env) evs))).
+  { rewrite E. unfold sp_of. rewrite flat_map_app. apply in_or_app. right. cbn [flat_map fst snd]. apply in_or_app. left.
+    apply in_map_iff. exists rid. split; [reflexivity|]. unfold sent_ids. apply in_flat_map. exists (OSent rid). split; [exact Hs|left; reflexivity]. }
+  rewrite (w_fun _ _ _ _ J rid x _ Hx Hin) in Hp. exact Hp.
+Qed.
+
+(* ------------------------------------------------------------------ bounded event channel *)
+Lemma relay_step_keeps cap st m :
+  rl_delivered (relay_step cap st m) ++ rl_queue (relay_step cap st m) ++ rl_pending (relay_step cap st m)
+  = rl_delivered st ++ rl_queue st ++ rl_pending st /\
+  (length (rl_queue st) <= cap -> length (rl_queue (relay_step cap st m)) <= cap)%nat.
+Proof.
+  destruct st as [p q d]. destruct m; cbn [relay_step rl_pending rl_queue rl_delivered].
+  - destruct p as [|x p]; [auto|]. destruct (Nat.ltb (length q) cap) eqn:E; cbn [rl_pending rl_queue rl_delivered]; [|auto].
+    apply Nat.ltb_lt in E. split; [rewrite <- !app_assoc; reflexivity|]. intros _. rewrite app_length. cbn [length]. lia.
+  - destruct q as [|x q]; [auto|]. cbn [rl_pending rl_queue rl_delivered]. split; [rewrite <- !app_assoc; reflexivity|].
+    cbn [length]. lia.
+Qed.
+
+Theorem relay_nothing_lost cap o ms :
+  let st := relay_run cap o ms in
+  rl_delivered st ++ rl_queue st ++ rl_pending st = o /\ (length (rl_queue st) <= cap)%nat.
+Proof.
+  unfold relay_run.
+  assert (H : forall st, (length (rl_queue st) <= cap)%nat ->
+     let st' := fold_left (relay_step cap) ms st in
+     rl_delivered st' ++ rl_queue st' ++ rl_pending st' = rl_delivered st ++ rl_queue st ++ rl_pending st /\
+     (length (rl_queue st') <= cap)%nat).
+  { induction ms as [|m ms IH]; intros st L; cbn [fold_left]; [auto|].
+    destruct (relay_step_keeps cap st m) as [E L']. destruct (IH (relay_step cap st m) (L' L)) as [E2 L2].
+    split; [rewrite E2; exact E|exact L2]. }
+  destruct (H (mkRelay o [] []) (Nat.le_0_l _)) as [E L]. cbn [rl_delivered rl_queue rl_pending app] in E. auto.
+Qed.
+
+(* dial() refused at once (no address, own peer id, manager gone): exactly one RequestFailed *)
+Lemma dial_refused_one_failure s p len tag fb ok sid :
+  memN p (peers s) = false ->
+  snd (h_send s p true len tag fb ok false sid) = [OSent (next_rid s); OFail (next_rid s) E_DIAL_IMMEDIATE] /\
+  dials (fst (h_send s p true len tag fb ok false sid)) = dials s /\
+  active (fst (h_send s p true len tag fb ok false sid)) = active s.
+Proof. intros H. unfold h_send. simp_sets. rewrite H. cbn. auto. Qed.
